@@ -39,3 +39,1484 @@ package generic
 //@   flag panic_clean
 //@   ensures g.world.resources.resources[int(g.id.id)] == nil
 //@   modifies g.world.resources.resources[int(g.id.id)]
+
+// typeOf[T]() is the reflect.Type of T (ASSUMED, see rtypeOf in the ecs contracts)
+//@ func typeOf() (r)
+//@   flag trusted
+//@   ensures r == rtypeOf(typeid(T)) && r != nil
+
+// ---- C18: compiling a generic filter into core masks ------------------------------------------------
+// compHave(w, ts, n, i): component ID i is the registered ID of one of the first n types of ts
+//@ pred compHave(w *World, ts []Comp, n int, i uint8) bool = exists k int :: {ts[k]} 0 <= k && k < n && w.registry.Components[ts[k].val] == i
+//@ pred compsKnown(w *World, ts []Comp, n int) bool = forall k int :: {ts[k]} 0 <= k && k < n ==> mapHas(w.registry.Components, ts[k].val)
+
+//@ func toIds(w, types) (ids)
+//@   props C18
+//@   requires w != nil && regInv(&w.registry)
+//@   flag may_panic
+//@   ensures regInv(&w.registry) && len(ids) == len(types) && compsKnown(w, types, len(types)) && fresh(ids.data)
+//@   ensures forall k int :: {ids[k]} 0 <= k && k < len(types) ==> ids[k].id == w.registry.Components[types[k].val] && validID(ids[k].id)
+//@   ensures forall t ref :: {mapHas(w.registry.Components, t)} old(mapHas(w.registry.Components, t)) ==> mapHas(w.registry.Components, t) && w.registry.Components[t] == old(w.registry.Components[t])
+//@   modifies w.registry.Components[ALL], w.registry.Types[ALL], w.registry.Used.bits, w.registry.IsRelation.bits, w.registry.IDs, elems(uint8), all(archetypeData.layouts), all(archetypeAccess.basePointer)
+//@   loop #1
+//@   inv regInv(&w.registry) && len(ids) == len(types) && compsKnown(w, types, $i) && fresh(ids.data)
+//@   inv forall k int :: {ids[k]} 0 <= k && k < $i ==> ids[k].id == w.registry.Components[types[k].val] && validID(ids[k].id)
+//@   inv forall t ref :: {mapHas(w.registry.Components, t)} old(mapHas(w.registry.Components, t)) ==> mapHas(w.registry.Components, t) && w.registry.Components[t] == old(w.registry.Components[t])
+
+//@ func toMask(w, types) (m)
+//@   props C18
+//@   requires w != nil && regInv(&w.registry)
+//@   flag may_panic
+//@   ensures regInv(&w.registry) && compsKnown(w, types, len(types))
+//@   ensures forall i uint8 :: {bitU(m, i)} bitU(m, i) == compHave(w, types, len(types), i)
+//@   ensures forall t ref :: {mapHas(w.registry.Components, t)} old(mapHas(w.registry.Components, t)) ==> mapHas(w.registry.Components, t) && w.registry.Components[t] == old(w.registry.Components[t])
+//@   modifies w.registry.Components[ALL], w.registry.Types[ALL], w.registry.Used.bits, w.registry.IsRelation.bits, w.registry.IDs, elems(uint8), all(archetypeData.layouts), all(archetypeAccess.basePointer)
+//@   loop #1
+//@   inv regInv(&w.registry) && compsKnown(w, types, $i)
+//@   inv forall i uint8 :: {bitU(mask, i)} bitU(mask, i) == compHave(w, types, $i, i)
+//@   inv forall t ref :: {mapHas(w.registry.Components, t)} old(mapHas(w.registry.Components, t)) ==> mapHas(w.registry.Components, t) && w.registry.Components[t] == old(w.registry.Components[t])
+
+// idHave(ids, n, i): i is among the first n IDs
+//@ pred idHave(ids []ID, n int, i uint8) bool = exists k int :: {ids[k]} 0 <= k && k < n && ids[k].id == i
+
+//@ func toMaskOptional(w, include, optional) (m)
+//@   props C18
+//@   requires w != nil && regInv(&w.registry)
+//@   requires forall k int :: {include[k]} 0 <= k && k < len(include) ==> validID(include[k].id)
+//@   flag may_panic
+//@   ensures regInv(&w.registry) && compsKnown(w, optional, len(optional))
+//@   ensures forall i uint8 :: {bitU(m, i)} bitU(m, i) ==> validID(i) && idHave(include, len(include), i)
+//@   ensures forall k int :: {optional[k]} 0 <= k && k < len(optional) ==> !bitU(m, w.registry.Components[optional[k].val])
+//@   ensures forall i uint8 :: {bitU(m, i)} validID(i) && idHave(include, len(include), i) && !bitU(m, i) ==> compHave(w, optional, len(optional), i)
+//@   ensures forall t ref :: {mapHas(w.registry.Components, t)} old(mapHas(w.registry.Components, t)) ==> mapHas(w.registry.Components, t) && w.registry.Components[t] == old(w.registry.Components[t])
+//@   modifies w.registry.Components[ALL], w.registry.Types[ALL], w.registry.Used.bits, w.registry.IsRelation.bits, w.registry.IDs, elems(uint8), all(archetypeData.layouts), all(archetypeAccess.basePointer)
+//@   loop #1
+//@   inv regInv(&w.registry) && compsKnown(w, optional, $i)
+//@   inv forall i uint8 :: {bitU(mask, i)} bitU(mask, i) ==> validID(i) && idHave(include, len(include), i)
+//@   inv forall k int :: {optional[k]} 0 <= k && k < $i ==> !bitU(mask, w.registry.Components[optional[k].val])
+//@   inv forall i uint8 :: {bitU(mask, i)} validID(i) && idHave(include, len(include), i) && !bitU(mask, i) ==> compHave(w, optional, $i, i)
+//@   inv forall t ref :: {mapHas(w.registry.Components, t)} old(mapHas(w.registry.Components, t)) ==> mapHas(w.registry.Components, t) && w.registry.Components[t] == old(w.registry.Components[t])
+
+// Compile: a filter that is already compiled is left alone; otherwise the core filter is built from the arguments:
+// Ids = registered IDs of `include` in order; Include = those IDs minus the optional ones; Exclude = complement of
+// Include if exclusive, else the IDs of `exclude`; relation = ID of targetType; the resulting ecs.Filter is the relation
+// filter over the mask filter if a fixed target is configured, else the mask filter (or the bare Include mask when
+// nothing is excluded). The ghost fields record the configuration it was compiled from.
+//@ func compiledQuery.Compile(q, w, include, optional, exclude, exclusive, targetType, target, hasTarget)
+//@   props C18
+//@   requires w != nil && regInv(&w.registry)
+//@   flag may_panic
+//@   modifies *q, w.registry.Components[ALL], w.registry.Types[ALL], w.registry.Used.bits, w.registry.IsRelation.bits, w.registry.IDs, elems(uint8), all(archetypeData.layouts), all(archetypeAccess.basePointer)
+//@   ghost q.cExclusive := old(q.compiled) ? old(q.cExclusive) : exclusive
+//@   ghost q.cNIncl := old(q.compiled) ? old(q.cNIncl) : len(include)
+//@   ghost q.cNOpt := old(q.compiled) ? old(q.cNOpt) : len(optional)
+//@   ghost q.cNExcl := old(q.compiled) ? old(q.cNExcl) : len(exclude)
+//@   ghost q.cTargetType := old(q.compiled) ? old(q.cTargetType) : targetType.val
+//@   ghost q.cHasTarget := old(q.compiled) ? old(q.cHasTarget) : hasTarget
+//@   ghost q.cTargetId := old(q.compiled) ? old(q.cTargetId) : target.id
+//@   ghost q.cTargetGen := old(q.compiled) ? old(q.cTargetGen) : target.gen
+//@   ensures q.compiled && q.locked == old(q.locked)
+//@   ensures[snap] !old(q.compiled) ==> q.cExclusive == exclusive && q.cNIncl == len(include) && q.cNOpt == len(optional) && q.cNExcl == len(exclude) && q.cTargetType == targetType.val && q.cHasTarget == hasTarget && q.cTargetId == target.id && q.cTargetGen == target.gen
+//@   ensures[snapkeep] old(q.compiled) ==> q.cExclusive == old(q.cExclusive) && q.cNIncl == old(q.cNIncl) && q.cNOpt == old(q.cNOpt) && q.cNExcl == old(q.cNExcl) && q.cTargetType == old(q.cTargetType) && q.cHasTarget == old(q.cHasTarget) && q.cTargetId == old(q.cTargetId) && q.cTargetGen == old(q.cTargetGen)
+//@   ensures old(q.compiled) ==> q.filter == old(q.filter) && q.Ids.data == old(q.Ids.data) && len(q.Ids) == old(len(q.Ids)) && q.Relation == old(q.Relation) && q.HasRelation == old(q.HasRelation)
+//@   ensures[ids] !old(q.compiled) ==> len(q.Ids) == len(include) && (forall k int :: {q.Ids[k]} 0 <= k && k < len(include) ==> q.Ids[k].id == w.registry.Components[include[k].val])
+//@   ensures[incl1] !old(q.compiled) ==> (forall i uint8 :: {bitU(q.maskFilter.Include, i)} bitU(q.maskFilter.Include, i) ==> validID(i) && idHave(q.Ids, len(q.Ids), i))
+//@   ensures[incl2] !old(q.compiled) ==> (forall k int :: {optional[k]} 0 <= k && k < len(optional) ==> !bitU(q.maskFilter.Include, w.registry.Components[optional[k].val]))
+//@   ensures[incl3] !old(q.compiled) ==> (forall i uint8 :: {bitU(q.maskFilter.Include, i)} validID(i) && idHave(q.Ids, len(q.Ids), i) && !bitU(q.maskFilter.Include, i) ==> compHave(w, optional, len(optional), i))
+//@   ensures[exclusive] !old(q.compiled) && exclusive ==> (forall i uint8 :: {bitU(q.maskFilter.Exclude, i)} validID(i) ==> bitU(q.maskFilter.Exclude, i) == !bitU(q.maskFilter.Include, i))
+//@   ensures[exclude] !old(q.compiled) && !exclusive ==> (forall i uint8 :: {bitU(q.maskFilter.Exclude, i)} bitU(q.maskFilter.Exclude, i) == compHave(w, exclude, len(exclude), i))
+//@   ensures[relation] !old(q.compiled) ==> q.HasRelation == (targetType != nil) && (targetType != nil ==> q.Relation.id == w.registry.Components[targetType.val])
+//@   ensures[relfilter] !old(q.compiled) && targetType != nil && hasTarget ==> is(q.filter, *RelationFilter) && as(q.filter, *RelationFilter) == &q.relationFilter && q.relationFilter.Target == target && is(q.relationFilter.Filter, *MaskFilter) && as(q.relationFilter.Filter, *MaskFilter) == &q.maskFilter
+//@   ensures[kind] !old(q.compiled) ==> q.filter != nil && !is(q.filter, *CachedFilter)
+//@   ensures[maskfilter] !old(q.compiled) && !(targetType != nil && hasTarget) && (exclusive || len(exclude) > 0) ==> is(q.filter, *MaskFilter) && as(q.filter, *MaskFilter) == &q.maskFilter
+
+// BEGIN GENERATED C18
+// ---- C18: configuration invariant of the generic filters (schema instantiated per arity by /verif/tools/gen_generic_contracts.py)
+// ghost snapshot of the configuration a compiledQuery was compiled from
+//@ ghostfield compiledQuery.cExclusive bool
+//@ ghostfield compiledQuery.cNIncl int
+//@ ghostfield compiledQuery.cNOpt int
+//@ ghostfield compiledQuery.cNExcl int
+//@ ghostfield compiledQuery.cTargetType ref
+//@ ghostfield compiledQuery.cHasTarget bool
+//@ ghostfield compiledQuery.cTargetId eid
+//@ ghostfield compiledQuery.cTargetGen uint32
+
+//@ func Filter0.With(f, mask) (r)
+//@   props C18
+//@   requires (f.compiled.compiled ==> f.compiled.cExclusive == f.exclusive && f.compiled.cNIncl == len(f.include) && f.compiled.cNOpt == len(f.optional) && f.compiled.cNExcl == len(f.exclude) && f.compiled.cTargetType == f.targetType.val && f.compiled.cHasTarget == f.hasTarget && (f.hasTarget ==> f.compiled.cTargetId == f.target.id && f.compiled.cTargetGen == f.target.gen) && len(f.compiled.Ids) == f.compiled.cNIncl && (!f.compiled.locked ==> f.compiled.filter != nil && !is(f.compiled.filter, *CachedFilter))) && len(f.include) >= 0 && (f.optional.data != nil ==> f.optional.data != f.include.data) && (f.exclude.data != nil ==> f.exclude.data != f.include.data) && allocated(f.include.data) && allocated(f.optional.data) && allocated(f.exclude.data)
+//@   flag may_panic
+//@   panics_if f.compiled.locked
+//@   ensures[cfg] r == f && (f.compiled.compiled ==> f.compiled.cExclusive == f.exclusive && f.compiled.cNIncl == len(f.include) && f.compiled.cNOpt == len(f.optional) && f.compiled.cNExcl == len(f.exclude) && f.compiled.cTargetType == f.targetType.val && f.compiled.cHasTarget == f.hasTarget && (f.hasTarget ==> f.compiled.cTargetId == f.target.id && f.compiled.cTargetGen == f.target.gen) && len(f.compiled.Ids) == f.compiled.cNIncl && (!f.compiled.locked ==> f.compiled.filter != nil && !is(f.compiled.filter, *CachedFilter)))
+//@   ensures[pos] len(f.include) >= 0 && (f.optional.data != nil ==> f.optional.data != f.include.data) && (f.exclude.data != nil ==> f.exclude.data != f.include.data) && allocated(f.include.data) && allocated(f.optional.data) && allocated(f.exclude.data)
+//@   modifies f.include, f.include[ALL], f.compiled.compiled
+
+//@ func Filter0.Without(f, mask) (r)
+//@   props C18
+//@   requires (f.compiled.compiled ==> f.compiled.cExclusive == f.exclusive && f.compiled.cNIncl == len(f.include) && f.compiled.cNOpt == len(f.optional) && f.compiled.cNExcl == len(f.exclude) && f.compiled.cTargetType == f.targetType.val && f.compiled.cHasTarget == f.hasTarget && (f.hasTarget ==> f.compiled.cTargetId == f.target.id && f.compiled.cTargetGen == f.target.gen) && len(f.compiled.Ids) == f.compiled.cNIncl && (!f.compiled.locked ==> f.compiled.filter != nil && !is(f.compiled.filter, *CachedFilter))) && len(f.include) >= 0 && (f.optional.data != nil ==> f.optional.data != f.include.data) && (f.exclude.data != nil ==> f.exclude.data != f.include.data) && allocated(f.include.data) && allocated(f.optional.data) && allocated(f.exclude.data)
+//@   flag may_panic
+//@   panics_if f.compiled.locked
+//@   ensures[cfg] r == f && (f.compiled.compiled ==> f.compiled.cExclusive == f.exclusive && f.compiled.cNIncl == len(f.include) && f.compiled.cNOpt == len(f.optional) && f.compiled.cNExcl == len(f.exclude) && f.compiled.cTargetType == f.targetType.val && f.compiled.cHasTarget == f.hasTarget && (f.hasTarget ==> f.compiled.cTargetId == f.target.id && f.compiled.cTargetGen == f.target.gen) && len(f.compiled.Ids) == f.compiled.cNIncl && (!f.compiled.locked ==> f.compiled.filter != nil && !is(f.compiled.filter, *CachedFilter)))
+//@   ensures[pos] len(f.include) >= 0 && (f.optional.data != nil ==> f.optional.data != f.include.data) && (f.exclude.data != nil ==> f.exclude.data != f.include.data) && allocated(f.include.data) && allocated(f.optional.data) && allocated(f.exclude.data)
+//@   modifies f.exclude, f.exclude[ALL], f.compiled.compiled
+
+//@ func Filter0.Exclusive(f) (r)
+//@   props C18
+//@   requires (f.compiled.compiled ==> f.compiled.cExclusive == f.exclusive && f.compiled.cNIncl == len(f.include) && f.compiled.cNOpt == len(f.optional) && f.compiled.cNExcl == len(f.exclude) && f.compiled.cTargetType == f.targetType.val && f.compiled.cHasTarget == f.hasTarget && (f.hasTarget ==> f.compiled.cTargetId == f.target.id && f.compiled.cTargetGen == f.target.gen) && len(f.compiled.Ids) == f.compiled.cNIncl && (!f.compiled.locked ==> f.compiled.filter != nil && !is(f.compiled.filter, *CachedFilter))) && len(f.include) >= 0 && (f.optional.data != nil ==> f.optional.data != f.include.data) && (f.exclude.data != nil ==> f.exclude.data != f.include.data) && allocated(f.include.data) && allocated(f.optional.data) && allocated(f.exclude.data)
+//@   flag may_panic
+//@   panics_if f.compiled.locked
+//@   ensures[cfg] r == f && (f.compiled.compiled ==> f.compiled.cExclusive == f.exclusive && f.compiled.cNIncl == len(f.include) && f.compiled.cNOpt == len(f.optional) && f.compiled.cNExcl == len(f.exclude) && f.compiled.cTargetType == f.targetType.val && f.compiled.cHasTarget == f.hasTarget && (f.hasTarget ==> f.compiled.cTargetId == f.target.id && f.compiled.cTargetGen == f.target.gen) && len(f.compiled.Ids) == f.compiled.cNIncl && (!f.compiled.locked ==> f.compiled.filter != nil && !is(f.compiled.filter, *CachedFilter)))
+//@   ensures[pos] len(f.include) >= 0 && (f.optional.data != nil ==> f.optional.data != f.include.data) && (f.exclude.data != nil ==> f.exclude.data != f.include.data) && allocated(f.include.data) && allocated(f.optional.data) && allocated(f.exclude.data)
+//@   modifies f.exclusive, f.compiled.compiled
+
+//@ func Filter0.WithRelation(f, comp, target) (r)
+//@   props C18
+//@   requires (f.compiled.compiled ==> f.compiled.cExclusive == f.exclusive && f.compiled.cNIncl == len(f.include) && f.compiled.cNOpt == len(f.optional) && f.compiled.cNExcl == len(f.exclude) && f.compiled.cTargetType == f.targetType.val && f.compiled.cHasTarget == f.hasTarget && (f.hasTarget ==> f.compiled.cTargetId == f.target.id && f.compiled.cTargetGen == f.target.gen) && len(f.compiled.Ids) == f.compiled.cNIncl && (!f.compiled.locked ==> f.compiled.filter != nil && !is(f.compiled.filter, *CachedFilter))) && len(f.include) >= 0 && (f.optional.data != nil ==> f.optional.data != f.include.data) && (f.exclude.data != nil ==> f.exclude.data != f.include.data) && allocated(f.include.data) && allocated(f.optional.data) && allocated(f.exclude.data)
+//@   flag may_panic
+//@   panics_if f.compiled.locked
+//@   ensures[cfg] r == f && (f.compiled.compiled ==> f.compiled.cExclusive == f.exclusive && f.compiled.cNIncl == len(f.include) && f.compiled.cNOpt == len(f.optional) && f.compiled.cNExcl == len(f.exclude) && f.compiled.cTargetType == f.targetType.val && f.compiled.cHasTarget == f.hasTarget && (f.hasTarget ==> f.compiled.cTargetId == f.target.id && f.compiled.cTargetGen == f.target.gen) && len(f.compiled.Ids) == f.compiled.cNIncl && (!f.compiled.locked ==> f.compiled.filter != nil && !is(f.compiled.filter, *CachedFilter)))
+//@   ensures[pos] len(f.include) >= 0 && (f.optional.data != nil ==> f.optional.data != f.include.data) && (f.exclude.data != nil ==> f.exclude.data != f.include.data) && allocated(f.include.data) && allocated(f.optional.data) && allocated(f.exclude.data)
+//@   modifies f.targetType, f.target, f.hasTarget, f.compiled.compiled
+
+//@ func Filter1[A].Optional(f, mask) (r)
+//@   props C18
+//@   requires (f.compiled.compiled ==> f.compiled.cExclusive == f.exclusive && f.compiled.cNIncl == len(f.include) && f.compiled.cNOpt == len(f.optional) && f.compiled.cNExcl == len(f.exclude) && f.compiled.cTargetType == f.targetType.val && f.compiled.cHasTarget == f.hasTarget && (f.hasTarget ==> f.compiled.cTargetId == f.target.id && f.compiled.cTargetGen == f.target.gen) && len(f.compiled.Ids) == f.compiled.cNIncl && (!f.compiled.locked ==> f.compiled.filter != nil && !is(f.compiled.filter, *CachedFilter))) && len(f.include) >= 1 && (f.optional.data != nil ==> f.optional.data != f.include.data) && (f.exclude.data != nil ==> f.exclude.data != f.include.data) && allocated(f.include.data) && allocated(f.optional.data) && allocated(f.exclude.data) && f.include[0] == rtypeOf(typeid(A))
+//@   flag may_panic
+//@   panics_if f.compiled.locked
+//@   ensures[cfg] r == f && (f.compiled.compiled ==> f.compiled.cExclusive == f.exclusive && f.compiled.cNIncl == len(f.include) && f.compiled.cNOpt == len(f.optional) && f.compiled.cNExcl == len(f.exclude) && f.compiled.cTargetType == f.targetType.val && f.compiled.cHasTarget == f.hasTarget && (f.hasTarget ==> f.compiled.cTargetId == f.target.id && f.compiled.cTargetGen == f.target.gen) && len(f.compiled.Ids) == f.compiled.cNIncl && (!f.compiled.locked ==> f.compiled.filter != nil && !is(f.compiled.filter, *CachedFilter)))
+//@   ensures[pos] len(f.include) >= 1 && (f.optional.data != nil ==> f.optional.data != f.include.data) && (f.exclude.data != nil ==> f.exclude.data != f.include.data) && allocated(f.include.data) && allocated(f.optional.data) && allocated(f.exclude.data) && f.include[0] == rtypeOf(typeid(A))
+//@   modifies f.optional, f.optional[ALL], f.compiled.compiled
+
+//@ func Filter1[A].With(f, mask) (r)
+//@   props C18
+//@   requires (f.compiled.compiled ==> f.compiled.cExclusive == f.exclusive && f.compiled.cNIncl == len(f.include) && f.compiled.cNOpt == len(f.optional) && f.compiled.cNExcl == len(f.exclude) && f.compiled.cTargetType == f.targetType.val && f.compiled.cHasTarget == f.hasTarget && (f.hasTarget ==> f.compiled.cTargetId == f.target.id && f.compiled.cTargetGen == f.target.gen) && len(f.compiled.Ids) == f.compiled.cNIncl && (!f.compiled.locked ==> f.compiled.filter != nil && !is(f.compiled.filter, *CachedFilter))) && len(f.include) >= 1 && (f.optional.data != nil ==> f.optional.data != f.include.data) && (f.exclude.data != nil ==> f.exclude.data != f.include.data) && allocated(f.include.data) && allocated(f.optional.data) && allocated(f.exclude.data) && f.include[0] == rtypeOf(typeid(A))
+//@   flag may_panic
+//@   panics_if f.compiled.locked
+//@   ensures[cfg] r == f && (f.compiled.compiled ==> f.compiled.cExclusive == f.exclusive && f.compiled.cNIncl == len(f.include) && f.compiled.cNOpt == len(f.optional) && f.compiled.cNExcl == len(f.exclude) && f.compiled.cTargetType == f.targetType.val && f.compiled.cHasTarget == f.hasTarget && (f.hasTarget ==> f.compiled.cTargetId == f.target.id && f.compiled.cTargetGen == f.target.gen) && len(f.compiled.Ids) == f.compiled.cNIncl && (!f.compiled.locked ==> f.compiled.filter != nil && !is(f.compiled.filter, *CachedFilter)))
+//@   ensures[pos] len(f.include) >= 1 && (f.optional.data != nil ==> f.optional.data != f.include.data) && (f.exclude.data != nil ==> f.exclude.data != f.include.data) && allocated(f.include.data) && allocated(f.optional.data) && allocated(f.exclude.data) && f.include[0] == rtypeOf(typeid(A))
+//@   modifies f.include, f.include[ALL], f.compiled.compiled
+
+//@ func Filter1[A].Without(f, mask) (r)
+//@   props C18
+//@   requires (f.compiled.compiled ==> f.compiled.cExclusive == f.exclusive && f.compiled.cNIncl == len(f.include) && f.compiled.cNOpt == len(f.optional) && f.compiled.cNExcl == len(f.exclude) && f.compiled.cTargetType == f.targetType.val && f.compiled.cHasTarget == f.hasTarget && (f.hasTarget ==> f.compiled.cTargetId == f.target.id && f.compiled.cTargetGen == f.target.gen) && len(f.compiled.Ids) == f.compiled.cNIncl && (!f.compiled.locked ==> f.compiled.filter != nil && !is(f.compiled.filter, *CachedFilter))) && len(f.include) >= 1 && (f.optional.data != nil ==> f.optional.data != f.include.data) && (f.exclude.data != nil ==> f.exclude.data != f.include.data) && allocated(f.include.data) && allocated(f.optional.data) && allocated(f.exclude.data) && f.include[0] == rtypeOf(typeid(A))
+//@   flag may_panic
+//@   panics_if f.compiled.locked
+//@   ensures[cfg] r == f && (f.compiled.compiled ==> f.compiled.cExclusive == f.exclusive && f.compiled.cNIncl == len(f.include) && f.compiled.cNOpt == len(f.optional) && f.compiled.cNExcl == len(f.exclude) && f.compiled.cTargetType == f.targetType.val && f.compiled.cHasTarget == f.hasTarget && (f.hasTarget ==> f.compiled.cTargetId == f.target.id && f.compiled.cTargetGen == f.target.gen) && len(f.compiled.Ids) == f.compiled.cNIncl && (!f.compiled.locked ==> f.compiled.filter != nil && !is(f.compiled.filter, *CachedFilter)))
+//@   ensures[pos] len(f.include) >= 1 && (f.optional.data != nil ==> f.optional.data != f.include.data) && (f.exclude.data != nil ==> f.exclude.data != f.include.data) && allocated(f.include.data) && allocated(f.optional.data) && allocated(f.exclude.data) && f.include[0] == rtypeOf(typeid(A))
+//@   modifies f.exclude, f.exclude[ALL], f.compiled.compiled
+
+//@ func Filter1[A].Exclusive(f) (r)
+//@   props C18
+//@   requires (f.compiled.compiled ==> f.compiled.cExclusive == f.exclusive && f.compiled.cNIncl == len(f.include) && f.compiled.cNOpt == len(f.optional) && f.compiled.cNExcl == len(f.exclude) && f.compiled.cTargetType == f.targetType.val && f.compiled.cHasTarget == f.hasTarget && (f.hasTarget ==> f.compiled.cTargetId == f.target.id && f.compiled.cTargetGen == f.target.gen) && len(f.compiled.Ids) == f.compiled.cNIncl && (!f.compiled.locked ==> f.compiled.filter != nil && !is(f.compiled.filter, *CachedFilter))) && len(f.include) >= 1 && (f.optional.data != nil ==> f.optional.data != f.include.data) && (f.exclude.data != nil ==> f.exclude.data != f.include.data) && allocated(f.include.data) && allocated(f.optional.data) && allocated(f.exclude.data) && f.include[0] == rtypeOf(typeid(A))
+//@   flag may_panic
+//@   panics_if f.compiled.locked
+//@   ensures[cfg] r == f && (f.compiled.compiled ==> f.compiled.cExclusive == f.exclusive && f.compiled.cNIncl == len(f.include) && f.compiled.cNOpt == len(f.optional) && f.compiled.cNExcl == len(f.exclude) && f.compiled.cTargetType == f.targetType.val && f.compiled.cHasTarget == f.hasTarget && (f.hasTarget ==> f.compiled.cTargetId == f.target.id && f.compiled.cTargetGen == f.target.gen) && len(f.compiled.Ids) == f.compiled.cNIncl && (!f.compiled.locked ==> f.compiled.filter != nil && !is(f.compiled.filter, *CachedFilter)))
+//@   ensures[pos] len(f.include) >= 1 && (f.optional.data != nil ==> f.optional.data != f.include.data) && (f.exclude.data != nil ==> f.exclude.data != f.include.data) && allocated(f.include.data) && allocated(f.optional.data) && allocated(f.exclude.data) && f.include[0] == rtypeOf(typeid(A))
+//@   modifies f.exclusive, f.compiled.compiled
+
+//@ func Filter1[A].WithRelation(f, comp, target) (r)
+//@   props C18
+//@   requires (f.compiled.compiled ==> f.compiled.cExclusive == f.exclusive && f.compiled.cNIncl == len(f.include) && f.compiled.cNOpt == len(f.optional) && f.compiled.cNExcl == len(f.exclude) && f.compiled.cTargetType == f.targetType.val && f.compiled.cHasTarget == f.hasTarget && (f.hasTarget ==> f.compiled.cTargetId == f.target.id && f.compiled.cTargetGen == f.target.gen) && len(f.compiled.Ids) == f.compiled.cNIncl && (!f.compiled.locked ==> f.compiled.filter != nil && !is(f.compiled.filter, *CachedFilter))) && len(f.include) >= 1 && (f.optional.data != nil ==> f.optional.data != f.include.data) && (f.exclude.data != nil ==> f.exclude.data != f.include.data) && allocated(f.include.data) && allocated(f.optional.data) && allocated(f.exclude.data) && f.include[0] == rtypeOf(typeid(A))
+//@   flag may_panic
+//@   panics_if f.compiled.locked
+//@   ensures[cfg] r == f && (f.compiled.compiled ==> f.compiled.cExclusive == f.exclusive && f.compiled.cNIncl == len(f.include) && f.compiled.cNOpt == len(f.optional) && f.compiled.cNExcl == len(f.exclude) && f.compiled.cTargetType == f.targetType.val && f.compiled.cHasTarget == f.hasTarget && (f.hasTarget ==> f.compiled.cTargetId == f.target.id && f.compiled.cTargetGen == f.target.gen) && len(f.compiled.Ids) == f.compiled.cNIncl && (!f.compiled.locked ==> f.compiled.filter != nil && !is(f.compiled.filter, *CachedFilter)))
+//@   ensures[pos] len(f.include) >= 1 && (f.optional.data != nil ==> f.optional.data != f.include.data) && (f.exclude.data != nil ==> f.exclude.data != f.include.data) && allocated(f.include.data) && allocated(f.optional.data) && allocated(f.exclude.data) && f.include[0] == rtypeOf(typeid(A))
+//@   modifies f.targetType, f.target, f.hasTarget, f.compiled.compiled
+
+//@ func Filter2[A, B].Optional(f, mask) (r)
+//@   props C18
+//@   requires (f.compiled.compiled ==> f.compiled.cExclusive == f.exclusive && f.compiled.cNIncl == len(f.include) && f.compiled.cNOpt == len(f.optional) && f.compiled.cNExcl == len(f.exclude) && f.compiled.cTargetType == f.targetType.val && f.compiled.cHasTarget == f.hasTarget && (f.hasTarget ==> f.compiled.cTargetId == f.target.id && f.compiled.cTargetGen == f.target.gen) && len(f.compiled.Ids) == f.compiled.cNIncl && (!f.compiled.locked ==> f.compiled.filter != nil && !is(f.compiled.filter, *CachedFilter))) && len(f.include) >= 2 && (f.optional.data != nil ==> f.optional.data != f.include.data) && (f.exclude.data != nil ==> f.exclude.data != f.include.data) && allocated(f.include.data) && allocated(f.optional.data) && allocated(f.exclude.data) && f.include[0] == rtypeOf(typeid(A)) && f.include[1] == rtypeOf(typeid(B))
+//@   flag may_panic
+//@   panics_if f.compiled.locked
+//@   ensures[cfg] r == f && (f.compiled.compiled ==> f.compiled.cExclusive == f.exclusive && f.compiled.cNIncl == len(f.include) && f.compiled.cNOpt == len(f.optional) && f.compiled.cNExcl == len(f.exclude) && f.compiled.cTargetType == f.targetType.val && f.compiled.cHasTarget == f.hasTarget && (f.hasTarget ==> f.compiled.cTargetId == f.target.id && f.compiled.cTargetGen == f.target.gen) && len(f.compiled.Ids) == f.compiled.cNIncl && (!f.compiled.locked ==> f.compiled.filter != nil && !is(f.compiled.filter, *CachedFilter)))
+//@   ensures[pos] len(f.include) >= 2 && (f.optional.data != nil ==> f.optional.data != f.include.data) && (f.exclude.data != nil ==> f.exclude.data != f.include.data) && allocated(f.include.data) && allocated(f.optional.data) && allocated(f.exclude.data) && f.include[0] == rtypeOf(typeid(A)) && f.include[1] == rtypeOf(typeid(B))
+//@   modifies f.optional, f.optional[ALL], f.compiled.compiled
+
+//@ func Filter2[A, B].With(f, mask) (r)
+//@   props C18
+//@   requires (f.compiled.compiled ==> f.compiled.cExclusive == f.exclusive && f.compiled.cNIncl == len(f.include) && f.compiled.cNOpt == len(f.optional) && f.compiled.cNExcl == len(f.exclude) && f.compiled.cTargetType == f.targetType.val && f.compiled.cHasTarget == f.hasTarget && (f.hasTarget ==> f.compiled.cTargetId == f.target.id && f.compiled.cTargetGen == f.target.gen) && len(f.compiled.Ids) == f.compiled.cNIncl && (!f.compiled.locked ==> f.compiled.filter != nil && !is(f.compiled.filter, *CachedFilter))) && len(f.include) >= 2 && (f.optional.data != nil ==> f.optional.data != f.include.data) && (f.exclude.data != nil ==> f.exclude.data != f.include.data) && allocated(f.include.data) && allocated(f.optional.data) && allocated(f.exclude.data) && f.include[0] == rtypeOf(typeid(A)) && f.include[1] == rtypeOf(typeid(B))
+//@   flag may_panic
+//@   panics_if f.compiled.locked
+//@   ensures[cfg] r == f && (f.compiled.compiled ==> f.compiled.cExclusive == f.exclusive && f.compiled.cNIncl == len(f.include) && f.compiled.cNOpt == len(f.optional) && f.compiled.cNExcl == len(f.exclude) && f.compiled.cTargetType == f.targetType.val && f.compiled.cHasTarget == f.hasTarget && (f.hasTarget ==> f.compiled.cTargetId == f.target.id && f.compiled.cTargetGen == f.target.gen) && len(f.compiled.Ids) == f.compiled.cNIncl && (!f.compiled.locked ==> f.compiled.filter != nil && !is(f.compiled.filter, *CachedFilter)))
+//@   ensures[pos] len(f.include) >= 2 && (f.optional.data != nil ==> f.optional.data != f.include.data) && (f.exclude.data != nil ==> f.exclude.data != f.include.data) && allocated(f.include.data) && allocated(f.optional.data) && allocated(f.exclude.data) && f.include[0] == rtypeOf(typeid(A)) && f.include[1] == rtypeOf(typeid(B))
+//@   modifies f.include, f.include[ALL], f.compiled.compiled
+
+//@ func Filter2[A, B].Without(f, mask) (r)
+//@   props C18
+//@   requires (f.compiled.compiled ==> f.compiled.cExclusive == f.exclusive && f.compiled.cNIncl == len(f.include) && f.compiled.cNOpt == len(f.optional) && f.compiled.cNExcl == len(f.exclude) && f.compiled.cTargetType == f.targetType.val && f.compiled.cHasTarget == f.hasTarget && (f.hasTarget ==> f.compiled.cTargetId == f.target.id && f.compiled.cTargetGen == f.target.gen) && len(f.compiled.Ids) == f.compiled.cNIncl && (!f.compiled.locked ==> f.compiled.filter != nil && !is(f.compiled.filter, *CachedFilter))) && len(f.include) >= 2 && (f.optional.data != nil ==> f.optional.data != f.include.data) && (f.exclude.data != nil ==> f.exclude.data != f.include.data) && allocated(f.include.data) && allocated(f.optional.data) && allocated(f.exclude.data) && f.include[0] == rtypeOf(typeid(A)) && f.include[1] == rtypeOf(typeid(B))
+//@   flag may_panic
+//@   panics_if f.compiled.locked
+//@   ensures[cfg] r == f && (f.compiled.compiled ==> f.compiled.cExclusive == f.exclusive && f.compiled.cNIncl == len(f.include) && f.compiled.cNOpt == len(f.optional) && f.compiled.cNExcl == len(f.exclude) && f.compiled.cTargetType == f.targetType.val && f.compiled.cHasTarget == f.hasTarget && (f.hasTarget ==> f.compiled.cTargetId == f.target.id && f.compiled.cTargetGen == f.target.gen) && len(f.compiled.Ids) == f.compiled.cNIncl && (!f.compiled.locked ==> f.compiled.filter != nil && !is(f.compiled.filter, *CachedFilter)))
+//@   ensures[pos] len(f.include) >= 2 && (f.optional.data != nil ==> f.optional.data != f.include.data) && (f.exclude.data != nil ==> f.exclude.data != f.include.data) && allocated(f.include.data) && allocated(f.optional.data) && allocated(f.exclude.data) && f.include[0] == rtypeOf(typeid(A)) && f.include[1] == rtypeOf(typeid(B))
+//@   modifies f.exclude, f.exclude[ALL], f.compiled.compiled
+
+//@ func Filter2[A, B].Exclusive(f) (r)
+//@   props C18
+//@   requires (f.compiled.compiled ==> f.compiled.cExclusive == f.exclusive && f.compiled.cNIncl == len(f.include) && f.compiled.cNOpt == len(f.optional) && f.compiled.cNExcl == len(f.exclude) && f.compiled.cTargetType == f.targetType.val && f.compiled.cHasTarget == f.hasTarget && (f.hasTarget ==> f.compiled.cTargetId == f.target.id && f.compiled.cTargetGen == f.target.gen) && len(f.compiled.Ids) == f.compiled.cNIncl && (!f.compiled.locked ==> f.compiled.filter != nil && !is(f.compiled.filter, *CachedFilter))) && len(f.include) >= 2 && (f.optional.data != nil ==> f.optional.data != f.include.data) && (f.exclude.data != nil ==> f.exclude.data != f.include.data) && allocated(f.include.data) && allocated(f.optional.data) && allocated(f.exclude.data) && f.include[0] == rtypeOf(typeid(A)) && f.include[1] == rtypeOf(typeid(B))
+//@   flag may_panic
+//@   panics_if f.compiled.locked
+//@   ensures[cfg] r == f && (f.compiled.compiled ==> f.compiled.cExclusive == f.exclusive && f.compiled.cNIncl == len(f.include) && f.compiled.cNOpt == len(f.optional) && f.compiled.cNExcl == len(f.exclude) && f.compiled.cTargetType == f.targetType.val && f.compiled.cHasTarget == f.hasTarget && (f.hasTarget ==> f.compiled.cTargetId == f.target.id && f.compiled.cTargetGen == f.target.gen) && len(f.compiled.Ids) == f.compiled.cNIncl && (!f.compiled.locked ==> f.compiled.filter != nil && !is(f.compiled.filter, *CachedFilter)))
+//@   ensures[pos] len(f.include) >= 2 && (f.optional.data != nil ==> f.optional.data != f.include.data) && (f.exclude.data != nil ==> f.exclude.data != f.include.data) && allocated(f.include.data) && allocated(f.optional.data) && allocated(f.exclude.data) && f.include[0] == rtypeOf(typeid(A)) && f.include[1] == rtypeOf(typeid(B))
+//@   modifies f.exclusive, f.compiled.compiled
+
+//@ func Filter2[A, B].WithRelation(f, comp, target) (r)
+//@   props C18
+//@   requires (f.compiled.compiled ==> f.compiled.cExclusive == f.exclusive && f.compiled.cNIncl == len(f.include) && f.compiled.cNOpt == len(f.optional) && f.compiled.cNExcl == len(f.exclude) && f.compiled.cTargetType == f.targetType.val && f.compiled.cHasTarget == f.hasTarget && (f.hasTarget ==> f.compiled.cTargetId == f.target.id && f.compiled.cTargetGen == f.target.gen) && len(f.compiled.Ids) == f.compiled.cNIncl && (!f.compiled.locked ==> f.compiled.filter != nil && !is(f.compiled.filter, *CachedFilter))) && len(f.include) >= 2 && (f.optional.data != nil ==> f.optional.data != f.include.data) && (f.exclude.data != nil ==> f.exclude.data != f.include.data) && allocated(f.include.data) && allocated(f.optional.data) && allocated(f.exclude.data) && f.include[0] == rtypeOf(typeid(A)) && f.include[1] == rtypeOf(typeid(B))
+//@   flag may_panic
+//@   panics_if f.compiled.locked
+//@   ensures[cfg] r == f && (f.compiled.compiled ==> f.compiled.cExclusive == f.exclusive && f.compiled.cNIncl == len(f.include) && f.compiled.cNOpt == len(f.optional) && f.compiled.cNExcl == len(f.exclude) && f.compiled.cTargetType == f.targetType.val && f.compiled.cHasTarget == f.hasTarget && (f.hasTarget ==> f.compiled.cTargetId == f.target.id && f.compiled.cTargetGen == f.target.gen) && len(f.compiled.Ids) == f.compiled.cNIncl && (!f.compiled.locked ==> f.compiled.filter != nil && !is(f.compiled.filter, *CachedFilter)))
+//@   ensures[pos] len(f.include) >= 2 && (f.optional.data != nil ==> f.optional.data != f.include.data) && (f.exclude.data != nil ==> f.exclude.data != f.include.data) && allocated(f.include.data) && allocated(f.optional.data) && allocated(f.exclude.data) && f.include[0] == rtypeOf(typeid(A)) && f.include[1] == rtypeOf(typeid(B))
+//@   modifies f.targetType, f.target, f.hasTarget, f.compiled.compiled
+
+//@ func Filter3[A, B, C].Optional(f, mask) (r)
+//@   props C18
+//@   requires (f.compiled.compiled ==> f.compiled.cExclusive == f.exclusive && f.compiled.cNIncl == len(f.include) && f.compiled.cNOpt == len(f.optional) && f.compiled.cNExcl == len(f.exclude) && f.compiled.cTargetType == f.targetType.val && f.compiled.cHasTarget == f.hasTarget && (f.hasTarget ==> f.compiled.cTargetId == f.target.id && f.compiled.cTargetGen == f.target.gen) && len(f.compiled.Ids) == f.compiled.cNIncl && (!f.compiled.locked ==> f.compiled.filter != nil && !is(f.compiled.filter, *CachedFilter))) && len(f.include) >= 3 && (f.optional.data != nil ==> f.optional.data != f.include.data) && (f.exclude.data != nil ==> f.exclude.data != f.include.data) && allocated(f.include.data) && allocated(f.optional.data) && allocated(f.exclude.data) && f.include[0] == rtypeOf(typeid(A)) && f.include[1] == rtypeOf(typeid(B)) && f.include[2] == rtypeOf(typeid(C))
+//@   flag may_panic
+//@   panics_if f.compiled.locked
+//@   ensures[cfg] r == f && (f.compiled.compiled ==> f.compiled.cExclusive == f.exclusive && f.compiled.cNIncl == len(f.include) && f.compiled.cNOpt == len(f.optional) && f.compiled.cNExcl == len(f.exclude) && f.compiled.cTargetType == f.targetType.val && f.compiled.cHasTarget == f.hasTarget && (f.hasTarget ==> f.compiled.cTargetId == f.target.id && f.compiled.cTargetGen == f.target.gen) && len(f.compiled.Ids) == f.compiled.cNIncl && (!f.compiled.locked ==> f.compiled.filter != nil && !is(f.compiled.filter, *CachedFilter)))
+//@   ensures[pos] len(f.include) >= 3 && (f.optional.data != nil ==> f.optional.data != f.include.data) && (f.exclude.data != nil ==> f.exclude.data != f.include.data) && allocated(f.include.data) && allocated(f.optional.data) && allocated(f.exclude.data) && f.include[0] == rtypeOf(typeid(A)) && f.include[1] == rtypeOf(typeid(B)) && f.include[2] == rtypeOf(typeid(C))
+//@   modifies f.optional, f.optional[ALL], f.compiled.compiled
+
+//@ func Filter3[A, B, C].With(f, mask) (r)
+//@   props C18
+//@   requires (f.compiled.compiled ==> f.compiled.cExclusive == f.exclusive && f.compiled.cNIncl == len(f.include) && f.compiled.cNOpt == len(f.optional) && f.compiled.cNExcl == len(f.exclude) && f.compiled.cTargetType == f.targetType.val && f.compiled.cHasTarget == f.hasTarget && (f.hasTarget ==> f.compiled.cTargetId == f.target.id && f.compiled.cTargetGen == f.target.gen) && len(f.compiled.Ids) == f.compiled.cNIncl && (!f.compiled.locked ==> f.compiled.filter != nil && !is(f.compiled.filter, *CachedFilter))) && len(f.include) >= 3 && (f.optional.data != nil ==> f.optional.data != f.include.data) && (f.exclude.data != nil ==> f.exclude.data != f.include.data) && allocated(f.include.data) && allocated(f.optional.data) && allocated(f.exclude.data) && f.include[0] == rtypeOf(typeid(A)) && f.include[1] == rtypeOf(typeid(B)) && f.include[2] == rtypeOf(typeid(C))
+//@   flag may_panic
+//@   panics_if f.compiled.locked
+//@   ensures[cfg] r == f && (f.compiled.compiled ==> f.compiled.cExclusive == f.exclusive && f.compiled.cNIncl == len(f.include) && f.compiled.cNOpt == len(f.optional) && f.compiled.cNExcl == len(f.exclude) && f.compiled.cTargetType == f.targetType.val && f.compiled.cHasTarget == f.hasTarget && (f.hasTarget ==> f.compiled.cTargetId == f.target.id && f.compiled.cTargetGen == f.target.gen) && len(f.compiled.Ids) == f.compiled.cNIncl && (!f.compiled.locked ==> f.compiled.filter != nil && !is(f.compiled.filter, *CachedFilter)))
+//@   ensures[pos] len(f.include) >= 3 && (f.optional.data != nil ==> f.optional.data != f.include.data) && (f.exclude.data != nil ==> f.exclude.data != f.include.data) && allocated(f.include.data) && allocated(f.optional.data) && allocated(f.exclude.data) && f.include[0] == rtypeOf(typeid(A)) && f.include[1] == rtypeOf(typeid(B)) && f.include[2] == rtypeOf(typeid(C))
+//@   modifies f.include, f.include[ALL], f.compiled.compiled
+
+//@ func Filter3[A, B, C].Without(f, mask) (r)
+//@   props C18
+//@   requires (f.compiled.compiled ==> f.compiled.cExclusive == f.exclusive && f.compiled.cNIncl == len(f.include) && f.compiled.cNOpt == len(f.optional) && f.compiled.cNExcl == len(f.exclude) && f.compiled.cTargetType == f.targetType.val && f.compiled.cHasTarget == f.hasTarget && (f.hasTarget ==> f.compiled.cTargetId == f.target.id && f.compiled.cTargetGen == f.target.gen) && len(f.compiled.Ids) == f.compiled.cNIncl && (!f.compiled.locked ==> f.compiled.filter != nil && !is(f.compiled.filter, *CachedFilter))) && len(f.include) >= 3 && (f.optional.data != nil ==> f.optional.data != f.include.data) && (f.exclude.data != nil ==> f.exclude.data != f.include.data) && allocated(f.include.data) && allocated(f.optional.data) && allocated(f.exclude.data) && f.include[0] == rtypeOf(typeid(A)) && f.include[1] == rtypeOf(typeid(B)) && f.include[2] == rtypeOf(typeid(C))
+//@   flag may_panic
+//@   panics_if f.compiled.locked
+//@   ensures[cfg] r == f && (f.compiled.compiled ==> f.compiled.cExclusive == f.exclusive && f.compiled.cNIncl == len(f.include) && f.compiled.cNOpt == len(f.optional) && f.compiled.cNExcl == len(f.exclude) && f.compiled.cTargetType == f.targetType.val && f.compiled.cHasTarget == f.hasTarget && (f.hasTarget ==> f.compiled.cTargetId == f.target.id && f.compiled.cTargetGen == f.target.gen) && len(f.compiled.Ids) == f.compiled.cNIncl && (!f.compiled.locked ==> f.compiled.filter != nil && !is(f.compiled.filter, *CachedFilter)))
+//@   ensures[pos] len(f.include) >= 3 && (f.optional.data != nil ==> f.optional.data != f.include.data) && (f.exclude.data != nil ==> f.exclude.data != f.include.data) && allocated(f.include.data) && allocated(f.optional.data) && allocated(f.exclude.data) && f.include[0] == rtypeOf(typeid(A)) && f.include[1] == rtypeOf(typeid(B)) && f.include[2] == rtypeOf(typeid(C))
+//@   modifies f.exclude, f.exclude[ALL], f.compiled.compiled
+
+//@ func Filter3[A, B, C].Exclusive(f) (r)
+//@   props C18
+//@   requires (f.compiled.compiled ==> f.compiled.cExclusive == f.exclusive && f.compiled.cNIncl == len(f.include) && f.compiled.cNOpt == len(f.optional) && f.compiled.cNExcl == len(f.exclude) && f.compiled.cTargetType == f.targetType.val && f.compiled.cHasTarget == f.hasTarget && (f.hasTarget ==> f.compiled.cTargetId == f.target.id && f.compiled.cTargetGen == f.target.gen) && len(f.compiled.Ids) == f.compiled.cNIncl && (!f.compiled.locked ==> f.compiled.filter != nil && !is(f.compiled.filter, *CachedFilter))) && len(f.include) >= 3 && (f.optional.data != nil ==> f.optional.data != f.include.data) && (f.exclude.data != nil ==> f.exclude.data != f.include.data) && allocated(f.include.data) && allocated(f.optional.data) && allocated(f.exclude.data) && f.include[0] == rtypeOf(typeid(A)) && f.include[1] == rtypeOf(typeid(B)) && f.include[2] == rtypeOf(typeid(C))
+//@   flag may_panic
+//@   panics_if f.compiled.locked
+//@   ensures[cfg] r == f && (f.compiled.compiled ==> f.compiled.cExclusive == f.exclusive && f.compiled.cNIncl == len(f.include) && f.compiled.cNOpt == len(f.optional) && f.compiled.cNExcl == len(f.exclude) && f.compiled.cTargetType == f.targetType.val && f.compiled.cHasTarget == f.hasTarget && (f.hasTarget ==> f.compiled.cTargetId == f.target.id && f.compiled.cTargetGen == f.target.gen) && len(f.compiled.Ids) == f.compiled.cNIncl && (!f.compiled.locked ==> f.compiled.filter != nil && !is(f.compiled.filter, *CachedFilter)))
+//@   ensures[pos] len(f.include) >= 3 && (f.optional.data != nil ==> f.optional.data != f.include.data) && (f.exclude.data != nil ==> f.exclude.data != f.include.data) && allocated(f.include.data) && allocated(f.optional.data) && allocated(f.exclude.data) && f.include[0] == rtypeOf(typeid(A)) && f.include[1] == rtypeOf(typeid(B)) && f.include[2] == rtypeOf(typeid(C))
+//@   modifies f.exclusive, f.compiled.compiled
+
+//@ func Filter3[A, B, C].WithRelation(f, comp, target) (r)
+//@   props C18
+//@   requires (f.compiled.compiled ==> f.compiled.cExclusive == f.exclusive && f.compiled.cNIncl == len(f.include) && f.compiled.cNOpt == len(f.optional) && f.compiled.cNExcl == len(f.exclude) && f.compiled.cTargetType == f.targetType.val && f.compiled.cHasTarget == f.hasTarget && (f.hasTarget ==> f.compiled.cTargetId == f.target.id && f.compiled.cTargetGen == f.target.gen) && len(f.compiled.Ids) == f.compiled.cNIncl && (!f.compiled.locked ==> f.compiled.filter != nil && !is(f.compiled.filter, *CachedFilter))) && len(f.include) >= 3 && (f.optional.data != nil ==> f.optional.data != f.include.data) && (f.exclude.data != nil ==> f.exclude.data != f.include.data) && allocated(f.include.data) && allocated(f.optional.data) && allocated(f.exclude.data) && f.include[0] == rtypeOf(typeid(A)) && f.include[1] == rtypeOf(typeid(B)) && f.include[2] == rtypeOf(typeid(C))
+//@   flag may_panic
+//@   panics_if f.compiled.locked
+//@   ensures[cfg] r == f && (f.compiled.compiled ==> f.compiled.cExclusive == f.exclusive && f.compiled.cNIncl == len(f.include) && f.compiled.cNOpt == len(f.optional) && f.compiled.cNExcl == len(f.exclude) && f.compiled.cTargetType == f.targetType.val && f.compiled.cHasTarget == f.hasTarget && (f.hasTarget ==> f.compiled.cTargetId == f.target.id && f.compiled.cTargetGen == f.target.gen) && len(f.compiled.Ids) == f.compiled.cNIncl && (!f.compiled.locked ==> f.compiled.filter != nil && !is(f.compiled.filter, *CachedFilter)))
+//@   ensures[pos] len(f.include) >= 3 && (f.optional.data != nil ==> f.optional.data != f.include.data) && (f.exclude.data != nil ==> f.exclude.data != f.include.data) && allocated(f.include.data) && allocated(f.optional.data) && allocated(f.exclude.data) && f.include[0] == rtypeOf(typeid(A)) && f.include[1] == rtypeOf(typeid(B)) && f.include[2] == rtypeOf(typeid(C))
+//@   modifies f.targetType, f.target, f.hasTarget, f.compiled.compiled
+
+//@ func Filter4[A, B, C, D].Optional(f, mask) (r)
+//@   props C18
+//@   requires (f.compiled.compiled ==> f.compiled.cExclusive == f.exclusive && f.compiled.cNIncl == len(f.include) && f.compiled.cNOpt == len(f.optional) && f.compiled.cNExcl == len(f.exclude) && f.compiled.cTargetType == f.targetType.val && f.compiled.cHasTarget == f.hasTarget && (f.hasTarget ==> f.compiled.cTargetId == f.target.id && f.compiled.cTargetGen == f.target.gen) && len(f.compiled.Ids) == f.compiled.cNIncl && (!f.compiled.locked ==> f.compiled.filter != nil && !is(f.compiled.filter, *CachedFilter))) && len(f.include) >= 4 && (f.optional.data != nil ==> f.optional.data != f.include.data) && (f.exclude.data != nil ==> f.exclude.data != f.include.data) && allocated(f.include.data) && allocated(f.optional.data) && allocated(f.exclude.data) && f.include[0] == rtypeOf(typeid(A)) && f.include[1] == rtypeOf(typeid(B)) && f.include[2] == rtypeOf(typeid(C)) && f.include[3] == rtypeOf(typeid(D))
+//@   flag may_panic
+//@   panics_if f.compiled.locked
+//@   ensures[cfg] r == f && (f.compiled.compiled ==> f.compiled.cExclusive == f.exclusive && f.compiled.cNIncl == len(f.include) && f.compiled.cNOpt == len(f.optional) && f.compiled.cNExcl == len(f.exclude) && f.compiled.cTargetType == f.targetType.val && f.compiled.cHasTarget == f.hasTarget && (f.hasTarget ==> f.compiled.cTargetId == f.target.id && f.compiled.cTargetGen == f.target.gen) && len(f.compiled.Ids) == f.compiled.cNIncl && (!f.compiled.locked ==> f.compiled.filter != nil && !is(f.compiled.filter, *CachedFilter)))
+//@   ensures[pos] len(f.include) >= 4 && (f.optional.data != nil ==> f.optional.data != f.include.data) && (f.exclude.data != nil ==> f.exclude.data != f.include.data) && allocated(f.include.data) && allocated(f.optional.data) && allocated(f.exclude.data) && f.include[0] == rtypeOf(typeid(A)) && f.include[1] == rtypeOf(typeid(B)) && f.include[2] == rtypeOf(typeid(C)) && f.include[3] == rtypeOf(typeid(D))
+//@   modifies f.optional, f.optional[ALL], f.compiled.compiled
+
+//@ func Filter4[A, B, C, D].With(f, mask) (r)
+//@   props C18
+//@   requires (f.compiled.compiled ==> f.compiled.cExclusive == f.exclusive && f.compiled.cNIncl == len(f.include) && f.compiled.cNOpt == len(f.optional) && f.compiled.cNExcl == len(f.exclude) && f.compiled.cTargetType == f.targetType.val && f.compiled.cHasTarget == f.hasTarget && (f.hasTarget ==> f.compiled.cTargetId == f.target.id && f.compiled.cTargetGen == f.target.gen) && len(f.compiled.Ids) == f.compiled.cNIncl && (!f.compiled.locked ==> f.compiled.filter != nil && !is(f.compiled.filter, *CachedFilter))) && len(f.include) >= 4 && (f.optional.data != nil ==> f.optional.data != f.include.data) && (f.exclude.data != nil ==> f.exclude.data != f.include.data) && allocated(f.include.data) && allocated(f.optional.data) && allocated(f.exclude.data) && f.include[0] == rtypeOf(typeid(A)) && f.include[1] == rtypeOf(typeid(B)) && f.include[2] == rtypeOf(typeid(C)) && f.include[3] == rtypeOf(typeid(D))
+//@   flag may_panic
+//@   panics_if f.compiled.locked
+//@   ensures[cfg] r == f && (f.compiled.compiled ==> f.compiled.cExclusive == f.exclusive && f.compiled.cNIncl == len(f.include) && f.compiled.cNOpt == len(f.optional) && f.compiled.cNExcl == len(f.exclude) && f.compiled.cTargetType == f.targetType.val && f.compiled.cHasTarget == f.hasTarget && (f.hasTarget ==> f.compiled.cTargetId == f.target.id && f.compiled.cTargetGen == f.target.gen) && len(f.compiled.Ids) == f.compiled.cNIncl && (!f.compiled.locked ==> f.compiled.filter != nil && !is(f.compiled.filter, *CachedFilter)))
+//@   ensures[pos] len(f.include) >= 4 && (f.optional.data != nil ==> f.optional.data != f.include.data) && (f.exclude.data != nil ==> f.exclude.data != f.include.data) && allocated(f.include.data) && allocated(f.optional.data) && allocated(f.exclude.data) && f.include[0] == rtypeOf(typeid(A)) && f.include[1] == rtypeOf(typeid(B)) && f.include[2] == rtypeOf(typeid(C)) && f.include[3] == rtypeOf(typeid(D))
+//@   modifies f.include, f.include[ALL], f.compiled.compiled
+
+//@ func Filter4[A, B, C, D].Without(f, mask) (r)
+//@   props C18
+//@   requires (f.compiled.compiled ==> f.compiled.cExclusive == f.exclusive && f.compiled.cNIncl == len(f.include) && f.compiled.cNOpt == len(f.optional) && f.compiled.cNExcl == len(f.exclude) && f.compiled.cTargetType == f.targetType.val && f.compiled.cHasTarget == f.hasTarget && (f.hasTarget ==> f.compiled.cTargetId == f.target.id && f.compiled.cTargetGen == f.target.gen) && len(f.compiled.Ids) == f.compiled.cNIncl && (!f.compiled.locked ==> f.compiled.filter != nil && !is(f.compiled.filter, *CachedFilter))) && len(f.include) >= 4 && (f.optional.data != nil ==> f.optional.data != f.include.data) && (f.exclude.data != nil ==> f.exclude.data != f.include.data) && allocated(f.include.data) && allocated(f.optional.data) && allocated(f.exclude.data) && f.include[0] == rtypeOf(typeid(A)) && f.include[1] == rtypeOf(typeid(B)) && f.include[2] == rtypeOf(typeid(C)) && f.include[3] == rtypeOf(typeid(D))
+//@   flag may_panic
+//@   panics_if f.compiled.locked
+//@   ensures[cfg] r == f && (f.compiled.compiled ==> f.compiled.cExclusive == f.exclusive && f.compiled.cNIncl == len(f.include) && f.compiled.cNOpt == len(f.optional) && f.compiled.cNExcl == len(f.exclude) && f.compiled.cTargetType == f.targetType.val && f.compiled.cHasTarget == f.hasTarget && (f.hasTarget ==> f.compiled.cTargetId == f.target.id && f.compiled.cTargetGen == f.target.gen) && len(f.compiled.Ids) == f.compiled.cNIncl && (!f.compiled.locked ==> f.compiled.filter != nil && !is(f.compiled.filter, *CachedFilter)))
+//@   ensures[pos] len(f.include) >= 4 && (f.optional.data != nil ==> f.optional.data != f.include.data) && (f.exclude.data != nil ==> f.exclude.data != f.include.data) && allocated(f.include.data) && allocated(f.optional.data) && allocated(f.exclude.data) && f.include[0] == rtypeOf(typeid(A)) && f.include[1] == rtypeOf(typeid(B)) && f.include[2] == rtypeOf(typeid(C)) && f.include[3] == rtypeOf(typeid(D))
+//@   modifies f.exclude, f.exclude[ALL], f.compiled.compiled
+
+//@ func Filter4[A, B, C, D].Exclusive(f) (r)
+//@   props C18
+//@   requires (f.compiled.compiled ==> f.compiled.cExclusive == f.exclusive && f.compiled.cNIncl == len(f.include) && f.compiled.cNOpt == len(f.optional) && f.compiled.cNExcl == len(f.exclude) && f.compiled.cTargetType == f.targetType.val && f.compiled.cHasTarget == f.hasTarget && (f.hasTarget ==> f.compiled.cTargetId == f.target.id && f.compiled.cTargetGen == f.target.gen) && len(f.compiled.Ids) == f.compiled.cNIncl && (!f.compiled.locked ==> f.compiled.filter != nil && !is(f.compiled.filter, *CachedFilter))) && len(f.include) >= 4 && (f.optional.data != nil ==> f.optional.data != f.include.data) && (f.exclude.data != nil ==> f.exclude.data != f.include.data) && allocated(f.include.data) && allocated(f.optional.data) && allocated(f.exclude.data) && f.include[0] == rtypeOf(typeid(A)) && f.include[1] == rtypeOf(typeid(B)) && f.include[2] == rtypeOf(typeid(C)) && f.include[3] == rtypeOf(typeid(D))
+//@   flag may_panic
+//@   panics_if f.compiled.locked
+//@   ensures[cfg] r == f && (f.compiled.compiled ==> f.compiled.cExclusive == f.exclusive && f.compiled.cNIncl == len(f.include) && f.compiled.cNOpt == len(f.optional) && f.compiled.cNExcl == len(f.exclude) && f.compiled.cTargetType == f.targetType.val && f.compiled.cHasTarget == f.hasTarget && (f.hasTarget ==> f.compiled.cTargetId == f.target.id && f.compiled.cTargetGen == f.target.gen) && len(f.compiled.Ids) == f.compiled.cNIncl && (!f.compiled.locked ==> f.compiled.filter != nil && !is(f.compiled.filter, *CachedFilter)))
+//@   ensures[pos] len(f.include) >= 4 && (f.optional.data != nil ==> f.optional.data != f.include.data) && (f.exclude.data != nil ==> f.exclude.data != f.include.data) && allocated(f.include.data) && allocated(f.optional.data) && allocated(f.exclude.data) && f.include[0] == rtypeOf(typeid(A)) && f.include[1] == rtypeOf(typeid(B)) && f.include[2] == rtypeOf(typeid(C)) && f.include[3] == rtypeOf(typeid(D))
+//@   modifies f.exclusive, f.compiled.compiled
+
+//@ func Filter4[A, B, C, D].WithRelation(f, comp, target) (r)
+//@   props C18
+//@   requires (f.compiled.compiled ==> f.compiled.cExclusive == f.exclusive && f.compiled.cNIncl == len(f.include) && f.compiled.cNOpt == len(f.optional) && f.compiled.cNExcl == len(f.exclude) && f.compiled.cTargetType == f.targetType.val && f.compiled.cHasTarget == f.hasTarget && (f.hasTarget ==> f.compiled.cTargetId == f.target.id && f.compiled.cTargetGen == f.target.gen) && len(f.compiled.Ids) == f.compiled.cNIncl && (!f.compiled.locked ==> f.compiled.filter != nil && !is(f.compiled.filter, *CachedFilter))) && len(f.include) >= 4 && (f.optional.data != nil ==> f.optional.data != f.include.data) && (f.exclude.data != nil ==> f.exclude.data != f.include.data) && allocated(f.include.data) && allocated(f.optional.data) && allocated(f.exclude.data) && f.include[0] == rtypeOf(typeid(A)) && f.include[1] == rtypeOf(typeid(B)) && f.include[2] == rtypeOf(typeid(C)) && f.include[3] == rtypeOf(typeid(D))
+//@   flag may_panic
+//@   panics_if f.compiled.locked
+//@   ensures[cfg] r == f && (f.compiled.compiled ==> f.compiled.cExclusive == f.exclusive && f.compiled.cNIncl == len(f.include) && f.compiled.cNOpt == len(f.optional) && f.compiled.cNExcl == len(f.exclude) && f.compiled.cTargetType == f.targetType.val && f.compiled.cHasTarget == f.hasTarget && (f.hasTarget ==> f.compiled.cTargetId == f.target.id && f.compiled.cTargetGen == f.target.gen) && len(f.compiled.Ids) == f.compiled.cNIncl && (!f.compiled.locked ==> f.compiled.filter != nil && !is(f.compiled.filter, *CachedFilter)))
+//@   ensures[pos] len(f.include) >= 4 && (f.optional.data != nil ==> f.optional.data != f.include.data) && (f.exclude.data != nil ==> f.exclude.data != f.include.data) && allocated(f.include.data) && allocated(f.optional.data) && allocated(f.exclude.data) && f.include[0] == rtypeOf(typeid(A)) && f.include[1] == rtypeOf(typeid(B)) && f.include[2] == rtypeOf(typeid(C)) && f.include[3] == rtypeOf(typeid(D))
+//@   modifies f.targetType, f.target, f.hasTarget, f.compiled.compiled
+
+//@ func Filter5[A, B, C, D, E].Optional(f, mask) (r)
+//@   props C18
+//@   requires (f.compiled.compiled ==> f.compiled.cExclusive == f.exclusive && f.compiled.cNIncl == len(f.include) && f.compiled.cNOpt == len(f.optional) && f.compiled.cNExcl == len(f.exclude) && f.compiled.cTargetType == f.targetType.val && f.compiled.cHasTarget == f.hasTarget && (f.hasTarget ==> f.compiled.cTargetId == f.target.id && f.compiled.cTargetGen == f.target.gen) && len(f.compiled.Ids) == f.compiled.cNIncl && (!f.compiled.locked ==> f.compiled.filter != nil && !is(f.compiled.filter, *CachedFilter))) && len(f.include) >= 5 && (f.optional.data != nil ==> f.optional.data != f.include.data) && (f.exclude.data != nil ==> f.exclude.data != f.include.data) && allocated(f.include.data) && allocated(f.optional.data) && allocated(f.exclude.data) && f.include[0] == rtypeOf(typeid(A)) && f.include[1] == rtypeOf(typeid(B)) && f.include[2] == rtypeOf(typeid(C)) && f.include[3] == rtypeOf(typeid(D)) && f.include[4] == rtypeOf(typeid(E))
+//@   flag may_panic
+//@   panics_if f.compiled.locked
+//@   ensures[cfg] r == f && (f.compiled.compiled ==> f.compiled.cExclusive == f.exclusive && f.compiled.cNIncl == len(f.include) && f.compiled.cNOpt == len(f.optional) && f.compiled.cNExcl == len(f.exclude) && f.compiled.cTargetType == f.targetType.val && f.compiled.cHasTarget == f.hasTarget && (f.hasTarget ==> f.compiled.cTargetId == f.target.id && f.compiled.cTargetGen == f.target.gen) && len(f.compiled.Ids) == f.compiled.cNIncl && (!f.compiled.locked ==> f.compiled.filter != nil && !is(f.compiled.filter, *CachedFilter)))
+//@   ensures[pos] len(f.include) >= 5 && (f.optional.data != nil ==> f.optional.data != f.include.data) && (f.exclude.data != nil ==> f.exclude.data != f.include.data) && allocated(f.include.data) && allocated(f.optional.data) && allocated(f.exclude.data) && f.include[0] == rtypeOf(typeid(A)) && f.include[1] == rtypeOf(typeid(B)) && f.include[2] == rtypeOf(typeid(C)) && f.include[3] == rtypeOf(typeid(D)) && f.include[4] == rtypeOf(typeid(E))
+//@   modifies f.optional, f.optional[ALL], f.compiled.compiled
+
+//@ func Filter5[A, B, C, D, E].With(f, mask) (r)
+//@   props C18
+//@   requires (f.compiled.compiled ==> f.compiled.cExclusive == f.exclusive && f.compiled.cNIncl == len(f.include) && f.compiled.cNOpt == len(f.optional) && f.compiled.cNExcl == len(f.exclude) && f.compiled.cTargetType == f.targetType.val && f.compiled.cHasTarget == f.hasTarget && (f.hasTarget ==> f.compiled.cTargetId == f.target.id && f.compiled.cTargetGen == f.target.gen) && len(f.compiled.Ids) == f.compiled.cNIncl && (!f.compiled.locked ==> f.compiled.filter != nil && !is(f.compiled.filter, *CachedFilter))) && len(f.include) >= 5 && (f.optional.data != nil ==> f.optional.data != f.include.data) && (f.exclude.data != nil ==> f.exclude.data != f.include.data) && allocated(f.include.data) && allocated(f.optional.data) && allocated(f.exclude.data) && f.include[0] == rtypeOf(typeid(A)) && f.include[1] == rtypeOf(typeid(B)) && f.include[2] == rtypeOf(typeid(C)) && f.include[3] == rtypeOf(typeid(D)) && f.include[4] == rtypeOf(typeid(E))
+//@   flag may_panic
+//@   panics_if f.compiled.locked
+//@   ensures[cfg] r == f && (f.compiled.compiled ==> f.compiled.cExclusive == f.exclusive && f.compiled.cNIncl == len(f.include) && f.compiled.cNOpt == len(f.optional) && f.compiled.cNExcl == len(f.exclude) && f.compiled.cTargetType == f.targetType.val && f.compiled.cHasTarget == f.hasTarget && (f.hasTarget ==> f.compiled.cTargetId == f.target.id && f.compiled.cTargetGen == f.target.gen) && len(f.compiled.Ids) == f.compiled.cNIncl && (!f.compiled.locked ==> f.compiled.filter != nil && !is(f.compiled.filter, *CachedFilter)))
+//@   ensures[pos] len(f.include) >= 5 && (f.optional.data != nil ==> f.optional.data != f.include.data) && (f.exclude.data != nil ==> f.exclude.data != f.include.data) && allocated(f.include.data) && allocated(f.optional.data) && allocated(f.exclude.data) && f.include[0] == rtypeOf(typeid(A)) && f.include[1] == rtypeOf(typeid(B)) && f.include[2] == rtypeOf(typeid(C)) && f.include[3] == rtypeOf(typeid(D)) && f.include[4] == rtypeOf(typeid(E))
+//@   modifies f.include, f.include[ALL], f.compiled.compiled
+
+//@ func Filter5[A, B, C, D, E].Without(f, mask) (r)
+//@   props C18
+//@   requires (f.compiled.compiled ==> f.compiled.cExclusive == f.exclusive && f.compiled.cNIncl == len(f.include) && f.compiled.cNOpt == len(f.optional) && f.compiled.cNExcl == len(f.exclude) && f.compiled.cTargetType == f.targetType.val && f.compiled.cHasTarget == f.hasTarget && (f.hasTarget ==> f.compiled.cTargetId == f.target.id && f.compiled.cTargetGen == f.target.gen) && len(f.compiled.Ids) == f.compiled.cNIncl && (!f.compiled.locked ==> f.compiled.filter != nil && !is(f.compiled.filter, *CachedFilter))) && len(f.include) >= 5 && (f.optional.data != nil ==> f.optional.data != f.include.data) && (f.exclude.data != nil ==> f.exclude.data != f.include.data) && allocated(f.include.data) && allocated(f.optional.data) && allocated(f.exclude.data) && f.include[0] == rtypeOf(typeid(A)) && f.include[1] == rtypeOf(typeid(B)) && f.include[2] == rtypeOf(typeid(C)) && f.include[3] == rtypeOf(typeid(D)) && f.include[4] == rtypeOf(typeid(E))
+//@   flag may_panic
+//@   panics_if f.compiled.locked
+//@   ensures[cfg] r == f && (f.compiled.compiled ==> f.compiled.cExclusive == f.exclusive && f.compiled.cNIncl == len(f.include) && f.compiled.cNOpt == len(f.optional) && f.compiled.cNExcl == len(f.exclude) && f.compiled.cTargetType == f.targetType.val && f.compiled.cHasTarget == f.hasTarget && (f.hasTarget ==> f.compiled.cTargetId == f.target.id && f.compiled.cTargetGen == f.target.gen) && len(f.compiled.Ids) == f.compiled.cNIncl && (!f.compiled.locked ==> f.compiled.filter != nil && !is(f.compiled.filter, *CachedFilter)))
+//@   ensures[pos] len(f.include) >= 5 && (f.optional.data != nil ==> f.optional.data != f.include.data) && (f.exclude.data != nil ==> f.exclude.data != f.include.data) && allocated(f.include.data) && allocated(f.optional.data) && allocated(f.exclude.data) && f.include[0] == rtypeOf(typeid(A)) && f.include[1] == rtypeOf(typeid(B)) && f.include[2] == rtypeOf(typeid(C)) && f.include[3] == rtypeOf(typeid(D)) && f.include[4] == rtypeOf(typeid(E))
+//@   modifies f.exclude, f.exclude[ALL], f.compiled.compiled
+
+//@ func Filter5[A, B, C, D, E].Exclusive(f) (r)
+//@   props C18
+//@   requires (f.compiled.compiled ==> f.compiled.cExclusive == f.exclusive && f.compiled.cNIncl == len(f.include) && f.compiled.cNOpt == len(f.optional) && f.compiled.cNExcl == len(f.exclude) && f.compiled.cTargetType == f.targetType.val && f.compiled.cHasTarget == f.hasTarget && (f.hasTarget ==> f.compiled.cTargetId == f.target.id && f.compiled.cTargetGen == f.target.gen) && len(f.compiled.Ids) == f.compiled.cNIncl && (!f.compiled.locked ==> f.compiled.filter != nil && !is(f.compiled.filter, *CachedFilter))) && len(f.include) >= 5 && (f.optional.data != nil ==> f.optional.data != f.include.data) && (f.exclude.data != nil ==> f.exclude.data != f.include.data) && allocated(f.include.data) && allocated(f.optional.data) && allocated(f.exclude.data) && f.include[0] == rtypeOf(typeid(A)) && f.include[1] == rtypeOf(typeid(B)) && f.include[2] == rtypeOf(typeid(C)) && f.include[3] == rtypeOf(typeid(D)) && f.include[4] == rtypeOf(typeid(E))
+//@   flag may_panic
+//@   panics_if f.compiled.locked
+//@   ensures[cfg] r == f && (f.compiled.compiled ==> f.compiled.cExclusive == f.exclusive && f.compiled.cNIncl == len(f.include) && f.compiled.cNOpt == len(f.optional) && f.compiled.cNExcl == len(f.exclude) && f.compiled.cTargetType == f.targetType.val && f.compiled.cHasTarget == f.hasTarget && (f.hasTarget ==> f.compiled.cTargetId == f.target.id && f.compiled.cTargetGen == f.target.gen) && len(f.compiled.Ids) == f.compiled.cNIncl && (!f.compiled.locked ==> f.compiled.filter != nil && !is(f.compiled.filter, *CachedFilter)))
+//@   ensures[pos] len(f.include) >= 5 && (f.optional.data != nil ==> f.optional.data != f.include.data) && (f.exclude.data != nil ==> f.exclude.data != f.include.data) && allocated(f.include.data) && allocated(f.optional.data) && allocated(f.exclude.data) && f.include[0] == rtypeOf(typeid(A)) && f.include[1] == rtypeOf(typeid(B)) && f.include[2] == rtypeOf(typeid(C)) && f.include[3] == rtypeOf(typeid(D)) && f.include[4] == rtypeOf(typeid(E))
+//@   modifies f.exclusive, f.compiled.compiled
+
+//@ func Filter5[A, B, C, D, E].WithRelation(f, comp, target) (r)
+//@   props C18
+//@   requires (f.compiled.compiled ==> f.compiled.cExclusive == f.exclusive && f.compiled.cNIncl == len(f.include) && f.compiled.cNOpt == len(f.optional) && f.compiled.cNExcl == len(f.exclude) && f.compiled.cTargetType == f.targetType.val && f.compiled.cHasTarget == f.hasTarget && (f.hasTarget ==> f.compiled.cTargetId == f.target.id && f.compiled.cTargetGen == f.target.gen) && len(f.compiled.Ids) == f.compiled.cNIncl && (!f.compiled.locked ==> f.compiled.filter != nil && !is(f.compiled.filter, *CachedFilter))) && len(f.include) >= 5 && (f.optional.data != nil ==> f.optional.data != f.include.data) && (f.exclude.data != nil ==> f.exclude.data != f.include.data) && allocated(f.include.data) && allocated(f.optional.data) && allocated(f.exclude.data) && f.include[0] == rtypeOf(typeid(A)) && f.include[1] == rtypeOf(typeid(B)) && f.include[2] == rtypeOf(typeid(C)) && f.include[3] == rtypeOf(typeid(D)) && f.include[4] == rtypeOf(typeid(E))
+//@   flag may_panic
+//@   panics_if f.compiled.locked
+//@   ensures[cfg] r == f && (f.compiled.compiled ==> f.compiled.cExclusive == f.exclusive && f.compiled.cNIncl == len(f.include) && f.compiled.cNOpt == len(f.optional) && f.compiled.cNExcl == len(f.exclude) && f.compiled.cTargetType == f.targetType.val && f.compiled.cHasTarget == f.hasTarget && (f.hasTarget ==> f.compiled.cTargetId == f.target.id && f.compiled.cTargetGen == f.target.gen) && len(f.compiled.Ids) == f.compiled.cNIncl && (!f.compiled.locked ==> f.compiled.filter != nil && !is(f.compiled.filter, *CachedFilter)))
+//@   ensures[pos] len(f.include) >= 5 && (f.optional.data != nil ==> f.optional.data != f.include.data) && (f.exclude.data != nil ==> f.exclude.data != f.include.data) && allocated(f.include.data) && allocated(f.optional.data) && allocated(f.exclude.data) && f.include[0] == rtypeOf(typeid(A)) && f.include[1] == rtypeOf(typeid(B)) && f.include[2] == rtypeOf(typeid(C)) && f.include[3] == rtypeOf(typeid(D)) && f.include[4] == rtypeOf(typeid(E))
+//@   modifies f.targetType, f.target, f.hasTarget, f.compiled.compiled
+
+//@ func Filter6[A, B, C, D, E, F].Optional(f, mask) (r)
+//@   props C18
+//@   requires (f.compiled.compiled ==> f.compiled.cExclusive == f.exclusive && f.compiled.cNIncl == len(f.include) && f.compiled.cNOpt == len(f.optional) && f.compiled.cNExcl == len(f.exclude) && f.compiled.cTargetType == f.targetType.val && f.compiled.cHasTarget == f.hasTarget && (f.hasTarget ==> f.compiled.cTargetId == f.target.id && f.compiled.cTargetGen == f.target.gen) && len(f.compiled.Ids) == f.compiled.cNIncl && (!f.compiled.locked ==> f.compiled.filter != nil && !is(f.compiled.filter, *CachedFilter))) && len(f.include) >= 6 && (f.optional.data != nil ==> f.optional.data != f.include.data) && (f.exclude.data != nil ==> f.exclude.data != f.include.data) && allocated(f.include.data) && allocated(f.optional.data) && allocated(f.exclude.data) && f.include[0] == rtypeOf(typeid(A)) && f.include[1] == rtypeOf(typeid(B)) && f.include[2] == rtypeOf(typeid(C)) && f.include[3] == rtypeOf(typeid(D)) && f.include[4] == rtypeOf(typeid(E)) && f.include[5] == rtypeOf(typeid(F))
+//@   flag may_panic
+//@   panics_if f.compiled.locked
+//@   ensures[cfg] r == f && (f.compiled.compiled ==> f.compiled.cExclusive == f.exclusive && f.compiled.cNIncl == len(f.include) && f.compiled.cNOpt == len(f.optional) && f.compiled.cNExcl == len(f.exclude) && f.compiled.cTargetType == f.targetType.val && f.compiled.cHasTarget == f.hasTarget && (f.hasTarget ==> f.compiled.cTargetId == f.target.id && f.compiled.cTargetGen == f.target.gen) && len(f.compiled.Ids) == f.compiled.cNIncl && (!f.compiled.locked ==> f.compiled.filter != nil && !is(f.compiled.filter, *CachedFilter)))
+//@   ensures[pos] len(f.include) >= 6 && (f.optional.data != nil ==> f.optional.data != f.include.data) && (f.exclude.data != nil ==> f.exclude.data != f.include.data) && allocated(f.include.data) && allocated(f.optional.data) && allocated(f.exclude.data) && f.include[0] == rtypeOf(typeid(A)) && f.include[1] == rtypeOf(typeid(B)) && f.include[2] == rtypeOf(typeid(C)) && f.include[3] == rtypeOf(typeid(D)) && f.include[4] == rtypeOf(typeid(E)) && f.include[5] == rtypeOf(typeid(F))
+//@   modifies f.optional, f.optional[ALL], f.compiled.compiled
+
+//@ func Filter6[A, B, C, D, E, F].With(f, mask) (r)
+//@   props C18
+//@   requires (f.compiled.compiled ==> f.compiled.cExclusive == f.exclusive && f.compiled.cNIncl == len(f.include) && f.compiled.cNOpt == len(f.optional) && f.compiled.cNExcl == len(f.exclude) && f.compiled.cTargetType == f.targetType.val && f.compiled.cHasTarget == f.hasTarget && (f.hasTarget ==> f.compiled.cTargetId == f.target.id && f.compiled.cTargetGen == f.target.gen) && len(f.compiled.Ids) == f.compiled.cNIncl && (!f.compiled.locked ==> f.compiled.filter != nil && !is(f.compiled.filter, *CachedFilter))) && len(f.include) >= 6 && (f.optional.data != nil ==> f.optional.data != f.include.data) && (f.exclude.data != nil ==> f.exclude.data != f.include.data) && allocated(f.include.data) && allocated(f.optional.data) && allocated(f.exclude.data) && f.include[0] == rtypeOf(typeid(A)) && f.include[1] == rtypeOf(typeid(B)) && f.include[2] == rtypeOf(typeid(C)) && f.include[3] == rtypeOf(typeid(D)) && f.include[4] == rtypeOf(typeid(E)) && f.include[5] == rtypeOf(typeid(F))
+//@   flag may_panic
+//@   panics_if f.compiled.locked
+//@   ensures[cfg] r == f && (f.compiled.compiled ==> f.compiled.cExclusive == f.exclusive && f.compiled.cNIncl == len(f.include) && f.compiled.cNOpt == len(f.optional) && f.compiled.cNExcl == len(f.exclude) && f.compiled.cTargetType == f.targetType.val && f.compiled.cHasTarget == f.hasTarget && (f.hasTarget ==> f.compiled.cTargetId == f.target.id && f.compiled.cTargetGen == f.target.gen) && len(f.compiled.Ids) == f.compiled.cNIncl && (!f.compiled.locked ==> f.compiled.filter != nil && !is(f.compiled.filter, *CachedFilter)))
+//@   ensures[pos] len(f.include) >= 6 && (f.optional.data != nil ==> f.optional.data != f.include.data) && (f.exclude.data != nil ==> f.exclude.data != f.include.data) && allocated(f.include.data) && allocated(f.optional.data) && allocated(f.exclude.data) && f.include[0] == rtypeOf(typeid(A)) && f.include[1] == rtypeOf(typeid(B)) && f.include[2] == rtypeOf(typeid(C)) && f.include[3] == rtypeOf(typeid(D)) && f.include[4] == rtypeOf(typeid(E)) && f.include[5] == rtypeOf(typeid(F))
+//@   modifies f.include, f.include[ALL], f.compiled.compiled
+
+//@ func Filter6[A, B, C, D, E, F].Without(f, mask) (r)
+//@   props C18
+//@   requires (f.compiled.compiled ==> f.compiled.cExclusive == f.exclusive && f.compiled.cNIncl == len(f.include) && f.compiled.cNOpt == len(f.optional) && f.compiled.cNExcl == len(f.exclude) && f.compiled.cTargetType == f.targetType.val && f.compiled.cHasTarget == f.hasTarget && (f.hasTarget ==> f.compiled.cTargetId == f.target.id && f.compiled.cTargetGen == f.target.gen) && len(f.compiled.Ids) == f.compiled.cNIncl && (!f.compiled.locked ==> f.compiled.filter != nil && !is(f.compiled.filter, *CachedFilter))) && len(f.include) >= 6 && (f.optional.data != nil ==> f.optional.data != f.include.data) && (f.exclude.data != nil ==> f.exclude.data != f.include.data) && allocated(f.include.data) && allocated(f.optional.data) && allocated(f.exclude.data) && f.include[0] == rtypeOf(typeid(A)) && f.include[1] == rtypeOf(typeid(B)) && f.include[2] == rtypeOf(typeid(C)) && f.include[3] == rtypeOf(typeid(D)) && f.include[4] == rtypeOf(typeid(E)) && f.include[5] == rtypeOf(typeid(F))
+//@   flag may_panic
+//@   panics_if f.compiled.locked
+//@   ensures[cfg] r == f && (f.compiled.compiled ==> f.compiled.cExclusive == f.exclusive && f.compiled.cNIncl == len(f.include) && f.compiled.cNOpt == len(f.optional) && f.compiled.cNExcl == len(f.exclude) && f.compiled.cTargetType == f.targetType.val && f.compiled.cHasTarget == f.hasTarget && (f.hasTarget ==> f.compiled.cTargetId == f.target.id && f.compiled.cTargetGen == f.target.gen) && len(f.compiled.Ids) == f.compiled.cNIncl && (!f.compiled.locked ==> f.compiled.filter != nil && !is(f.compiled.filter, *CachedFilter)))
+//@   ensures[pos] len(f.include) >= 6 && (f.optional.data != nil ==> f.optional.data != f.include.data) && (f.exclude.data != nil ==> f.exclude.data != f.include.data) && allocated(f.include.data) && allocated(f.optional.data) && allocated(f.exclude.data) && f.include[0] == rtypeOf(typeid(A)) && f.include[1] == rtypeOf(typeid(B)) && f.include[2] == rtypeOf(typeid(C)) && f.include[3] == rtypeOf(typeid(D)) && f.include[4] == rtypeOf(typeid(E)) && f.include[5] == rtypeOf(typeid(F))
+//@   modifies f.exclude, f.exclude[ALL], f.compiled.compiled
+
+//@ func Filter6[A, B, C, D, E, F].Exclusive(f) (r)
+//@   props C18
+//@   requires (f.compiled.compiled ==> f.compiled.cExclusive == f.exclusive && f.compiled.cNIncl == len(f.include) && f.compiled.cNOpt == len(f.optional) && f.compiled.cNExcl == len(f.exclude) && f.compiled.cTargetType == f.targetType.val && f.compiled.cHasTarget == f.hasTarget && (f.hasTarget ==> f.compiled.cTargetId == f.target.id && f.compiled.cTargetGen == f.target.gen) && len(f.compiled.Ids) == f.compiled.cNIncl && (!f.compiled.locked ==> f.compiled.filter != nil && !is(f.compiled.filter, *CachedFilter))) && len(f.include) >= 6 && (f.optional.data != nil ==> f.optional.data != f.include.data) && (f.exclude.data != nil ==> f.exclude.data != f.include.data) && allocated(f.include.data) && allocated(f.optional.data) && allocated(f.exclude.data) && f.include[0] == rtypeOf(typeid(A)) && f.include[1] == rtypeOf(typeid(B)) && f.include[2] == rtypeOf(typeid(C)) && f.include[3] == rtypeOf(typeid(D)) && f.include[4] == rtypeOf(typeid(E)) && f.include[5] == rtypeOf(typeid(F))
+//@   flag may_panic
+//@   panics_if f.compiled.locked
+//@   ensures[cfg] r == f && (f.compiled.compiled ==> f.compiled.cExclusive == f.exclusive && f.compiled.cNIncl == len(f.include) && f.compiled.cNOpt == len(f.optional) && f.compiled.cNExcl == len(f.exclude) && f.compiled.cTargetType == f.targetType.val && f.compiled.cHasTarget == f.hasTarget && (f.hasTarget ==> f.compiled.cTargetId == f.target.id && f.compiled.cTargetGen == f.target.gen) && len(f.compiled.Ids) == f.compiled.cNIncl && (!f.compiled.locked ==> f.compiled.filter != nil && !is(f.compiled.filter, *CachedFilter)))
+//@   ensures[pos] len(f.include) >= 6 && (f.optional.data != nil ==> f.optional.data != f.include.data) && (f.exclude.data != nil ==> f.exclude.data != f.include.data) && allocated(f.include.data) && allocated(f.optional.data) && allocated(f.exclude.data) && f.include[0] == rtypeOf(typeid(A)) && f.include[1] == rtypeOf(typeid(B)) && f.include[2] == rtypeOf(typeid(C)) && f.include[3] == rtypeOf(typeid(D)) && f.include[4] == rtypeOf(typeid(E)) && f.include[5] == rtypeOf(typeid(F))
+//@   modifies f.exclusive, f.compiled.compiled
+
+//@ func Filter6[A, B, C, D, E, F].WithRelation(f, comp, target) (r)
+//@   props C18
+//@   requires (f.compiled.compiled ==> f.compiled.cExclusive == f.exclusive && f.compiled.cNIncl == len(f.include) && f.compiled.cNOpt == len(f.optional) && f.compiled.cNExcl == len(f.exclude) && f.compiled.cTargetType == f.targetType.val && f.compiled.cHasTarget == f.hasTarget && (f.hasTarget ==> f.compiled.cTargetId == f.target.id && f.compiled.cTargetGen == f.target.gen) && len(f.compiled.Ids) == f.compiled.cNIncl && (!f.compiled.locked ==> f.compiled.filter != nil && !is(f.compiled.filter, *CachedFilter))) && len(f.include) >= 6 && (f.optional.data != nil ==> f.optional.data != f.include.data) && (f.exclude.data != nil ==> f.exclude.data != f.include.data) && allocated(f.include.data) && allocated(f.optional.data) && allocated(f.exclude.data) && f.include[0] == rtypeOf(typeid(A)) && f.include[1] == rtypeOf(typeid(B)) && f.include[2] == rtypeOf(typeid(C)) && f.include[3] == rtypeOf(typeid(D)) && f.include[4] == rtypeOf(typeid(E)) && f.include[5] == rtypeOf(typeid(F))
+//@   flag may_panic
+//@   panics_if f.compiled.locked
+//@   ensures[cfg] r == f && (f.compiled.compiled ==> f.compiled.cExclusive == f.exclusive && f.compiled.cNIncl == len(f.include) && f.compiled.cNOpt == len(f.optional) && f.compiled.cNExcl == len(f.exclude) && f.compiled.cTargetType == f.targetType.val && f.compiled.cHasTarget == f.hasTarget && (f.hasTarget ==> f.compiled.cTargetId == f.target.id && f.compiled.cTargetGen == f.target.gen) && len(f.compiled.Ids) == f.compiled.cNIncl && (!f.compiled.locked ==> f.compiled.filter != nil && !is(f.compiled.filter, *CachedFilter)))
+//@   ensures[pos] len(f.include) >= 6 && (f.optional.data != nil ==> f.optional.data != f.include.data) && (f.exclude.data != nil ==> f.exclude.data != f.include.data) && allocated(f.include.data) && allocated(f.optional.data) && allocated(f.exclude.data) && f.include[0] == rtypeOf(typeid(A)) && f.include[1] == rtypeOf(typeid(B)) && f.include[2] == rtypeOf(typeid(C)) && f.include[3] == rtypeOf(typeid(D)) && f.include[4] == rtypeOf(typeid(E)) && f.include[5] == rtypeOf(typeid(F))
+//@   modifies f.targetType, f.target, f.hasTarget, f.compiled.compiled
+
+//@ func Filter7[A, B, C, D, E, F, G].Optional(f, mask) (r)
+//@   props C18
+//@   requires (f.compiled.compiled ==> f.compiled.cExclusive == f.exclusive && f.compiled.cNIncl == len(f.include) && f.compiled.cNOpt == len(f.optional) && f.compiled.cNExcl == len(f.exclude) && f.compiled.cTargetType == f.targetType.val && f.compiled.cHasTarget == f.hasTarget && (f.hasTarget ==> f.compiled.cTargetId == f.target.id && f.compiled.cTargetGen == f.target.gen) && len(f.compiled.Ids) == f.compiled.cNIncl && (!f.compiled.locked ==> f.compiled.filter != nil && !is(f.compiled.filter, *CachedFilter))) && len(f.include) >= 7 && (f.optional.data != nil ==> f.optional.data != f.include.data) && (f.exclude.data != nil ==> f.exclude.data != f.include.data) && allocated(f.include.data) && allocated(f.optional.data) && allocated(f.exclude.data) && f.include[0] == rtypeOf(typeid(A)) && f.include[1] == rtypeOf(typeid(B)) && f.include[2] == rtypeOf(typeid(C)) && f.include[3] == rtypeOf(typeid(D)) && f.include[4] == rtypeOf(typeid(E)) && f.include[5] == rtypeOf(typeid(F)) && f.include[6] == rtypeOf(typeid(G))
+//@   flag may_panic
+//@   panics_if f.compiled.locked
+//@   ensures[cfg] r == f && (f.compiled.compiled ==> f.compiled.cExclusive == f.exclusive && f.compiled.cNIncl == len(f.include) && f.compiled.cNOpt == len(f.optional) && f.compiled.cNExcl == len(f.exclude) && f.compiled.cTargetType == f.targetType.val && f.compiled.cHasTarget == f.hasTarget && (f.hasTarget ==> f.compiled.cTargetId == f.target.id && f.compiled.cTargetGen == f.target.gen) && len(f.compiled.Ids) == f.compiled.cNIncl && (!f.compiled.locked ==> f.compiled.filter != nil && !is(f.compiled.filter, *CachedFilter)))
+//@   ensures[pos] len(f.include) >= 7 && (f.optional.data != nil ==> f.optional.data != f.include.data) && (f.exclude.data != nil ==> f.exclude.data != f.include.data) && allocated(f.include.data) && allocated(f.optional.data) && allocated(f.exclude.data) && f.include[0] == rtypeOf(typeid(A)) && f.include[1] == rtypeOf(typeid(B)) && f.include[2] == rtypeOf(typeid(C)) && f.include[3] == rtypeOf(typeid(D)) && f.include[4] == rtypeOf(typeid(E)) && f.include[5] == rtypeOf(typeid(F)) && f.include[6] == rtypeOf(typeid(G))
+//@   modifies f.optional, f.optional[ALL], f.compiled.compiled
+
+//@ func Filter7[A, B, C, D, E, F, G].With(f, mask) (r)
+//@   props C18
+//@   requires (f.compiled.compiled ==> f.compiled.cExclusive == f.exclusive && f.compiled.cNIncl == len(f.include) && f.compiled.cNOpt == len(f.optional) && f.compiled.cNExcl == len(f.exclude) && f.compiled.cTargetType == f.targetType.val && f.compiled.cHasTarget == f.hasTarget && (f.hasTarget ==> f.compiled.cTargetId == f.target.id && f.compiled.cTargetGen == f.target.gen) && len(f.compiled.Ids) == f.compiled.cNIncl && (!f.compiled.locked ==> f.compiled.filter != nil && !is(f.compiled.filter, *CachedFilter))) && len(f.include) >= 7 && (f.optional.data != nil ==> f.optional.data != f.include.data) && (f.exclude.data != nil ==> f.exclude.data != f.include.data) && allocated(f.include.data) && allocated(f.optional.data) && allocated(f.exclude.data) && f.include[0] == rtypeOf(typeid(A)) && f.include[1] == rtypeOf(typeid(B)) && f.include[2] == rtypeOf(typeid(C)) && f.include[3] == rtypeOf(typeid(D)) && f.include[4] == rtypeOf(typeid(E)) && f.include[5] == rtypeOf(typeid(F)) && f.include[6] == rtypeOf(typeid(G))
+//@   flag may_panic
+//@   panics_if f.compiled.locked
+//@   ensures[cfg] r == f && (f.compiled.compiled ==> f.compiled.cExclusive == f.exclusive && f.compiled.cNIncl == len(f.include) && f.compiled.cNOpt == len(f.optional) && f.compiled.cNExcl == len(f.exclude) && f.compiled.cTargetType == f.targetType.val && f.compiled.cHasTarget == f.hasTarget && (f.hasTarget ==> f.compiled.cTargetId == f.target.id && f.compiled.cTargetGen == f.target.gen) && len(f.compiled.Ids) == f.compiled.cNIncl && (!f.compiled.locked ==> f.compiled.filter != nil && !is(f.compiled.filter, *CachedFilter)))
+//@   ensures[pos] len(f.include) >= 7 && (f.optional.data != nil ==> f.optional.data != f.include.data) && (f.exclude.data != nil ==> f.exclude.data != f.include.data) && allocated(f.include.data) && allocated(f.optional.data) && allocated(f.exclude.data) && f.include[0] == rtypeOf(typeid(A)) && f.include[1] == rtypeOf(typeid(B)) && f.include[2] == rtypeOf(typeid(C)) && f.include[3] == rtypeOf(typeid(D)) && f.include[4] == rtypeOf(typeid(E)) && f.include[5] == rtypeOf(typeid(F)) && f.include[6] == rtypeOf(typeid(G))
+//@   modifies f.include, f.include[ALL], f.compiled.compiled
+
+//@ func Filter7[A, B, C, D, E, F, G].Without(f, mask) (r)
+//@   props C18
+//@   requires (f.compiled.compiled ==> f.compiled.cExclusive == f.exclusive && f.compiled.cNIncl == len(f.include) && f.compiled.cNOpt == len(f.optional) && f.compiled.cNExcl == len(f.exclude) && f.compiled.cTargetType == f.targetType.val && f.compiled.cHasTarget == f.hasTarget && (f.hasTarget ==> f.compiled.cTargetId == f.target.id && f.compiled.cTargetGen == f.target.gen) && len(f.compiled.Ids) == f.compiled.cNIncl && (!f.compiled.locked ==> f.compiled.filter != nil && !is(f.compiled.filter, *CachedFilter))) && len(f.include) >= 7 && (f.optional.data != nil ==> f.optional.data != f.include.data) && (f.exclude.data != nil ==> f.exclude.data != f.include.data) && allocated(f.include.data) && allocated(f.optional.data) && allocated(f.exclude.data) && f.include[0] == rtypeOf(typeid(A)) && f.include[1] == rtypeOf(typeid(B)) && f.include[2] == rtypeOf(typeid(C)) && f.include[3] == rtypeOf(typeid(D)) && f.include[4] == rtypeOf(typeid(E)) && f.include[5] == rtypeOf(typeid(F)) && f.include[6] == rtypeOf(typeid(G))
+//@   flag may_panic
+//@   panics_if f.compiled.locked
+//@   ensures[cfg] r == f && (f.compiled.compiled ==> f.compiled.cExclusive == f.exclusive && f.compiled.cNIncl == len(f.include) && f.compiled.cNOpt == len(f.optional) && f.compiled.cNExcl == len(f.exclude) && f.compiled.cTargetType == f.targetType.val && f.compiled.cHasTarget == f.hasTarget && (f.hasTarget ==> f.compiled.cTargetId == f.target.id && f.compiled.cTargetGen == f.target.gen) && len(f.compiled.Ids) == f.compiled.cNIncl && (!f.compiled.locked ==> f.compiled.filter != nil && !is(f.compiled.filter, *CachedFilter)))
+//@   ensures[pos] len(f.include) >= 7 && (f.optional.data != nil ==> f.optional.data != f.include.data) && (f.exclude.data != nil ==> f.exclude.data != f.include.data) && allocated(f.include.data) && allocated(f.optional.data) && allocated(f.exclude.data) && f.include[0] == rtypeOf(typeid(A)) && f.include[1] == rtypeOf(typeid(B)) && f.include[2] == rtypeOf(typeid(C)) && f.include[3] == rtypeOf(typeid(D)) && f.include[4] == rtypeOf(typeid(E)) && f.include[5] == rtypeOf(typeid(F)) && f.include[6] == rtypeOf(typeid(G))
+//@   modifies f.exclude, f.exclude[ALL], f.compiled.compiled
+
+//@ func Filter7[A, B, C, D, E, F, G].Exclusive(f) (r)
+//@   props C18
+//@   requires (f.compiled.compiled ==> f.compiled.cExclusive == f.exclusive && f.compiled.cNIncl == len(f.include) && f.compiled.cNOpt == len(f.optional) && f.compiled.cNExcl == len(f.exclude) && f.compiled.cTargetType == f.targetType.val && f.compiled.cHasTarget == f.hasTarget && (f.hasTarget ==> f.compiled.cTargetId == f.target.id && f.compiled.cTargetGen == f.target.gen) && len(f.compiled.Ids) == f.compiled.cNIncl && (!f.compiled.locked ==> f.compiled.filter != nil && !is(f.compiled.filter, *CachedFilter))) && len(f.include) >= 7 && (f.optional.data != nil ==> f.optional.data != f.include.data) && (f.exclude.data != nil ==> f.exclude.data != f.include.data) && allocated(f.include.data) && allocated(f.optional.data) && allocated(f.exclude.data) && f.include[0] == rtypeOf(typeid(A)) && f.include[1] == rtypeOf(typeid(B)) && f.include[2] == rtypeOf(typeid(C)) && f.include[3] == rtypeOf(typeid(D)) && f.include[4] == rtypeOf(typeid(E)) && f.include[5] == rtypeOf(typeid(F)) && f.include[6] == rtypeOf(typeid(G))
+//@   flag may_panic
+//@   panics_if f.compiled.locked
+//@   ensures[cfg] r == f && (f.compiled.compiled ==> f.compiled.cExclusive == f.exclusive && f.compiled.cNIncl == len(f.include) && f.compiled.cNOpt == len(f.optional) && f.compiled.cNExcl == len(f.exclude) && f.compiled.cTargetType == f.targetType.val && f.compiled.cHasTarget == f.hasTarget && (f.hasTarget ==> f.compiled.cTargetId == f.target.id && f.compiled.cTargetGen == f.target.gen) && len(f.compiled.Ids) == f.compiled.cNIncl && (!f.compiled.locked ==> f.compiled.filter != nil && !is(f.compiled.filter, *CachedFilter)))
+//@   ensures[pos] len(f.include) >= 7 && (f.optional.data != nil ==> f.optional.data != f.include.data) && (f.exclude.data != nil ==> f.exclude.data != f.include.data) && allocated(f.include.data) && allocated(f.optional.data) && allocated(f.exclude.data) && f.include[0] == rtypeOf(typeid(A)) && f.include[1] == rtypeOf(typeid(B)) && f.include[2] == rtypeOf(typeid(C)) && f.include[3] == rtypeOf(typeid(D)) && f.include[4] == rtypeOf(typeid(E)) && f.include[5] == rtypeOf(typeid(F)) && f.include[6] == rtypeOf(typeid(G))
+//@   modifies f.exclusive, f.compiled.compiled
+
+//@ func Filter7[A, B, C, D, E, F, G].WithRelation(f, comp, target) (r)
+//@   props C18
+//@   requires (f.compiled.compiled ==> f.compiled.cExclusive == f.exclusive && f.compiled.cNIncl == len(f.include) && f.compiled.cNOpt == len(f.optional) && f.compiled.cNExcl == len(f.exclude) && f.compiled.cTargetType == f.targetType.val && f.compiled.cHasTarget == f.hasTarget && (f.hasTarget ==> f.compiled.cTargetId == f.target.id && f.compiled.cTargetGen == f.target.gen) && len(f.compiled.Ids) == f.compiled.cNIncl && (!f.compiled.locked ==> f.compiled.filter != nil && !is(f.compiled.filter, *CachedFilter))) && len(f.include) >= 7 && (f.optional.data != nil ==> f.optional.data != f.include.data) && (f.exclude.data != nil ==> f.exclude.data != f.include.data) && allocated(f.include.data) && allocated(f.optional.data) && allocated(f.exclude.data) && f.include[0] == rtypeOf(typeid(A)) && f.include[1] == rtypeOf(typeid(B)) && f.include[2] == rtypeOf(typeid(C)) && f.include[3] == rtypeOf(typeid(D)) && f.include[4] == rtypeOf(typeid(E)) && f.include[5] == rtypeOf(typeid(F)) && f.include[6] == rtypeOf(typeid(G))
+//@   flag may_panic
+//@   panics_if f.compiled.locked
+//@   ensures[cfg] r == f && (f.compiled.compiled ==> f.compiled.cExclusive == f.exclusive && f.compiled.cNIncl == len(f.include) && f.compiled.cNOpt == len(f.optional) && f.compiled.cNExcl == len(f.exclude) && f.compiled.cTargetType == f.targetType.val && f.compiled.cHasTarget == f.hasTarget && (f.hasTarget ==> f.compiled.cTargetId == f.target.id && f.compiled.cTargetGen == f.target.gen) && len(f.compiled.Ids) == f.compiled.cNIncl && (!f.compiled.locked ==> f.compiled.filter != nil && !is(f.compiled.filter, *CachedFilter)))
+//@   ensures[pos] len(f.include) >= 7 && (f.optional.data != nil ==> f.optional.data != f.include.data) && (f.exclude.data != nil ==> f.exclude.data != f.include.data) && allocated(f.include.data) && allocated(f.optional.data) && allocated(f.exclude.data) && f.include[0] == rtypeOf(typeid(A)) && f.include[1] == rtypeOf(typeid(B)) && f.include[2] == rtypeOf(typeid(C)) && f.include[3] == rtypeOf(typeid(D)) && f.include[4] == rtypeOf(typeid(E)) && f.include[5] == rtypeOf(typeid(F)) && f.include[6] == rtypeOf(typeid(G))
+//@   modifies f.targetType, f.target, f.hasTarget, f.compiled.compiled
+
+//@ func Filter8[A, B, C, D, E, F, G, H].Optional(f, mask) (r)
+//@   props C18
+//@   requires (f.compiled.compiled ==> f.compiled.cExclusive == f.exclusive && f.compiled.cNIncl == len(f.include) && f.compiled.cNOpt == len(f.optional) && f.compiled.cNExcl == len(f.exclude) && f.compiled.cTargetType == f.targetType.val && f.compiled.cHasTarget == f.hasTarget && (f.hasTarget ==> f.compiled.cTargetId == f.target.id && f.compiled.cTargetGen == f.target.gen) && len(f.compiled.Ids) == f.compiled.cNIncl && (!f.compiled.locked ==> f.compiled.filter != nil && !is(f.compiled.filter, *CachedFilter))) && len(f.include) >= 8 && (f.optional.data != nil ==> f.optional.data != f.include.data) && (f.exclude.data != nil ==> f.exclude.data != f.include.data) && allocated(f.include.data) && allocated(f.optional.data) && allocated(f.exclude.data) && f.include[0] == rtypeOf(typeid(A)) && f.include[1] == rtypeOf(typeid(B)) && f.include[2] == rtypeOf(typeid(C)) && f.include[3] == rtypeOf(typeid(D)) && f.include[4] == rtypeOf(typeid(E)) && f.include[5] == rtypeOf(typeid(F)) && f.include[6] == rtypeOf(typeid(G)) && f.include[7] == rtypeOf(typeid(H))
+//@   flag may_panic
+//@   panics_if f.compiled.locked
+//@   ensures[cfg] r == f && (f.compiled.compiled ==> f.compiled.cExclusive == f.exclusive && f.compiled.cNIncl == len(f.include) && f.compiled.cNOpt == len(f.optional) && f.compiled.cNExcl == len(f.exclude) && f.compiled.cTargetType == f.targetType.val && f.compiled.cHasTarget == f.hasTarget && (f.hasTarget ==> f.compiled.cTargetId == f.target.id && f.compiled.cTargetGen == f.target.gen) && len(f.compiled.Ids) == f.compiled.cNIncl && (!f.compiled.locked ==> f.compiled.filter != nil && !is(f.compiled.filter, *CachedFilter)))
+//@   ensures[pos] len(f.include) >= 8 && (f.optional.data != nil ==> f.optional.data != f.include.data) && (f.exclude.data != nil ==> f.exclude.data != f.include.data) && allocated(f.include.data) && allocated(f.optional.data) && allocated(f.exclude.data) && f.include[0] == rtypeOf(typeid(A)) && f.include[1] == rtypeOf(typeid(B)) && f.include[2] == rtypeOf(typeid(C)) && f.include[3] == rtypeOf(typeid(D)) && f.include[4] == rtypeOf(typeid(E)) && f.include[5] == rtypeOf(typeid(F)) && f.include[6] == rtypeOf(typeid(G)) && f.include[7] == rtypeOf(typeid(H))
+//@   modifies f.optional, f.optional[ALL], f.compiled.compiled
+
+//@ func Filter8[A, B, C, D, E, F, G, H].With(f, mask) (r)
+//@   props C18
+//@   requires (f.compiled.compiled ==> f.compiled.cExclusive == f.exclusive && f.compiled.cNIncl == len(f.include) && f.compiled.cNOpt == len(f.optional) && f.compiled.cNExcl == len(f.exclude) && f.compiled.cTargetType == f.targetType.val && f.compiled.cHasTarget == f.hasTarget && (f.hasTarget ==> f.compiled.cTargetId == f.target.id && f.compiled.cTargetGen == f.target.gen) && len(f.compiled.Ids) == f.compiled.cNIncl && (!f.compiled.locked ==> f.compiled.filter != nil && !is(f.compiled.filter, *CachedFilter))) && len(f.include) >= 8 && (f.optional.data != nil ==> f.optional.data != f.include.data) && (f.exclude.data != nil ==> f.exclude.data != f.include.data) && allocated(f.include.data) && allocated(f.optional.data) && allocated(f.exclude.data) && f.include[0] == rtypeOf(typeid(A)) && f.include[1] == rtypeOf(typeid(B)) && f.include[2] == rtypeOf(typeid(C)) && f.include[3] == rtypeOf(typeid(D)) && f.include[4] == rtypeOf(typeid(E)) && f.include[5] == rtypeOf(typeid(F)) && f.include[6] == rtypeOf(typeid(G)) && f.include[7] == rtypeOf(typeid(H))
+//@   flag may_panic
+//@   panics_if f.compiled.locked
+//@   ensures[cfg] r == f && (f.compiled.compiled ==> f.compiled.cExclusive == f.exclusive && f.compiled.cNIncl == len(f.include) && f.compiled.cNOpt == len(f.optional) && f.compiled.cNExcl == len(f.exclude) && f.compiled.cTargetType == f.targetType.val && f.compiled.cHasTarget == f.hasTarget && (f.hasTarget ==> f.compiled.cTargetId == f.target.id && f.compiled.cTargetGen == f.target.gen) && len(f.compiled.Ids) == f.compiled.cNIncl && (!f.compiled.locked ==> f.compiled.filter != nil && !is(f.compiled.filter, *CachedFilter)))
+//@   ensures[pos] len(f.include) >= 8 && (f.optional.data != nil ==> f.optional.data != f.include.data) && (f.exclude.data != nil ==> f.exclude.data != f.include.data) && allocated(f.include.data) && allocated(f.optional.data) && allocated(f.exclude.data) && f.include[0] == rtypeOf(typeid(A)) && f.include[1] == rtypeOf(typeid(B)) && f.include[2] == rtypeOf(typeid(C)) && f.include[3] == rtypeOf(typeid(D)) && f.include[4] == rtypeOf(typeid(E)) && f.include[5] == rtypeOf(typeid(F)) && f.include[6] == rtypeOf(typeid(G)) && f.include[7] == rtypeOf(typeid(H))
+//@   modifies f.include, f.include[ALL], f.compiled.compiled
+
+//@ func Filter8[A, B, C, D, E, F, G, H].Without(f, mask) (r)
+//@   props C18
+//@   requires (f.compiled.compiled ==> f.compiled.cExclusive == f.exclusive && f.compiled.cNIncl == len(f.include) && f.compiled.cNOpt == len(f.optional) && f.compiled.cNExcl == len(f.exclude) && f.compiled.cTargetType == f.targetType.val && f.compiled.cHasTarget == f.hasTarget && (f.hasTarget ==> f.compiled.cTargetId == f.target.id && f.compiled.cTargetGen == f.target.gen) && len(f.compiled.Ids) == f.compiled.cNIncl && (!f.compiled.locked ==> f.compiled.filter != nil && !is(f.compiled.filter, *CachedFilter))) && len(f.include) >= 8 && (f.optional.data != nil ==> f.optional.data != f.include.data) && (f.exclude.data != nil ==> f.exclude.data != f.include.data) && allocated(f.include.data) && allocated(f.optional.data) && allocated(f.exclude.data) && f.include[0] == rtypeOf(typeid(A)) && f.include[1] == rtypeOf(typeid(B)) && f.include[2] == rtypeOf(typeid(C)) && f.include[3] == rtypeOf(typeid(D)) && f.include[4] == rtypeOf(typeid(E)) && f.include[5] == rtypeOf(typeid(F)) && f.include[6] == rtypeOf(typeid(G)) && f.include[7] == rtypeOf(typeid(H))
+//@   flag may_panic
+//@   panics_if f.compiled.locked
+//@   ensures[cfg] r == f && (f.compiled.compiled ==> f.compiled.cExclusive == f.exclusive && f.compiled.cNIncl == len(f.include) && f.compiled.cNOpt == len(f.optional) && f.compiled.cNExcl == len(f.exclude) && f.compiled.cTargetType == f.targetType.val && f.compiled.cHasTarget == f.hasTarget && (f.hasTarget ==> f.compiled.cTargetId == f.target.id && f.compiled.cTargetGen == f.target.gen) && len(f.compiled.Ids) == f.compiled.cNIncl && (!f.compiled.locked ==> f.compiled.filter != nil && !is(f.compiled.filter, *CachedFilter)))
+//@   ensures[pos] len(f.include) >= 8 && (f.optional.data != nil ==> f.optional.data != f.include.data) && (f.exclude.data != nil ==> f.exclude.data != f.include.data) && allocated(f.include.data) && allocated(f.optional.data) && allocated(f.exclude.data) && f.include[0] == rtypeOf(typeid(A)) && f.include[1] == rtypeOf(typeid(B)) && f.include[2] == rtypeOf(typeid(C)) && f.include[3] == rtypeOf(typeid(D)) && f.include[4] == rtypeOf(typeid(E)) && f.include[5] == rtypeOf(typeid(F)) && f.include[6] == rtypeOf(typeid(G)) && f.include[7] == rtypeOf(typeid(H))
+//@   modifies f.exclude, f.exclude[ALL], f.compiled.compiled
+
+//@ func Filter8[A, B, C, D, E, F, G, H].Exclusive(f) (r)
+//@   props C18
+//@   requires (f.compiled.compiled ==> f.compiled.cExclusive == f.exclusive && f.compiled.cNIncl == len(f.include) && f.compiled.cNOpt == len(f.optional) && f.compiled.cNExcl == len(f.exclude) && f.compiled.cTargetType == f.targetType.val && f.compiled.cHasTarget == f.hasTarget && (f.hasTarget ==> f.compiled.cTargetId == f.target.id && f.compiled.cTargetGen == f.target.gen) && len(f.compiled.Ids) == f.compiled.cNIncl && (!f.compiled.locked ==> f.compiled.filter != nil && !is(f.compiled.filter, *CachedFilter))) && len(f.include) >= 8 && (f.optional.data != nil ==> f.optional.data != f.include.data) && (f.exclude.data != nil ==> f.exclude.data != f.include.data) && allocated(f.include.data) && allocated(f.optional.data) && allocated(f.exclude.data) && f.include[0] == rtypeOf(typeid(A)) && f.include[1] == rtypeOf(typeid(B)) && f.include[2] == rtypeOf(typeid(C)) && f.include[3] == rtypeOf(typeid(D)) && f.include[4] == rtypeOf(typeid(E)) && f.include[5] == rtypeOf(typeid(F)) && f.include[6] == rtypeOf(typeid(G)) && f.include[7] == rtypeOf(typeid(H))
+//@   flag may_panic
+//@   panics_if f.compiled.locked
+//@   ensures[cfg] r == f && (f.compiled.compiled ==> f.compiled.cExclusive == f.exclusive && f.compiled.cNIncl == len(f.include) && f.compiled.cNOpt == len(f.optional) && f.compiled.cNExcl == len(f.exclude) && f.compiled.cTargetType == f.targetType.val && f.compiled.cHasTarget == f.hasTarget && (f.hasTarget ==> f.compiled.cTargetId == f.target.id && f.compiled.cTargetGen == f.target.gen) && len(f.compiled.Ids) == f.compiled.cNIncl && (!f.compiled.locked ==> f.compiled.filter != nil && !is(f.compiled.filter, *CachedFilter)))
+//@   ensures[pos] len(f.include) >= 8 && (f.optional.data != nil ==> f.optional.data != f.include.data) && (f.exclude.data != nil ==> f.exclude.data != f.include.data) && allocated(f.include.data) && allocated(f.optional.data) && allocated(f.exclude.data) && f.include[0] == rtypeOf(typeid(A)) && f.include[1] == rtypeOf(typeid(B)) && f.include[2] == rtypeOf(typeid(C)) && f.include[3] == rtypeOf(typeid(D)) && f.include[4] == rtypeOf(typeid(E)) && f.include[5] == rtypeOf(typeid(F)) && f.include[6] == rtypeOf(typeid(G)) && f.include[7] == rtypeOf(typeid(H))
+//@   modifies f.exclusive, f.compiled.compiled
+
+//@ func Filter8[A, B, C, D, E, F, G, H].WithRelation(f, comp, target) (r)
+//@   props C18
+//@   requires (f.compiled.compiled ==> f.compiled.cExclusive == f.exclusive && f.compiled.cNIncl == len(f.include) && f.compiled.cNOpt == len(f.optional) && f.compiled.cNExcl == len(f.exclude) && f.compiled.cTargetType == f.targetType.val && f.compiled.cHasTarget == f.hasTarget && (f.hasTarget ==> f.compiled.cTargetId == f.target.id && f.compiled.cTargetGen == f.target.gen) && len(f.compiled.Ids) == f.compiled.cNIncl && (!f.compiled.locked ==> f.compiled.filter != nil && !is(f.compiled.filter, *CachedFilter))) && len(f.include) >= 8 && (f.optional.data != nil ==> f.optional.data != f.include.data) && (f.exclude.data != nil ==> f.exclude.data != f.include.data) && allocated(f.include.data) && allocated(f.optional.data) && allocated(f.exclude.data) && f.include[0] == rtypeOf(typeid(A)) && f.include[1] == rtypeOf(typeid(B)) && f.include[2] == rtypeOf(typeid(C)) && f.include[3] == rtypeOf(typeid(D)) && f.include[4] == rtypeOf(typeid(E)) && f.include[5] == rtypeOf(typeid(F)) && f.include[6] == rtypeOf(typeid(G)) && f.include[7] == rtypeOf(typeid(H))
+//@   flag may_panic
+//@   panics_if f.compiled.locked
+//@   ensures[cfg] r == f && (f.compiled.compiled ==> f.compiled.cExclusive == f.exclusive && f.compiled.cNIncl == len(f.include) && f.compiled.cNOpt == len(f.optional) && f.compiled.cNExcl == len(f.exclude) && f.compiled.cTargetType == f.targetType.val && f.compiled.cHasTarget == f.hasTarget && (f.hasTarget ==> f.compiled.cTargetId == f.target.id && f.compiled.cTargetGen == f.target.gen) && len(f.compiled.Ids) == f.compiled.cNIncl && (!f.compiled.locked ==> f.compiled.filter != nil && !is(f.compiled.filter, *CachedFilter)))
+//@   ensures[pos] len(f.include) >= 8 && (f.optional.data != nil ==> f.optional.data != f.include.data) && (f.exclude.data != nil ==> f.exclude.data != f.include.data) && allocated(f.include.data) && allocated(f.optional.data) && allocated(f.exclude.data) && f.include[0] == rtypeOf(typeid(A)) && f.include[1] == rtypeOf(typeid(B)) && f.include[2] == rtypeOf(typeid(C)) && f.include[3] == rtypeOf(typeid(D)) && f.include[4] == rtypeOf(typeid(E)) && f.include[5] == rtypeOf(typeid(F)) && f.include[6] == rtypeOf(typeid(G)) && f.include[7] == rtypeOf(typeid(H))
+//@   modifies f.targetType, f.target, f.hasTarget, f.compiled.compiled
+
+//@ func Filter9[A, B, C, D, E, F, G, H, I].Optional(f, mask) (r)
+//@   props C18
+//@   requires (f.compiled.compiled ==> f.compiled.cExclusive == f.exclusive && f.compiled.cNIncl == len(f.include) && f.compiled.cNOpt == len(f.optional) && f.compiled.cNExcl == len(f.exclude) && f.compiled.cTargetType == f.targetType.val && f.compiled.cHasTarget == f.hasTarget && (f.hasTarget ==> f.compiled.cTargetId == f.target.id && f.compiled.cTargetGen == f.target.gen) && len(f.compiled.Ids) == f.compiled.cNIncl && (!f.compiled.locked ==> f.compiled.filter != nil && !is(f.compiled.filter, *CachedFilter))) && len(f.include) >= 9 && (f.optional.data != nil ==> f.optional.data != f.include.data) && (f.exclude.data != nil ==> f.exclude.data != f.include.data) && allocated(f.include.data) && allocated(f.optional.data) && allocated(f.exclude.data) && f.include[0] == rtypeOf(typeid(A)) && f.include[1] == rtypeOf(typeid(B)) && f.include[2] == rtypeOf(typeid(C)) && f.include[3] == rtypeOf(typeid(D)) && f.include[4] == rtypeOf(typeid(E)) && f.include[5] == rtypeOf(typeid(F)) && f.include[6] == rtypeOf(typeid(G)) && f.include[7] == rtypeOf(typeid(H)) && f.include[8] == rtypeOf(typeid(I))
+//@   flag may_panic
+//@   panics_if f.compiled.locked
+//@   ensures[cfg] r == f && (f.compiled.compiled ==> f.compiled.cExclusive == f.exclusive && f.compiled.cNIncl == len(f.include) && f.compiled.cNOpt == len(f.optional) && f.compiled.cNExcl == len(f.exclude) && f.compiled.cTargetType == f.targetType.val && f.compiled.cHasTarget == f.hasTarget && (f.hasTarget ==> f.compiled.cTargetId == f.target.id && f.compiled.cTargetGen == f.target.gen) && len(f.compiled.Ids) == f.compiled.cNIncl && (!f.compiled.locked ==> f.compiled.filter != nil && !is(f.compiled.filter, *CachedFilter)))
+//@   ensures[pos] len(f.include) >= 9 && (f.optional.data != nil ==> f.optional.data != f.include.data) && (f.exclude.data != nil ==> f.exclude.data != f.include.data) && allocated(f.include.data) && allocated(f.optional.data) && allocated(f.exclude.data) && f.include[0] == rtypeOf(typeid(A)) && f.include[1] == rtypeOf(typeid(B)) && f.include[2] == rtypeOf(typeid(C)) && f.include[3] == rtypeOf(typeid(D)) && f.include[4] == rtypeOf(typeid(E)) && f.include[5] == rtypeOf(typeid(F)) && f.include[6] == rtypeOf(typeid(G)) && f.include[7] == rtypeOf(typeid(H)) && f.include[8] == rtypeOf(typeid(I))
+//@   modifies f.optional, f.optional[ALL], f.compiled.compiled
+
+//@ func Filter9[A, B, C, D, E, F, G, H, I].With(f, mask) (r)
+//@   props C18
+//@   requires (f.compiled.compiled ==> f.compiled.cExclusive == f.exclusive && f.compiled.cNIncl == len(f.include) && f.compiled.cNOpt == len(f.optional) && f.compiled.cNExcl == len(f.exclude) && f.compiled.cTargetType == f.targetType.val && f.compiled.cHasTarget == f.hasTarget && (f.hasTarget ==> f.compiled.cTargetId == f.target.id && f.compiled.cTargetGen == f.target.gen) && len(f.compiled.Ids) == f.compiled.cNIncl && (!f.compiled.locked ==> f.compiled.filter != nil && !is(f.compiled.filter, *CachedFilter))) && len(f.include) >= 9 && (f.optional.data != nil ==> f.optional.data != f.include.data) && (f.exclude.data != nil ==> f.exclude.data != f.include.data) && allocated(f.include.data) && allocated(f.optional.data) && allocated(f.exclude.data) && f.include[0] == rtypeOf(typeid(A)) && f.include[1] == rtypeOf(typeid(B)) && f.include[2] == rtypeOf(typeid(C)) && f.include[3] == rtypeOf(typeid(D)) && f.include[4] == rtypeOf(typeid(E)) && f.include[5] == rtypeOf(typeid(F)) && f.include[6] == rtypeOf(typeid(G)) && f.include[7] == rtypeOf(typeid(H)) && f.include[8] == rtypeOf(typeid(I))
+//@   flag may_panic
+//@   panics_if f.compiled.locked
+//@   ensures[cfg] r == f && (f.compiled.compiled ==> f.compiled.cExclusive == f.exclusive && f.compiled.cNIncl == len(f.include) && f.compiled.cNOpt == len(f.optional) && f.compiled.cNExcl == len(f.exclude) && f.compiled.cTargetType == f.targetType.val && f.compiled.cHasTarget == f.hasTarget && (f.hasTarget ==> f.compiled.cTargetId == f.target.id && f.compiled.cTargetGen == f.target.gen) && len(f.compiled.Ids) == f.compiled.cNIncl && (!f.compiled.locked ==> f.compiled.filter != nil && !is(f.compiled.filter, *CachedFilter)))
+//@   ensures[pos] len(f.include) >= 9 && (f.optional.data != nil ==> f.optional.data != f.include.data) && (f.exclude.data != nil ==> f.exclude.data != f.include.data) && allocated(f.include.data) && allocated(f.optional.data) && allocated(f.exclude.data) && f.include[0] == rtypeOf(typeid(A)) && f.include[1] == rtypeOf(typeid(B)) && f.include[2] == rtypeOf(typeid(C)) && f.include[3] == rtypeOf(typeid(D)) && f.include[4] == rtypeOf(typeid(E)) && f.include[5] == rtypeOf(typeid(F)) && f.include[6] == rtypeOf(typeid(G)) && f.include[7] == rtypeOf(typeid(H)) && f.include[8] == rtypeOf(typeid(I))
+//@   modifies f.include, f.include[ALL], f.compiled.compiled
+
+//@ func Filter9[A, B, C, D, E, F, G, H, I].Without(f, mask) (r)
+//@   props C18
+//@   requires (f.compiled.compiled ==> f.compiled.cExclusive == f.exclusive && f.compiled.cNIncl == len(f.include) && f.compiled.cNOpt == len(f.optional) && f.compiled.cNExcl == len(f.exclude) && f.compiled.cTargetType == f.targetType.val && f.compiled.cHasTarget == f.hasTarget && (f.hasTarget ==> f.compiled.cTargetId == f.target.id && f.compiled.cTargetGen == f.target.gen) && len(f.compiled.Ids) == f.compiled.cNIncl && (!f.compiled.locked ==> f.compiled.filter != nil && !is(f.compiled.filter, *CachedFilter))) && len(f.include) >= 9 && (f.optional.data != nil ==> f.optional.data != f.include.data) && (f.exclude.data != nil ==> f.exclude.data != f.include.data) && allocated(f.include.data) && allocated(f.optional.data) && allocated(f.exclude.data) && f.include[0] == rtypeOf(typeid(A)) && f.include[1] == rtypeOf(typeid(B)) && f.include[2] == rtypeOf(typeid(C)) && f.include[3] == rtypeOf(typeid(D)) && f.include[4] == rtypeOf(typeid(E)) && f.include[5] == rtypeOf(typeid(F)) && f.include[6] == rtypeOf(typeid(G)) && f.include[7] == rtypeOf(typeid(H)) && f.include[8] == rtypeOf(typeid(I))
+//@   flag may_panic
+//@   panics_if f.compiled.locked
+//@   ensures[cfg] r == f && (f.compiled.compiled ==> f.compiled.cExclusive == f.exclusive && f.compiled.cNIncl == len(f.include) && f.compiled.cNOpt == len(f.optional) && f.compiled.cNExcl == len(f.exclude) && f.compiled.cTargetType == f.targetType.val && f.compiled.cHasTarget == f.hasTarget && (f.hasTarget ==> f.compiled.cTargetId == f.target.id && f.compiled.cTargetGen == f.target.gen) && len(f.compiled.Ids) == f.compiled.cNIncl && (!f.compiled.locked ==> f.compiled.filter != nil && !is(f.compiled.filter, *CachedFilter)))
+//@   ensures[pos] len(f.include) >= 9 && (f.optional.data != nil ==> f.optional.data != f.include.data) && (f.exclude.data != nil ==> f.exclude.data != f.include.data) && allocated(f.include.data) && allocated(f.optional.data) && allocated(f.exclude.data) && f.include[0] == rtypeOf(typeid(A)) && f.include[1] == rtypeOf(typeid(B)) && f.include[2] == rtypeOf(typeid(C)) && f.include[3] == rtypeOf(typeid(D)) && f.include[4] == rtypeOf(typeid(E)) && f.include[5] == rtypeOf(typeid(F)) && f.include[6] == rtypeOf(typeid(G)) && f.include[7] == rtypeOf(typeid(H)) && f.include[8] == rtypeOf(typeid(I))
+//@   modifies f.exclude, f.exclude[ALL], f.compiled.compiled
+
+//@ func Filter9[A, B, C, D, E, F, G, H, I].Exclusive(f) (r)
+//@   props C18
+//@   requires (f.compiled.compiled ==> f.compiled.cExclusive == f.exclusive && f.compiled.cNIncl == len(f.include) && f.compiled.cNOpt == len(f.optional) && f.compiled.cNExcl == len(f.exclude) && f.compiled.cTargetType == f.targetType.val && f.compiled.cHasTarget == f.hasTarget && (f.hasTarget ==> f.compiled.cTargetId == f.target.id && f.compiled.cTargetGen == f.target.gen) && len(f.compiled.Ids) == f.compiled.cNIncl && (!f.compiled.locked ==> f.compiled.filter != nil && !is(f.compiled.filter, *CachedFilter))) && len(f.include) >= 9 && (f.optional.data != nil ==> f.optional.data != f.include.data) && (f.exclude.data != nil ==> f.exclude.data != f.include.data) && allocated(f.include.data) && allocated(f.optional.data) && allocated(f.exclude.data) && f.include[0] == rtypeOf(typeid(A)) && f.include[1] == rtypeOf(typeid(B)) && f.include[2] == rtypeOf(typeid(C)) && f.include[3] == rtypeOf(typeid(D)) && f.include[4] == rtypeOf(typeid(E)) && f.include[5] == rtypeOf(typeid(F)) && f.include[6] == rtypeOf(typeid(G)) && f.include[7] == rtypeOf(typeid(H)) && f.include[8] == rtypeOf(typeid(I))
+//@   flag may_panic
+//@   panics_if f.compiled.locked
+//@   ensures[cfg] r == f && (f.compiled.compiled ==> f.compiled.cExclusive == f.exclusive && f.compiled.cNIncl == len(f.include) && f.compiled.cNOpt == len(f.optional) && f.compiled.cNExcl == len(f.exclude) && f.compiled.cTargetType == f.targetType.val && f.compiled.cHasTarget == f.hasTarget && (f.hasTarget ==> f.compiled.cTargetId == f.target.id && f.compiled.cTargetGen == f.target.gen) && len(f.compiled.Ids) == f.compiled.cNIncl && (!f.compiled.locked ==> f.compiled.filter != nil && !is(f.compiled.filter, *CachedFilter)))
+//@   ensures[pos] len(f.include) >= 9 && (f.optional.data != nil ==> f.optional.data != f.include.data) && (f.exclude.data != nil ==> f.exclude.data != f.include.data) && allocated(f.include.data) && allocated(f.optional.data) && allocated(f.exclude.data) && f.include[0] == rtypeOf(typeid(A)) && f.include[1] == rtypeOf(typeid(B)) && f.include[2] == rtypeOf(typeid(C)) && f.include[3] == rtypeOf(typeid(D)) && f.include[4] == rtypeOf(typeid(E)) && f.include[5] == rtypeOf(typeid(F)) && f.include[6] == rtypeOf(typeid(G)) && f.include[7] == rtypeOf(typeid(H)) && f.include[8] == rtypeOf(typeid(I))
+//@   modifies f.exclusive, f.compiled.compiled
+
+//@ func Filter9[A, B, C, D, E, F, G, H, I].WithRelation(f, comp, target) (r)
+//@   props C18
+//@   requires (f.compiled.compiled ==> f.compiled.cExclusive == f.exclusive && f.compiled.cNIncl == len(f.include) && f.compiled.cNOpt == len(f.optional) && f.compiled.cNExcl == len(f.exclude) && f.compiled.cTargetType == f.targetType.val && f.compiled.cHasTarget == f.hasTarget && (f.hasTarget ==> f.compiled.cTargetId == f.target.id && f.compiled.cTargetGen == f.target.gen) && len(f.compiled.Ids) == f.compiled.cNIncl && (!f.compiled.locked ==> f.compiled.filter != nil && !is(f.compiled.filter, *CachedFilter))) && len(f.include) >= 9 && (f.optional.data != nil ==> f.optional.data != f.include.data) && (f.exclude.data != nil ==> f.exclude.data != f.include.data) && allocated(f.include.data) && allocated(f.optional.data) && allocated(f.exclude.data) && f.include[0] == rtypeOf(typeid(A)) && f.include[1] == rtypeOf(typeid(B)) && f.include[2] == rtypeOf(typeid(C)) && f.include[3] == rtypeOf(typeid(D)) && f.include[4] == rtypeOf(typeid(E)) && f.include[5] == rtypeOf(typeid(F)) && f.include[6] == rtypeOf(typeid(G)) && f.include[7] == rtypeOf(typeid(H)) && f.include[8] == rtypeOf(typeid(I))
+//@   flag may_panic
+//@   panics_if f.compiled.locked
+//@   ensures[cfg] r == f && (f.compiled.compiled ==> f.compiled.cExclusive == f.exclusive && f.compiled.cNIncl == len(f.include) && f.compiled.cNOpt == len(f.optional) && f.compiled.cNExcl == len(f.exclude) && f.compiled.cTargetType == f.targetType.val && f.compiled.cHasTarget == f.hasTarget && (f.hasTarget ==> f.compiled.cTargetId == f.target.id && f.compiled.cTargetGen == f.target.gen) && len(f.compiled.Ids) == f.compiled.cNIncl && (!f.compiled.locked ==> f.compiled.filter != nil && !is(f.compiled.filter, *CachedFilter)))
+//@   ensures[pos] len(f.include) >= 9 && (f.optional.data != nil ==> f.optional.data != f.include.data) && (f.exclude.data != nil ==> f.exclude.data != f.include.data) && allocated(f.include.data) && allocated(f.optional.data) && allocated(f.exclude.data) && f.include[0] == rtypeOf(typeid(A)) && f.include[1] == rtypeOf(typeid(B)) && f.include[2] == rtypeOf(typeid(C)) && f.include[3] == rtypeOf(typeid(D)) && f.include[4] == rtypeOf(typeid(E)) && f.include[5] == rtypeOf(typeid(F)) && f.include[6] == rtypeOf(typeid(G)) && f.include[7] == rtypeOf(typeid(H)) && f.include[8] == rtypeOf(typeid(I))
+//@   modifies f.targetType, f.target, f.hasTarget, f.compiled.compiled
+
+//@ func Filter10[A, B, C, D, E, F, G, H, I, J].Optional(f, mask) (r)
+//@   props C18
+//@   requires (f.compiled.compiled ==> f.compiled.cExclusive == f.exclusive && f.compiled.cNIncl == len(f.include) && f.compiled.cNOpt == len(f.optional) && f.compiled.cNExcl == len(f.exclude) && f.compiled.cTargetType == f.targetType.val && f.compiled.cHasTarget == f.hasTarget && (f.hasTarget ==> f.compiled.cTargetId == f.target.id && f.compiled.cTargetGen == f.target.gen) && len(f.compiled.Ids) == f.compiled.cNIncl && (!f.compiled.locked ==> f.compiled.filter != nil && !is(f.compiled.filter, *CachedFilter))) && len(f.include) >= 10 && (f.optional.data != nil ==> f.optional.data != f.include.data) && (f.exclude.data != nil ==> f.exclude.data != f.include.data) && allocated(f.include.data) && allocated(f.optional.data) && allocated(f.exclude.data) && f.include[0] == rtypeOf(typeid(A)) && f.include[1] == rtypeOf(typeid(B)) && f.include[2] == rtypeOf(typeid(C)) && f.include[3] == rtypeOf(typeid(D)) && f.include[4] == rtypeOf(typeid(E)) && f.include[5] == rtypeOf(typeid(F)) && f.include[6] == rtypeOf(typeid(G)) && f.include[7] == rtypeOf(typeid(H)) && f.include[8] == rtypeOf(typeid(I)) && f.include[9] == rtypeOf(typeid(J))
+//@   flag may_panic
+//@   panics_if f.compiled.locked
+//@   ensures[cfg] r == f && (f.compiled.compiled ==> f.compiled.cExclusive == f.exclusive && f.compiled.cNIncl == len(f.include) && f.compiled.cNOpt == len(f.optional) && f.compiled.cNExcl == len(f.exclude) && f.compiled.cTargetType == f.targetType.val && f.compiled.cHasTarget == f.hasTarget && (f.hasTarget ==> f.compiled.cTargetId == f.target.id && f.compiled.cTargetGen == f.target.gen) && len(f.compiled.Ids) == f.compiled.cNIncl && (!f.compiled.locked ==> f.compiled.filter != nil && !is(f.compiled.filter, *CachedFilter)))
+//@   ensures[pos] len(f.include) >= 10 && (f.optional.data != nil ==> f.optional.data != f.include.data) && (f.exclude.data != nil ==> f.exclude.data != f.include.data) && allocated(f.include.data) && allocated(f.optional.data) && allocated(f.exclude.data) && f.include[0] == rtypeOf(typeid(A)) && f.include[1] == rtypeOf(typeid(B)) && f.include[2] == rtypeOf(typeid(C)) && f.include[3] == rtypeOf(typeid(D)) && f.include[4] == rtypeOf(typeid(E)) && f.include[5] == rtypeOf(typeid(F)) && f.include[6] == rtypeOf(typeid(G)) && f.include[7] == rtypeOf(typeid(H)) && f.include[8] == rtypeOf(typeid(I)) && f.include[9] == rtypeOf(typeid(J))
+//@   modifies f.optional, f.optional[ALL], f.compiled.compiled
+
+//@ func Filter10[A, B, C, D, E, F, G, H, I, J].With(f, mask) (r)
+//@   props C18
+//@   requires (f.compiled.compiled ==> f.compiled.cExclusive == f.exclusive && f.compiled.cNIncl == len(f.include) && f.compiled.cNOpt == len(f.optional) && f.compiled.cNExcl == len(f.exclude) && f.compiled.cTargetType == f.targetType.val && f.compiled.cHasTarget == f.hasTarget && (f.hasTarget ==> f.compiled.cTargetId == f.target.id && f.compiled.cTargetGen == f.target.gen) && len(f.compiled.Ids) == f.compiled.cNIncl && (!f.compiled.locked ==> f.compiled.filter != nil && !is(f.compiled.filter, *CachedFilter))) && len(f.include) >= 10 && (f.optional.data != nil ==> f.optional.data != f.include.data) && (f.exclude.data != nil ==> f.exclude.data != f.include.data) && allocated(f.include.data) && allocated(f.optional.data) && allocated(f.exclude.data) && f.include[0] == rtypeOf(typeid(A)) && f.include[1] == rtypeOf(typeid(B)) && f.include[2] == rtypeOf(typeid(C)) && f.include[3] == rtypeOf(typeid(D)) && f.include[4] == rtypeOf(typeid(E)) && f.include[5] == rtypeOf(typeid(F)) && f.include[6] == rtypeOf(typeid(G)) && f.include[7] == rtypeOf(typeid(H)) && f.include[8] == rtypeOf(typeid(I)) && f.include[9] == rtypeOf(typeid(J))
+//@   flag may_panic
+//@   panics_if f.compiled.locked
+//@   ensures[cfg] r == f && (f.compiled.compiled ==> f.compiled.cExclusive == f.exclusive && f.compiled.cNIncl == len(f.include) && f.compiled.cNOpt == len(f.optional) && f.compiled.cNExcl == len(f.exclude) && f.compiled.cTargetType == f.targetType.val && f.compiled.cHasTarget == f.hasTarget && (f.hasTarget ==> f.compiled.cTargetId == f.target.id && f.compiled.cTargetGen == f.target.gen) && len(f.compiled.Ids) == f.compiled.cNIncl && (!f.compiled.locked ==> f.compiled.filter != nil && !is(f.compiled.filter, *CachedFilter)))
+//@   ensures[pos] len(f.include) >= 10 && (f.optional.data != nil ==> f.optional.data != f.include.data) && (f.exclude.data != nil ==> f.exclude.data != f.include.data) && allocated(f.include.data) && allocated(f.optional.data) && allocated(f.exclude.data) && f.include[0] == rtypeOf(typeid(A)) && f.include[1] == rtypeOf(typeid(B)) && f.include[2] == rtypeOf(typeid(C)) && f.include[3] == rtypeOf(typeid(D)) && f.include[4] == rtypeOf(typeid(E)) && f.include[5] == rtypeOf(typeid(F)) && f.include[6] == rtypeOf(typeid(G)) && f.include[7] == rtypeOf(typeid(H)) && f.include[8] == rtypeOf(typeid(I)) && f.include[9] == rtypeOf(typeid(J))
+//@   modifies f.include, f.include[ALL], f.compiled.compiled
+
+//@ func Filter10[A, B, C, D, E, F, G, H, I, J].Without(f, mask) (r)
+//@   props C18
+//@   requires (f.compiled.compiled ==> f.compiled.cExclusive == f.exclusive && f.compiled.cNIncl == len(f.include) && f.compiled.cNOpt == len(f.optional) && f.compiled.cNExcl == len(f.exclude) && f.compiled.cTargetType == f.targetType.val && f.compiled.cHasTarget == f.hasTarget && (f.hasTarget ==> f.compiled.cTargetId == f.target.id && f.compiled.cTargetGen == f.target.gen) && len(f.compiled.Ids) == f.compiled.cNIncl && (!f.compiled.locked ==> f.compiled.filter != nil && !is(f.compiled.filter, *CachedFilter))) && len(f.include) >= 10 && (f.optional.data != nil ==> f.optional.data != f.include.data) && (f.exclude.data != nil ==> f.exclude.data != f.include.data) && allocated(f.include.data) && allocated(f.optional.data) && allocated(f.exclude.data) && f.include[0] == rtypeOf(typeid(A)) && f.include[1] == rtypeOf(typeid(B)) && f.include[2] == rtypeOf(typeid(C)) && f.include[3] == rtypeOf(typeid(D)) && f.include[4] == rtypeOf(typeid(E)) && f.include[5] == rtypeOf(typeid(F)) && f.include[6] == rtypeOf(typeid(G)) && f.include[7] == rtypeOf(typeid(H)) && f.include[8] == rtypeOf(typeid(I)) && f.include[9] == rtypeOf(typeid(J))
+//@   flag may_panic
+//@   panics_if f.compiled.locked
+//@   ensures[cfg] r == f && (f.compiled.compiled ==> f.compiled.cExclusive == f.exclusive && f.compiled.cNIncl == len(f.include) && f.compiled.cNOpt == len(f.optional) && f.compiled.cNExcl == len(f.exclude) && f.compiled.cTargetType == f.targetType.val && f.compiled.cHasTarget == f.hasTarget && (f.hasTarget ==> f.compiled.cTargetId == f.target.id && f.compiled.cTargetGen == f.target.gen) && len(f.compiled.Ids) == f.compiled.cNIncl && (!f.compiled.locked ==> f.compiled.filter != nil && !is(f.compiled.filter, *CachedFilter)))
+//@   ensures[pos] len(f.include) >= 10 && (f.optional.data != nil ==> f.optional.data != f.include.data) && (f.exclude.data != nil ==> f.exclude.data != f.include.data) && allocated(f.include.data) && allocated(f.optional.data) && allocated(f.exclude.data) && f.include[0] == rtypeOf(typeid(A)) && f.include[1] == rtypeOf(typeid(B)) && f.include[2] == rtypeOf(typeid(C)) && f.include[3] == rtypeOf(typeid(D)) && f.include[4] == rtypeOf(typeid(E)) && f.include[5] == rtypeOf(typeid(F)) && f.include[6] == rtypeOf(typeid(G)) && f.include[7] == rtypeOf(typeid(H)) && f.include[8] == rtypeOf(typeid(I)) && f.include[9] == rtypeOf(typeid(J))
+//@   modifies f.exclude, f.exclude[ALL], f.compiled.compiled
+
+//@ func Filter10[A, B, C, D, E, F, G, H, I, J].Exclusive(f) (r)
+//@   props C18
+//@   requires (f.compiled.compiled ==> f.compiled.cExclusive == f.exclusive && f.compiled.cNIncl == len(f.include) && f.compiled.cNOpt == len(f.optional) && f.compiled.cNExcl == len(f.exclude) && f.compiled.cTargetType == f.targetType.val && f.compiled.cHasTarget == f.hasTarget && (f.hasTarget ==> f.compiled.cTargetId == f.target.id && f.compiled.cTargetGen == f.target.gen) && len(f.compiled.Ids) == f.compiled.cNIncl && (!f.compiled.locked ==> f.compiled.filter != nil && !is(f.compiled.filter, *CachedFilter))) && len(f.include) >= 10 && (f.optional.data != nil ==> f.optional.data != f.include.data) && (f.exclude.data != nil ==> f.exclude.data != f.include.data) && allocated(f.include.data) && allocated(f.optional.data) && allocated(f.exclude.data) && f.include[0] == rtypeOf(typeid(A)) && f.include[1] == rtypeOf(typeid(B)) && f.include[2] == rtypeOf(typeid(C)) && f.include[3] == rtypeOf(typeid(D)) && f.include[4] == rtypeOf(typeid(E)) && f.include[5] == rtypeOf(typeid(F)) && f.include[6] == rtypeOf(typeid(G)) && f.include[7] == rtypeOf(typeid(H)) && f.include[8] == rtypeOf(typeid(I)) && f.include[9] == rtypeOf(typeid(J))
+//@   flag may_panic
+//@   panics_if f.compiled.locked
+//@   ensures[cfg] r == f && (f.compiled.compiled ==> f.compiled.cExclusive == f.exclusive && f.compiled.cNIncl == len(f.include) && f.compiled.cNOpt == len(f.optional) && f.compiled.cNExcl == len(f.exclude) && f.compiled.cTargetType == f.targetType.val && f.compiled.cHasTarget == f.hasTarget && (f.hasTarget ==> f.compiled.cTargetId == f.target.id && f.compiled.cTargetGen == f.target.gen) && len(f.compiled.Ids) == f.compiled.cNIncl && (!f.compiled.locked ==> f.compiled.filter != nil && !is(f.compiled.filter, *CachedFilter)))
+//@   ensures[pos] len(f.include) >= 10 && (f.optional.data != nil ==> f.optional.data != f.include.data) && (f.exclude.data != nil ==> f.exclude.data != f.include.data) && allocated(f.include.data) && allocated(f.optional.data) && allocated(f.exclude.data) && f.include[0] == rtypeOf(typeid(A)) && f.include[1] == rtypeOf(typeid(B)) && f.include[2] == rtypeOf(typeid(C)) && f.include[3] == rtypeOf(typeid(D)) && f.include[4] == rtypeOf(typeid(E)) && f.include[5] == rtypeOf(typeid(F)) && f.include[6] == rtypeOf(typeid(G)) && f.include[7] == rtypeOf(typeid(H)) && f.include[8] == rtypeOf(typeid(I)) && f.include[9] == rtypeOf(typeid(J))
+//@   modifies f.exclusive, f.compiled.compiled
+
+//@ func Filter10[A, B, C, D, E, F, G, H, I, J].WithRelation(f, comp, target) (r)
+//@   props C18
+//@   requires (f.compiled.compiled ==> f.compiled.cExclusive == f.exclusive && f.compiled.cNIncl == len(f.include) && f.compiled.cNOpt == len(f.optional) && f.compiled.cNExcl == len(f.exclude) && f.compiled.cTargetType == f.targetType.val && f.compiled.cHasTarget == f.hasTarget && (f.hasTarget ==> f.compiled.cTargetId == f.target.id && f.compiled.cTargetGen == f.target.gen) && len(f.compiled.Ids) == f.compiled.cNIncl && (!f.compiled.locked ==> f.compiled.filter != nil && !is(f.compiled.filter, *CachedFilter))) && len(f.include) >= 10 && (f.optional.data != nil ==> f.optional.data != f.include.data) && (f.exclude.data != nil ==> f.exclude.data != f.include.data) && allocated(f.include.data) && allocated(f.optional.data) && allocated(f.exclude.data) && f.include[0] == rtypeOf(typeid(A)) && f.include[1] == rtypeOf(typeid(B)) && f.include[2] == rtypeOf(typeid(C)) && f.include[3] == rtypeOf(typeid(D)) && f.include[4] == rtypeOf(typeid(E)) && f.include[5] == rtypeOf(typeid(F)) && f.include[6] == rtypeOf(typeid(G)) && f.include[7] == rtypeOf(typeid(H)) && f.include[8] == rtypeOf(typeid(I)) && f.include[9] == rtypeOf(typeid(J))
+//@   flag may_panic
+//@   panics_if f.compiled.locked
+//@   ensures[cfg] r == f && (f.compiled.compiled ==> f.compiled.cExclusive == f.exclusive && f.compiled.cNIncl == len(f.include) && f.compiled.cNOpt == len(f.optional) && f.compiled.cNExcl == len(f.exclude) && f.compiled.cTargetType == f.targetType.val && f.compiled.cHasTarget == f.hasTarget && (f.hasTarget ==> f.compiled.cTargetId == f.target.id && f.compiled.cTargetGen == f.target.gen) && len(f.compiled.Ids) == f.compiled.cNIncl && (!f.compiled.locked ==> f.compiled.filter != nil && !is(f.compiled.filter, *CachedFilter)))
+//@   ensures[pos] len(f.include) >= 10 && (f.optional.data != nil ==> f.optional.data != f.include.data) && (f.exclude.data != nil ==> f.exclude.data != f.include.data) && allocated(f.include.data) && allocated(f.optional.data) && allocated(f.exclude.data) && f.include[0] == rtypeOf(typeid(A)) && f.include[1] == rtypeOf(typeid(B)) && f.include[2] == rtypeOf(typeid(C)) && f.include[3] == rtypeOf(typeid(D)) && f.include[4] == rtypeOf(typeid(E)) && f.include[5] == rtypeOf(typeid(F)) && f.include[6] == rtypeOf(typeid(G)) && f.include[7] == rtypeOf(typeid(H)) && f.include[8] == rtypeOf(typeid(I)) && f.include[9] == rtypeOf(typeid(J))
+//@   modifies f.targetType, f.target, f.hasTarget, f.compiled.compiled
+
+//@ func Filter11[A, B, C, D, E, F, G, H, I, J, K].Optional(f, mask) (r)
+//@   props C18
+//@   requires (f.compiled.compiled ==> f.compiled.cExclusive == f.exclusive && f.compiled.cNIncl == len(f.include) && f.compiled.cNOpt == len(f.optional) && f.compiled.cNExcl == len(f.exclude) && f.compiled.cTargetType == f.targetType.val && f.compiled.cHasTarget == f.hasTarget && (f.hasTarget ==> f.compiled.cTargetId == f.target.id && f.compiled.cTargetGen == f.target.gen) && len(f.compiled.Ids) == f.compiled.cNIncl && (!f.compiled.locked ==> f.compiled.filter != nil && !is(f.compiled.filter, *CachedFilter))) && len(f.include) >= 11 && (f.optional.data != nil ==> f.optional.data != f.include.data) && (f.exclude.data != nil ==> f.exclude.data != f.include.data) && allocated(f.include.data) && allocated(f.optional.data) && allocated(f.exclude.data) && f.include[0] == rtypeOf(typeid(A)) && f.include[1] == rtypeOf(typeid(B)) && f.include[2] == rtypeOf(typeid(C)) && f.include[3] == rtypeOf(typeid(D)) && f.include[4] == rtypeOf(typeid(E)) && f.include[5] == rtypeOf(typeid(F)) && f.include[6] == rtypeOf(typeid(G)) && f.include[7] == rtypeOf(typeid(H)) && f.include[8] == rtypeOf(typeid(I)) && f.include[9] == rtypeOf(typeid(J)) && f.include[10] == rtypeOf(typeid(K))
+//@   flag may_panic
+//@   panics_if f.compiled.locked
+//@   ensures[cfg] r == f && (f.compiled.compiled ==> f.compiled.cExclusive == f.exclusive && f.compiled.cNIncl == len(f.include) && f.compiled.cNOpt == len(f.optional) && f.compiled.cNExcl == len(f.exclude) && f.compiled.cTargetType == f.targetType.val && f.compiled.cHasTarget == f.hasTarget && (f.hasTarget ==> f.compiled.cTargetId == f.target.id && f.compiled.cTargetGen == f.target.gen) && len(f.compiled.Ids) == f.compiled.cNIncl && (!f.compiled.locked ==> f.compiled.filter != nil && !is(f.compiled.filter, *CachedFilter)))
+//@   ensures[pos] len(f.include) >= 11 && (f.optional.data != nil ==> f.optional.data != f.include.data) && (f.exclude.data != nil ==> f.exclude.data != f.include.data) && allocated(f.include.data) && allocated(f.optional.data) && allocated(f.exclude.data) && f.include[0] == rtypeOf(typeid(A)) && f.include[1] == rtypeOf(typeid(B)) && f.include[2] == rtypeOf(typeid(C)) && f.include[3] == rtypeOf(typeid(D)) && f.include[4] == rtypeOf(typeid(E)) && f.include[5] == rtypeOf(typeid(F)) && f.include[6] == rtypeOf(typeid(G)) && f.include[7] == rtypeOf(typeid(H)) && f.include[8] == rtypeOf(typeid(I)) && f.include[9] == rtypeOf(typeid(J)) && f.include[10] == rtypeOf(typeid(K))
+//@   modifies f.optional, f.optional[ALL], f.compiled.compiled
+
+//@ func Filter11[A, B, C, D, E, F, G, H, I, J, K].With(f, mask) (r)
+//@   props C18
+//@   requires (f.compiled.compiled ==> f.compiled.cExclusive == f.exclusive && f.compiled.cNIncl == len(f.include) && f.compiled.cNOpt == len(f.optional) && f.compiled.cNExcl == len(f.exclude) && f.compiled.cTargetType == f.targetType.val && f.compiled.cHasTarget == f.hasTarget && (f.hasTarget ==> f.compiled.cTargetId == f.target.id && f.compiled.cTargetGen == f.target.gen) && len(f.compiled.Ids) == f.compiled.cNIncl && (!f.compiled.locked ==> f.compiled.filter != nil && !is(f.compiled.filter, *CachedFilter))) && len(f.include) >= 11 && (f.optional.data != nil ==> f.optional.data != f.include.data) && (f.exclude.data != nil ==> f.exclude.data != f.include.data) && allocated(f.include.data) && allocated(f.optional.data) && allocated(f.exclude.data) && f.include[0] == rtypeOf(typeid(A)) && f.include[1] == rtypeOf(typeid(B)) && f.include[2] == rtypeOf(typeid(C)) && f.include[3] == rtypeOf(typeid(D)) && f.include[4] == rtypeOf(typeid(E)) && f.include[5] == rtypeOf(typeid(F)) && f.include[6] == rtypeOf(typeid(G)) && f.include[7] == rtypeOf(typeid(H)) && f.include[8] == rtypeOf(typeid(I)) && f.include[9] == rtypeOf(typeid(J)) && f.include[10] == rtypeOf(typeid(K))
+//@   flag may_panic
+//@   panics_if f.compiled.locked
+//@   ensures[cfg] r == f && (f.compiled.compiled ==> f.compiled.cExclusive == f.exclusive && f.compiled.cNIncl == len(f.include) && f.compiled.cNOpt == len(f.optional) && f.compiled.cNExcl == len(f.exclude) && f.compiled.cTargetType == f.targetType.val && f.compiled.cHasTarget == f.hasTarget && (f.hasTarget ==> f.compiled.cTargetId == f.target.id && f.compiled.cTargetGen == f.target.gen) && len(f.compiled.Ids) == f.compiled.cNIncl && (!f.compiled.locked ==> f.compiled.filter != nil && !is(f.compiled.filter, *CachedFilter)))
+//@   ensures[pos] len(f.include) >= 11 && (f.optional.data != nil ==> f.optional.data != f.include.data) && (f.exclude.data != nil ==> f.exclude.data != f.include.data) && allocated(f.include.data) && allocated(f.optional.data) && allocated(f.exclude.data) && f.include[0] == rtypeOf(typeid(A)) && f.include[1] == rtypeOf(typeid(B)) && f.include[2] == rtypeOf(typeid(C)) && f.include[3] == rtypeOf(typeid(D)) && f.include[4] == rtypeOf(typeid(E)) && f.include[5] == rtypeOf(typeid(F)) && f.include[6] == rtypeOf(typeid(G)) && f.include[7] == rtypeOf(typeid(H)) && f.include[8] == rtypeOf(typeid(I)) && f.include[9] == rtypeOf(typeid(J)) && f.include[10] == rtypeOf(typeid(K))
+//@   modifies f.include, f.include[ALL], f.compiled.compiled
+
+//@ func Filter11[A, B, C, D, E, F, G, H, I, J, K].Without(f, mask) (r)
+//@   props C18
+//@   requires (f.compiled.compiled ==> f.compiled.cExclusive == f.exclusive && f.compiled.cNIncl == len(f.include) && f.compiled.cNOpt == len(f.optional) && f.compiled.cNExcl == len(f.exclude) && f.compiled.cTargetType == f.targetType.val && f.compiled.cHasTarget == f.hasTarget && (f.hasTarget ==> f.compiled.cTargetId == f.target.id && f.compiled.cTargetGen == f.target.gen) && len(f.compiled.Ids) == f.compiled.cNIncl && (!f.compiled.locked ==> f.compiled.filter != nil && !is(f.compiled.filter, *CachedFilter))) && len(f.include) >= 11 && (f.optional.data != nil ==> f.optional.data != f.include.data) && (f.exclude.data != nil ==> f.exclude.data != f.include.data) && allocated(f.include.data) && allocated(f.optional.data) && allocated(f.exclude.data) && f.include[0] == rtypeOf(typeid(A)) && f.include[1] == rtypeOf(typeid(B)) && f.include[2] == rtypeOf(typeid(C)) && f.include[3] == rtypeOf(typeid(D)) && f.include[4] == rtypeOf(typeid(E)) && f.include[5] == rtypeOf(typeid(F)) && f.include[6] == rtypeOf(typeid(G)) && f.include[7] == rtypeOf(typeid(H)) && f.include[8] == rtypeOf(typeid(I)) && f.include[9] == rtypeOf(typeid(J)) && f.include[10] == rtypeOf(typeid(K))
+//@   flag may_panic
+//@   panics_if f.compiled.locked
+//@   ensures[cfg] r == f && (f.compiled.compiled ==> f.compiled.cExclusive == f.exclusive && f.compiled.cNIncl == len(f.include) && f.compiled.cNOpt == len(f.optional) && f.compiled.cNExcl == len(f.exclude) && f.compiled.cTargetType == f.targetType.val && f.compiled.cHasTarget == f.hasTarget && (f.hasTarget ==> f.compiled.cTargetId == f.target.id && f.compiled.cTargetGen == f.target.gen) && len(f.compiled.Ids) == f.compiled.cNIncl && (!f.compiled.locked ==> f.compiled.filter != nil && !is(f.compiled.filter, *CachedFilter)))
+//@   ensures[pos] len(f.include) >= 11 && (f.optional.data != nil ==> f.optional.data != f.include.data) && (f.exclude.data != nil ==> f.exclude.data != f.include.data) && allocated(f.include.data) && allocated(f.optional.data) && allocated(f.exclude.data) && f.include[0] == rtypeOf(typeid(A)) && f.include[1] == rtypeOf(typeid(B)) && f.include[2] == rtypeOf(typeid(C)) && f.include[3] == rtypeOf(typeid(D)) && f.include[4] == rtypeOf(typeid(E)) && f.include[5] == rtypeOf(typeid(F)) && f.include[6] == rtypeOf(typeid(G)) && f.include[7] == rtypeOf(typeid(H)) && f.include[8] == rtypeOf(typeid(I)) && f.include[9] == rtypeOf(typeid(J)) && f.include[10] == rtypeOf(typeid(K))
+//@   modifies f.exclude, f.exclude[ALL], f.compiled.compiled
+
+//@ func Filter11[A, B, C, D, E, F, G, H, I, J, K].Exclusive(f) (r)
+//@   props C18
+//@   requires (f.compiled.compiled ==> f.compiled.cExclusive == f.exclusive && f.compiled.cNIncl == len(f.include) && f.compiled.cNOpt == len(f.optional) && f.compiled.cNExcl == len(f.exclude) && f.compiled.cTargetType == f.targetType.val && f.compiled.cHasTarget == f.hasTarget && (f.hasTarget ==> f.compiled.cTargetId == f.target.id && f.compiled.cTargetGen == f.target.gen) && len(f.compiled.Ids) == f.compiled.cNIncl && (!f.compiled.locked ==> f.compiled.filter != nil && !is(f.compiled.filter, *CachedFilter))) && len(f.include) >= 11 && (f.optional.data != nil ==> f.optional.data != f.include.data) && (f.exclude.data != nil ==> f.exclude.data != f.include.data) && allocated(f.include.data) && allocated(f.optional.data) && allocated(f.exclude.data) && f.include[0] == rtypeOf(typeid(A)) && f.include[1] == rtypeOf(typeid(B)) && f.include[2] == rtypeOf(typeid(C)) && f.include[3] == rtypeOf(typeid(D)) && f.include[4] == rtypeOf(typeid(E)) && f.include[5] == rtypeOf(typeid(F)) && f.include[6] == rtypeOf(typeid(G)) && f.include[7] == rtypeOf(typeid(H)) && f.include[8] == rtypeOf(typeid(I)) && f.include[9] == rtypeOf(typeid(J)) && f.include[10] == rtypeOf(typeid(K))
+//@   flag may_panic
+//@   panics_if f.compiled.locked
+//@   ensures[cfg] r == f && (f.compiled.compiled ==> f.compiled.cExclusive == f.exclusive && f.compiled.cNIncl == len(f.include) && f.compiled.cNOpt == len(f.optional) && f.compiled.cNExcl == len(f.exclude) && f.compiled.cTargetType == f.targetType.val && f.compiled.cHasTarget == f.hasTarget && (f.hasTarget ==> f.compiled.cTargetId == f.target.id && f.compiled.cTargetGen == f.target.gen) && len(f.compiled.Ids) == f.compiled.cNIncl && (!f.compiled.locked ==> f.compiled.filter != nil && !is(f.compiled.filter, *CachedFilter)))
+//@   ensures[pos] len(f.include) >= 11 && (f.optional.data != nil ==> f.optional.data != f.include.data) && (f.exclude.data != nil ==> f.exclude.data != f.include.data) && allocated(f.include.data) && allocated(f.optional.data) && allocated(f.exclude.data) && f.include[0] == rtypeOf(typeid(A)) && f.include[1] == rtypeOf(typeid(B)) && f.include[2] == rtypeOf(typeid(C)) && f.include[3] == rtypeOf(typeid(D)) && f.include[4] == rtypeOf(typeid(E)) && f.include[5] == rtypeOf(typeid(F)) && f.include[6] == rtypeOf(typeid(G)) && f.include[7] == rtypeOf(typeid(H)) && f.include[8] == rtypeOf(typeid(I)) && f.include[9] == rtypeOf(typeid(J)) && f.include[10] == rtypeOf(typeid(K))
+//@   modifies f.exclusive, f.compiled.compiled
+
+//@ func Filter11[A, B, C, D, E, F, G, H, I, J, K].WithRelation(f, comp, target) (r)
+//@   props C18
+//@   requires (f.compiled.compiled ==> f.compiled.cExclusive == f.exclusive && f.compiled.cNIncl == len(f.include) && f.compiled.cNOpt == len(f.optional) && f.compiled.cNExcl == len(f.exclude) && f.compiled.cTargetType == f.targetType.val && f.compiled.cHasTarget == f.hasTarget && (f.hasTarget ==> f.compiled.cTargetId == f.target.id && f.compiled.cTargetGen == f.target.gen) && len(f.compiled.Ids) == f.compiled.cNIncl && (!f.compiled.locked ==> f.compiled.filter != nil && !is(f.compiled.filter, *CachedFilter))) && len(f.include) >= 11 && (f.optional.data != nil ==> f.optional.data != f.include.data) && (f.exclude.data != nil ==> f.exclude.data != f.include.data) && allocated(f.include.data) && allocated(f.optional.data) && allocated(f.exclude.data) && f.include[0] == rtypeOf(typeid(A)) && f.include[1] == rtypeOf(typeid(B)) && f.include[2] == rtypeOf(typeid(C)) && f.include[3] == rtypeOf(typeid(D)) && f.include[4] == rtypeOf(typeid(E)) && f.include[5] == rtypeOf(typeid(F)) && f.include[6] == rtypeOf(typeid(G)) && f.include[7] == rtypeOf(typeid(H)) && f.include[8] == rtypeOf(typeid(I)) && f.include[9] == rtypeOf(typeid(J)) && f.include[10] == rtypeOf(typeid(K))
+//@   flag may_panic
+//@   panics_if f.compiled.locked
+//@   ensures[cfg] r == f && (f.compiled.compiled ==> f.compiled.cExclusive == f.exclusive && f.compiled.cNIncl == len(f.include) && f.compiled.cNOpt == len(f.optional) && f.compiled.cNExcl == len(f.exclude) && f.compiled.cTargetType == f.targetType.val && f.compiled.cHasTarget == f.hasTarget && (f.hasTarget ==> f.compiled.cTargetId == f.target.id && f.compiled.cTargetGen == f.target.gen) && len(f.compiled.Ids) == f.compiled.cNIncl && (!f.compiled.locked ==> f.compiled.filter != nil && !is(f.compiled.filter, *CachedFilter)))
+//@   ensures[pos] len(f.include) >= 11 && (f.optional.data != nil ==> f.optional.data != f.include.data) && (f.exclude.data != nil ==> f.exclude.data != f.include.data) && allocated(f.include.data) && allocated(f.optional.data) && allocated(f.exclude.data) && f.include[0] == rtypeOf(typeid(A)) && f.include[1] == rtypeOf(typeid(B)) && f.include[2] == rtypeOf(typeid(C)) && f.include[3] == rtypeOf(typeid(D)) && f.include[4] == rtypeOf(typeid(E)) && f.include[5] == rtypeOf(typeid(F)) && f.include[6] == rtypeOf(typeid(G)) && f.include[7] == rtypeOf(typeid(H)) && f.include[8] == rtypeOf(typeid(I)) && f.include[9] == rtypeOf(typeid(J)) && f.include[10] == rtypeOf(typeid(K))
+//@   modifies f.targetType, f.target, f.hasTarget, f.compiled.compiled
+
+//@ func Filter12[A, B, C, D, E, F, G, H, I, J, K, L].Optional(f, mask) (r)
+//@   props C18
+//@   requires (f.compiled.compiled ==> f.compiled.cExclusive == f.exclusive && f.compiled.cNIncl == len(f.include) && f.compiled.cNOpt == len(f.optional) && f.compiled.cNExcl == len(f.exclude) && f.compiled.cTargetType == f.targetType.val && f.compiled.cHasTarget == f.hasTarget && (f.hasTarget ==> f.compiled.cTargetId == f.target.id && f.compiled.cTargetGen == f.target.gen) && len(f.compiled.Ids) == f.compiled.cNIncl && (!f.compiled.locked ==> f.compiled.filter != nil && !is(f.compiled.filter, *CachedFilter))) && len(f.include) >= 12 && (f.optional.data != nil ==> f.optional.data != f.include.data) && (f.exclude.data != nil ==> f.exclude.data != f.include.data) && allocated(f.include.data) && allocated(f.optional.data) && allocated(f.exclude.data) && f.include[0] == rtypeOf(typeid(A)) && f.include[1] == rtypeOf(typeid(B)) && f.include[2] == rtypeOf(typeid(C)) && f.include[3] == rtypeOf(typeid(D)) && f.include[4] == rtypeOf(typeid(E)) && f.include[5] == rtypeOf(typeid(F)) && f.include[6] == rtypeOf(typeid(G)) && f.include[7] == rtypeOf(typeid(H)) && f.include[8] == rtypeOf(typeid(I)) && f.include[9] == rtypeOf(typeid(J)) && f.include[10] == rtypeOf(typeid(K)) && f.include[11] == rtypeOf(typeid(L))
+//@   flag may_panic
+//@   panics_if f.compiled.locked
+//@   ensures[cfg] r == f && (f.compiled.compiled ==> f.compiled.cExclusive == f.exclusive && f.compiled.cNIncl == len(f.include) && f.compiled.cNOpt == len(f.optional) && f.compiled.cNExcl == len(f.exclude) && f.compiled.cTargetType == f.targetType.val && f.compiled.cHasTarget == f.hasTarget && (f.hasTarget ==> f.compiled.cTargetId == f.target.id && f.compiled.cTargetGen == f.target.gen) && len(f.compiled.Ids) == f.compiled.cNIncl && (!f.compiled.locked ==> f.compiled.filter != nil && !is(f.compiled.filter, *CachedFilter)))
+//@   ensures[pos] len(f.include) >= 12 && (f.optional.data != nil ==> f.optional.data != f.include.data) && (f.exclude.data != nil ==> f.exclude.data != f.include.data) && allocated(f.include.data) && allocated(f.optional.data) && allocated(f.exclude.data) && f.include[0] == rtypeOf(typeid(A)) && f.include[1] == rtypeOf(typeid(B)) && f.include[2] == rtypeOf(typeid(C)) && f.include[3] == rtypeOf(typeid(D)) && f.include[4] == rtypeOf(typeid(E)) && f.include[5] == rtypeOf(typeid(F)) && f.include[6] == rtypeOf(typeid(G)) && f.include[7] == rtypeOf(typeid(H)) && f.include[8] == rtypeOf(typeid(I)) && f.include[9] == rtypeOf(typeid(J)) && f.include[10] == rtypeOf(typeid(K)) && f.include[11] == rtypeOf(typeid(L))
+//@   modifies f.optional, f.optional[ALL], f.compiled.compiled
+
+//@ func Filter12[A, B, C, D, E, F, G, H, I, J, K, L].With(f, mask) (r)
+//@   props C18
+//@   requires (f.compiled.compiled ==> f.compiled.cExclusive == f.exclusive && f.compiled.cNIncl == len(f.include) && f.compiled.cNOpt == len(f.optional) && f.compiled.cNExcl == len(f.exclude) && f.compiled.cTargetType == f.targetType.val && f.compiled.cHasTarget == f.hasTarget && (f.hasTarget ==> f.compiled.cTargetId == f.target.id && f.compiled.cTargetGen == f.target.gen) && len(f.compiled.Ids) == f.compiled.cNIncl && (!f.compiled.locked ==> f.compiled.filter != nil && !is(f.compiled.filter, *CachedFilter))) && len(f.include) >= 12 && (f.optional.data != nil ==> f.optional.data != f.include.data) && (f.exclude.data != nil ==> f.exclude.data != f.include.data) && allocated(f.include.data) && allocated(f.optional.data) && allocated(f.exclude.data) && f.include[0] == rtypeOf(typeid(A)) && f.include[1] == rtypeOf(typeid(B)) && f.include[2] == rtypeOf(typeid(C)) && f.include[3] == rtypeOf(typeid(D)) && f.include[4] == rtypeOf(typeid(E)) && f.include[5] == rtypeOf(typeid(F)) && f.include[6] == rtypeOf(typeid(G)) && f.include[7] == rtypeOf(typeid(H)) && f.include[8] == rtypeOf(typeid(I)) && f.include[9] == rtypeOf(typeid(J)) && f.include[10] == rtypeOf(typeid(K)) && f.include[11] == rtypeOf(typeid(L))
+//@   flag may_panic
+//@   panics_if f.compiled.locked
+//@   ensures[cfg] r == f && (f.compiled.compiled ==> f.compiled.cExclusive == f.exclusive && f.compiled.cNIncl == len(f.include) && f.compiled.cNOpt == len(f.optional) && f.compiled.cNExcl == len(f.exclude) && f.compiled.cTargetType == f.targetType.val && f.compiled.cHasTarget == f.hasTarget && (f.hasTarget ==> f.compiled.cTargetId == f.target.id && f.compiled.cTargetGen == f.target.gen) && len(f.compiled.Ids) == f.compiled.cNIncl && (!f.compiled.locked ==> f.compiled.filter != nil && !is(f.compiled.filter, *CachedFilter)))
+//@   ensures[pos] len(f.include) >= 12 && (f.optional.data != nil ==> f.optional.data != f.include.data) && (f.exclude.data != nil ==> f.exclude.data != f.include.data) && allocated(f.include.data) && allocated(f.optional.data) && allocated(f.exclude.data) && f.include[0] == rtypeOf(typeid(A)) && f.include[1] == rtypeOf(typeid(B)) && f.include[2] == rtypeOf(typeid(C)) && f.include[3] == rtypeOf(typeid(D)) && f.include[4] == rtypeOf(typeid(E)) && f.include[5] == rtypeOf(typeid(F)) && f.include[6] == rtypeOf(typeid(G)) && f.include[7] == rtypeOf(typeid(H)) && f.include[8] == rtypeOf(typeid(I)) && f.include[9] == rtypeOf(typeid(J)) && f.include[10] == rtypeOf(typeid(K)) && f.include[11] == rtypeOf(typeid(L))
+//@   modifies f.include, f.include[ALL], f.compiled.compiled
+
+//@ func Filter12[A, B, C, D, E, F, G, H, I, J, K, L].Without(f, mask) (r)
+//@   props C18
+//@   requires (f.compiled.compiled ==> f.compiled.cExclusive == f.exclusive && f.compiled.cNIncl == len(f.include) && f.compiled.cNOpt == len(f.optional) && f.compiled.cNExcl == len(f.exclude) && f.compiled.cTargetType == f.targetType.val && f.compiled.cHasTarget == f.hasTarget && (f.hasTarget ==> f.compiled.cTargetId == f.target.id && f.compiled.cTargetGen == f.target.gen) && len(f.compiled.Ids) == f.compiled.cNIncl && (!f.compiled.locked ==> f.compiled.filter != nil && !is(f.compiled.filter, *CachedFilter))) && len(f.include) >= 12 && (f.optional.data != nil ==> f.optional.data != f.include.data) && (f.exclude.data != nil ==> f.exclude.data != f.include.data) && allocated(f.include.data) && allocated(f.optional.data) && allocated(f.exclude.data) && f.include[0] == rtypeOf(typeid(A)) && f.include[1] == rtypeOf(typeid(B)) && f.include[2] == rtypeOf(typeid(C)) && f.include[3] == rtypeOf(typeid(D)) && f.include[4] == rtypeOf(typeid(E)) && f.include[5] == rtypeOf(typeid(F)) && f.include[6] == rtypeOf(typeid(G)) && f.include[7] == rtypeOf(typeid(H)) && f.include[8] == rtypeOf(typeid(I)) && f.include[9] == rtypeOf(typeid(J)) && f.include[10] == rtypeOf(typeid(K)) && f.include[11] == rtypeOf(typeid(L))
+//@   flag may_panic
+//@   panics_if f.compiled.locked
+//@   ensures[cfg] r == f && (f.compiled.compiled ==> f.compiled.cExclusive == f.exclusive && f.compiled.cNIncl == len(f.include) && f.compiled.cNOpt == len(f.optional) && f.compiled.cNExcl == len(f.exclude) && f.compiled.cTargetType == f.targetType.val && f.compiled.cHasTarget == f.hasTarget && (f.hasTarget ==> f.compiled.cTargetId == f.target.id && f.compiled.cTargetGen == f.target.gen) && len(f.compiled.Ids) == f.compiled.cNIncl && (!f.compiled.locked ==> f.compiled.filter != nil && !is(f.compiled.filter, *CachedFilter)))
+//@   ensures[pos] len(f.include) >= 12 && (f.optional.data != nil ==> f.optional.data != f.include.data) && (f.exclude.data != nil ==> f.exclude.data != f.include.data) && allocated(f.include.data) && allocated(f.optional.data) && allocated(f.exclude.data) && f.include[0] == rtypeOf(typeid(A)) && f.include[1] == rtypeOf(typeid(B)) && f.include[2] == rtypeOf(typeid(C)) && f.include[3] == rtypeOf(typeid(D)) && f.include[4] == rtypeOf(typeid(E)) && f.include[5] == rtypeOf(typeid(F)) && f.include[6] == rtypeOf(typeid(G)) && f.include[7] == rtypeOf(typeid(H)) && f.include[8] == rtypeOf(typeid(I)) && f.include[9] == rtypeOf(typeid(J)) && f.include[10] == rtypeOf(typeid(K)) && f.include[11] == rtypeOf(typeid(L))
+//@   modifies f.exclude, f.exclude[ALL], f.compiled.compiled
+
+//@ func Filter12[A, B, C, D, E, F, G, H, I, J, K, L].Exclusive(f) (r)
+//@   props C18
+//@   requires (f.compiled.compiled ==> f.compiled.cExclusive == f.exclusive && f.compiled.cNIncl == len(f.include) && f.compiled.cNOpt == len(f.optional) && f.compiled.cNExcl == len(f.exclude) && f.compiled.cTargetType == f.targetType.val && f.compiled.cHasTarget == f.hasTarget && (f.hasTarget ==> f.compiled.cTargetId == f.target.id && f.compiled.cTargetGen == f.target.gen) && len(f.compiled.Ids) == f.compiled.cNIncl && (!f.compiled.locked ==> f.compiled.filter != nil && !is(f.compiled.filter, *CachedFilter))) && len(f.include) >= 12 && (f.optional.data != nil ==> f.optional.data != f.include.data) && (f.exclude.data != nil ==> f.exclude.data != f.include.data) && allocated(f.include.data) && allocated(f.optional.data) && allocated(f.exclude.data) && f.include[0] == rtypeOf(typeid(A)) && f.include[1] == rtypeOf(typeid(B)) && f.include[2] == rtypeOf(typeid(C)) && f.include[3] == rtypeOf(typeid(D)) && f.include[4] == rtypeOf(typeid(E)) && f.include[5] == rtypeOf(typeid(F)) && f.include[6] == rtypeOf(typeid(G)) && f.include[7] == rtypeOf(typeid(H)) && f.include[8] == rtypeOf(typeid(I)) && f.include[9] == rtypeOf(typeid(J)) && f.include[10] == rtypeOf(typeid(K)) && f.include[11] == rtypeOf(typeid(L))
+//@   flag may_panic
+//@   panics_if f.compiled.locked
+//@   ensures[cfg] r == f && (f.compiled.compiled ==> f.compiled.cExclusive == f.exclusive && f.compiled.cNIncl == len(f.include) && f.compiled.cNOpt == len(f.optional) && f.compiled.cNExcl == len(f.exclude) && f.compiled.cTargetType == f.targetType.val && f.compiled.cHasTarget == f.hasTarget && (f.hasTarget ==> f.compiled.cTargetId == f.target.id && f.compiled.cTargetGen == f.target.gen) && len(f.compiled.Ids) == f.compiled.cNIncl && (!f.compiled.locked ==> f.compiled.filter != nil && !is(f.compiled.filter, *CachedFilter)))
+//@   ensures[pos] len(f.include) >= 12 && (f.optional.data != nil ==> f.optional.data != f.include.data) && (f.exclude.data != nil ==> f.exclude.data != f.include.data) && allocated(f.include.data) && allocated(f.optional.data) && allocated(f.exclude.data) && f.include[0] == rtypeOf(typeid(A)) && f.include[1] == rtypeOf(typeid(B)) && f.include[2] == rtypeOf(typeid(C)) && f.include[3] == rtypeOf(typeid(D)) && f.include[4] == rtypeOf(typeid(E)) && f.include[5] == rtypeOf(typeid(F)) && f.include[6] == rtypeOf(typeid(G)) && f.include[7] == rtypeOf(typeid(H)) && f.include[8] == rtypeOf(typeid(I)) && f.include[9] == rtypeOf(typeid(J)) && f.include[10] == rtypeOf(typeid(K)) && f.include[11] == rtypeOf(typeid(L))
+//@   modifies f.exclusive, f.compiled.compiled
+
+//@ func Filter12[A, B, C, D, E, F, G, H, I, J, K, L].WithRelation(f, comp, target) (r)
+//@   props C18
+//@   requires (f.compiled.compiled ==> f.compiled.cExclusive == f.exclusive && f.compiled.cNIncl == len(f.include) && f.compiled.cNOpt == len(f.optional) && f.compiled.cNExcl == len(f.exclude) && f.compiled.cTargetType == f.targetType.val && f.compiled.cHasTarget == f.hasTarget && (f.hasTarget ==> f.compiled.cTargetId == f.target.id && f.compiled.cTargetGen == f.target.gen) && len(f.compiled.Ids) == f.compiled.cNIncl && (!f.compiled.locked ==> f.compiled.filter != nil && !is(f.compiled.filter, *CachedFilter))) && len(f.include) >= 12 && (f.optional.data != nil ==> f.optional.data != f.include.data) && (f.exclude.data != nil ==> f.exclude.data != f.include.data) && allocated(f.include.data) && allocated(f.optional.data) && allocated(f.exclude.data) && f.include[0] == rtypeOf(typeid(A)) && f.include[1] == rtypeOf(typeid(B)) && f.include[2] == rtypeOf(typeid(C)) && f.include[3] == rtypeOf(typeid(D)) && f.include[4] == rtypeOf(typeid(E)) && f.include[5] == rtypeOf(typeid(F)) && f.include[6] == rtypeOf(typeid(G)) && f.include[7] == rtypeOf(typeid(H)) && f.include[8] == rtypeOf(typeid(I)) && f.include[9] == rtypeOf(typeid(J)) && f.include[10] == rtypeOf(typeid(K)) && f.include[11] == rtypeOf(typeid(L))
+//@   flag may_panic
+//@   panics_if f.compiled.locked
+//@   ensures[cfg] r == f && (f.compiled.compiled ==> f.compiled.cExclusive == f.exclusive && f.compiled.cNIncl == len(f.include) && f.compiled.cNOpt == len(f.optional) && f.compiled.cNExcl == len(f.exclude) && f.compiled.cTargetType == f.targetType.val && f.compiled.cHasTarget == f.hasTarget && (f.hasTarget ==> f.compiled.cTargetId == f.target.id && f.compiled.cTargetGen == f.target.gen) && len(f.compiled.Ids) == f.compiled.cNIncl && (!f.compiled.locked ==> f.compiled.filter != nil && !is(f.compiled.filter, *CachedFilter)))
+//@   ensures[pos] len(f.include) >= 12 && (f.optional.data != nil ==> f.optional.data != f.include.data) && (f.exclude.data != nil ==> f.exclude.data != f.include.data) && allocated(f.include.data) && allocated(f.optional.data) && allocated(f.exclude.data) && f.include[0] == rtypeOf(typeid(A)) && f.include[1] == rtypeOf(typeid(B)) && f.include[2] == rtypeOf(typeid(C)) && f.include[3] == rtypeOf(typeid(D)) && f.include[4] == rtypeOf(typeid(E)) && f.include[5] == rtypeOf(typeid(F)) && f.include[6] == rtypeOf(typeid(G)) && f.include[7] == rtypeOf(typeid(H)) && f.include[8] == rtypeOf(typeid(I)) && f.include[9] == rtypeOf(typeid(J)) && f.include[10] == rtypeOf(typeid(K)) && f.include[11] == rtypeOf(typeid(L))
+//@   modifies f.targetType, f.target, f.hasTarget, f.compiled.compiled
+
+// ---- C18: positional plumbing (component k of the result is the component with the k-th ID)
+//@ func Filter0.Filter(f, w, target) (r)
+//@   props C18
+//@   requires w != nil && regInv(&w.registry) && (f.compiled.compiled ==> f.compiled.cExclusive == f.exclusive && f.compiled.cNIncl == len(f.include) && f.compiled.cNOpt == len(f.optional) && f.compiled.cNExcl == len(f.exclude) && f.compiled.cTargetType == f.targetType.val && f.compiled.cHasTarget == f.hasTarget && (f.hasTarget ==> f.compiled.cTargetId == f.target.id && f.compiled.cTargetGen == f.target.gen) && len(f.compiled.Ids) == f.compiled.cNIncl && (!f.compiled.locked ==> f.compiled.filter != nil && !is(f.compiled.filter, *CachedFilter)))
+//@   flag may_panic
+//@   ensures[cfg] f.compiled.compiled && (f.compiled.compiled ==> f.compiled.cExclusive == f.exclusive && f.compiled.cNIncl == len(f.include) && f.compiled.cNOpt == len(f.optional) && f.compiled.cNExcl == len(f.exclude) && f.compiled.cTargetType == f.targetType.val && f.compiled.cHasTarget == f.hasTarget && (f.hasTarget ==> f.compiled.cTargetId == f.target.id && f.compiled.cTargetGen == f.target.gen) && len(f.compiled.Ids) == f.compiled.cNIncl && (!f.compiled.locked ==> f.compiled.filter != nil && !is(f.compiled.filter, *CachedFilter)))
+//@   modifies *(&f.compiled), w.registry.Components[ALL], w.registry.Types[ALL], w.registry.Used.bits, w.registry.IsRelation.bits, w.registry.IDs, elems(uint8), all(archetypeData.layouts), all(archetypeAccess.basePointer)
+//@   ensures[kind] f.compiled.locked == old(f.compiled.locked) && (!f.compiled.locked ==> r != nil && !is(r, *CachedFilter))
+//@   ensures[ids] !old(f.compiled.compiled) ==> (forall k int :: {f.compiled.Ids[k]} 0 <= k && k < len(f.include) ==> f.compiled.Ids[k].id == w.registry.Components[f.include[k].val])
+//@   ensures[plain] len(target) == 0 ==> r == f.compiled.filter
+//@   ensures[target] len(target) > 0 ==> is(r, *RelationFilter) && as(r, *RelationFilter) == &f.compiled.relationFilter && f.compiled.relationFilter.Target == target[0] && is(f.compiled.relationFilter.Filter, *MaskFilter) && as(f.compiled.relationFilter.Filter, *MaskFilter) == &f.compiled.maskFilter
+
+//@ func NewFilter0() (f)
+//@   props C18
+//@   ensures[pos] f != nil && len(f.include) == 0 && f.optional.data == nil && f.exclude.data == nil
+//@   ensures[inv] len(f.include) >= 0 && (f.optional.data != nil ==> f.optional.data != f.include.data) && (f.exclude.data != nil ==> f.exclude.data != f.include.data) && allocated(f.include.data) && allocated(f.optional.data) && allocated(f.exclude.data)
+//@   ensures[fresh] !f.compiled.compiled && !f.compiled.locked && len(f.optional) == 0 && len(f.exclude) == 0 && !f.exclusive && f.targetType == nil && !f.hasTarget
+
+//@ func Filter0.Query(f, w, target) (r)
+//@   props C18
+//@   requires w != nil && regInv(&w.registry) && lockInv(&w.locks) && !f.compiled.locked && len(f.include) >= 0 && (f.optional.data != nil ==> f.optional.data != f.include.data) && (f.exclude.data != nil ==> f.exclude.data != f.include.data) && allocated(f.include.data) && allocated(f.optional.data) && allocated(f.exclude.data) && (f.compiled.compiled ==> f.compiled.cExclusive == f.exclusive && f.compiled.cNIncl == len(f.include) && f.compiled.cNOpt == len(f.optional) && f.compiled.cNExcl == len(f.exclude) && f.compiled.cTargetType == f.targetType.val && f.compiled.cHasTarget == f.hasTarget && (f.hasTarget ==> f.compiled.cTargetId == f.target.id && f.compiled.cTargetGen == f.target.gen) && len(f.compiled.Ids) == f.compiled.cNIncl && (!f.compiled.locked ==> f.compiled.filter != nil && !is(f.compiled.filter, *CachedFilter)))
+//@   requires forall id uint32 :: {mapHas(w.filterCache.indices, id)} mapHas(w.filterCache.indices, id) ==> 0 <= w.filterCache.indices[id] && w.filterCache.indices[id] < len(w.filterCache.filters)
+//@   flag may_panic
+//@   ensures[cfg] f.compiled.compiled && (f.compiled.compiled ==> f.compiled.cExclusive == f.exclusive && f.compiled.cNIncl == len(f.include) && f.compiled.cNOpt == len(f.optional) && f.compiled.cNExcl == len(f.exclude) && f.compiled.cTargetType == f.targetType.val && f.compiled.cHasTarget == f.hasTarget && (f.hasTarget ==> f.compiled.cTargetId == f.target.id && f.compiled.cTargetGen == f.target.gen) && len(f.compiled.Ids) == f.compiled.cNIncl && (!f.compiled.locked ==> f.compiled.filter != nil && !is(f.compiled.filter, *CachedFilter)))
+//@   ensures[pos] r.relation == f.compiled.Relation && r.hasRelation == f.compiled.HasRelation && r.Query.world == w
+//@   modifies *(&f.compiled), w.registry.Components[ALL], w.registry.Types[ALL], w.registry.Used.bits, w.registry.IsRelation.bits, w.registry.IDs, elems(uint8), all(archetypeData.layouts), all(archetypeAccess.basePointer), w.locks.locks.bits, *(&w.locks.bitPool)
+
+//@ func Filter1[A].Filter(f, w, target) (r)
+//@   props C18
+//@   requires w != nil && regInv(&w.registry) && (f.compiled.compiled ==> f.compiled.cExclusive == f.exclusive && f.compiled.cNIncl == len(f.include) && f.compiled.cNOpt == len(f.optional) && f.compiled.cNExcl == len(f.exclude) && f.compiled.cTargetType == f.targetType.val && f.compiled.cHasTarget == f.hasTarget && (f.hasTarget ==> f.compiled.cTargetId == f.target.id && f.compiled.cTargetGen == f.target.gen) && len(f.compiled.Ids) == f.compiled.cNIncl && (!f.compiled.locked ==> f.compiled.filter != nil && !is(f.compiled.filter, *CachedFilter)))
+//@   flag may_panic
+//@   ensures[cfg] f.compiled.compiled && (f.compiled.compiled ==> f.compiled.cExclusive == f.exclusive && f.compiled.cNIncl == len(f.include) && f.compiled.cNOpt == len(f.optional) && f.compiled.cNExcl == len(f.exclude) && f.compiled.cTargetType == f.targetType.val && f.compiled.cHasTarget == f.hasTarget && (f.hasTarget ==> f.compiled.cTargetId == f.target.id && f.compiled.cTargetGen == f.target.gen) && len(f.compiled.Ids) == f.compiled.cNIncl && (!f.compiled.locked ==> f.compiled.filter != nil && !is(f.compiled.filter, *CachedFilter)))
+//@   modifies *(&f.compiled), w.registry.Components[ALL], w.registry.Types[ALL], w.registry.Used.bits, w.registry.IsRelation.bits, w.registry.IDs, elems(uint8), all(archetypeData.layouts), all(archetypeAccess.basePointer)
+//@   ensures[kind] f.compiled.locked == old(f.compiled.locked) && (!f.compiled.locked ==> r != nil && !is(r, *CachedFilter))
+//@   ensures[ids] !old(f.compiled.compiled) ==> (forall k int :: {f.compiled.Ids[k]} 0 <= k && k < len(f.include) ==> f.compiled.Ids[k].id == w.registry.Components[f.include[k].val])
+//@   ensures[plain] len(target) == 0 ==> r == f.compiled.filter
+//@   ensures[target] len(target) > 0 ==> is(r, *RelationFilter) && as(r, *RelationFilter) == &f.compiled.relationFilter && f.compiled.relationFilter.Target == target[0] && is(f.compiled.relationFilter.Filter, *MaskFilter) && as(f.compiled.relationFilter.Filter, *MaskFilter) == &f.compiled.maskFilter
+
+//@ func NewFilter1() (f)
+//@   props C18
+//@   ensures[pos] f != nil && len(f.include) == 1 && f.optional.data == nil && f.exclude.data == nil && f.include[0] == rtypeOf(typeid(A))
+//@   ensures[inv] len(f.include) >= 1 && (f.optional.data != nil ==> f.optional.data != f.include.data) && (f.exclude.data != nil ==> f.exclude.data != f.include.data) && allocated(f.include.data) && allocated(f.optional.data) && allocated(f.exclude.data) && f.include[0] == rtypeOf(typeid(A))
+//@   ensures[fresh] !f.compiled.compiled && !f.compiled.locked && len(f.optional) == 0 && len(f.exclude) == 0 && !f.exclusive && f.targetType == nil && !f.hasTarget
+
+//@ func Filter1[A].Query(f, w, target) (r)
+//@   props C18
+//@   requires w != nil && regInv(&w.registry) && lockInv(&w.locks) && !f.compiled.locked && len(f.include) >= 1 && (f.optional.data != nil ==> f.optional.data != f.include.data) && (f.exclude.data != nil ==> f.exclude.data != f.include.data) && allocated(f.include.data) && allocated(f.optional.data) && allocated(f.exclude.data) && f.include[0] == rtypeOf(typeid(A)) && (f.compiled.compiled ==> f.compiled.cExclusive == f.exclusive && f.compiled.cNIncl == len(f.include) && f.compiled.cNOpt == len(f.optional) && f.compiled.cNExcl == len(f.exclude) && f.compiled.cTargetType == f.targetType.val && f.compiled.cHasTarget == f.hasTarget && (f.hasTarget ==> f.compiled.cTargetId == f.target.id && f.compiled.cTargetGen == f.target.gen) && len(f.compiled.Ids) == f.compiled.cNIncl && (!f.compiled.locked ==> f.compiled.filter != nil && !is(f.compiled.filter, *CachedFilter)))
+//@   requires forall id uint32 :: {mapHas(w.filterCache.indices, id)} mapHas(w.filterCache.indices, id) ==> 0 <= w.filterCache.indices[id] && w.filterCache.indices[id] < len(w.filterCache.filters)
+//@   flag may_panic
+//@   ensures[cfg] f.compiled.compiled && (f.compiled.compiled ==> f.compiled.cExclusive == f.exclusive && f.compiled.cNIncl == len(f.include) && f.compiled.cNOpt == len(f.optional) && f.compiled.cNExcl == len(f.exclude) && f.compiled.cTargetType == f.targetType.val && f.compiled.cHasTarget == f.hasTarget && (f.hasTarget ==> f.compiled.cTargetId == f.target.id && f.compiled.cTargetGen == f.target.gen) && len(f.compiled.Ids) == f.compiled.cNIncl && (!f.compiled.locked ==> f.compiled.filter != nil && !is(f.compiled.filter, *CachedFilter)))
+//@   ensures[pos] r.id0 == f.compiled.Ids[0] && r.relation == f.compiled.Relation && r.hasRelation == f.compiled.HasRelation && r.Query.world == w
+//@   ensures[typed] !old(f.compiled.compiled) ==> r.id0.id == w.registry.Components[rtypeOf(typeid(A)).val]
+//@   modifies *(&f.compiled), w.registry.Components[ALL], w.registry.Types[ALL], w.registry.Used.bits, w.registry.IsRelation.bits, w.registry.IDs, elems(uint8), all(archetypeData.layouts), all(archetypeAccess.basePointer), w.locks.locks.bits, *(&w.locks.bitPool)
+
+//@ func Query1[A].Get(q) (r0)
+//@   props C18
+//@   requires q.Query.access != nil
+//@   ensures[pos0] ref(r0) == asRef(compAt(q.Query.access, q.Query.entityIndex, q.id0.id))
+
+//@ func NewMap1(w, relation) (m)
+//@   props C18
+//@   requires w != nil && regInv(&w.registry)
+//@   flag may_panic
+//@   ensures[pos] regInv(&w.registry) && m.world == w && len(m.ids) == 1 && m.ids[0].id == m.id0.id && m.id0.id == w.registry.Components[rtypeOf(typeid(A)).val]
+//@   ensures[mask] forall i uint8 :: {bitU(m.mask, i)} bitU(m.mask, i) == (validID(i) && (i == m.id0.id))
+//@   ensures[rel] m.hasRelation == (len(relation) > 0) && (len(relation) > 0 ==> m.relation.id == w.registry.Components[relation[0].val])
+//@   modifies w.registry.Components[ALL], w.registry.Types[ALL], w.registry.Used.bits, w.registry.IsRelation.bits, w.registry.IDs, elems(uint8), all(archetypeData.layouts), all(archetypeAccess.basePointer)
+
+//@ func Map1[A].GetUnchecked(m, entity) (r0)
+//@   props C18
+//@   flag may_panic nosafe
+//@   ensures[pos0] ref(r0) == asRef(wgetU(m.world, entity, m.id0.id))
+
+//@ func Map1[A].Get(m, entity) (r0)
+//@   props C18
+//@   flag may_panic nosafe
+//@   ensures[pos0] ref(r0) == asRef(wget(m.world, entity, m.id0.id))
+
+//@ func Filter2[A, B].Filter(f, w, target) (r)
+//@   props C18
+//@   requires w != nil && regInv(&w.registry) && (f.compiled.compiled ==> f.compiled.cExclusive == f.exclusive && f.compiled.cNIncl == len(f.include) && f.compiled.cNOpt == len(f.optional) && f.compiled.cNExcl == len(f.exclude) && f.compiled.cTargetType == f.targetType.val && f.compiled.cHasTarget == f.hasTarget && (f.hasTarget ==> f.compiled.cTargetId == f.target.id && f.compiled.cTargetGen == f.target.gen) && len(f.compiled.Ids) == f.compiled.cNIncl && (!f.compiled.locked ==> f.compiled.filter != nil && !is(f.compiled.filter, *CachedFilter)))
+//@   flag may_panic
+//@   ensures[cfg] f.compiled.compiled && (f.compiled.compiled ==> f.compiled.cExclusive == f.exclusive && f.compiled.cNIncl == len(f.include) && f.compiled.cNOpt == len(f.optional) && f.compiled.cNExcl == len(f.exclude) && f.compiled.cTargetType == f.targetType.val && f.compiled.cHasTarget == f.hasTarget && (f.hasTarget ==> f.compiled.cTargetId == f.target.id && f.compiled.cTargetGen == f.target.gen) && len(f.compiled.Ids) == f.compiled.cNIncl && (!f.compiled.locked ==> f.compiled.filter != nil && !is(f.compiled.filter, *CachedFilter)))
+//@   modifies *(&f.compiled), w.registry.Components[ALL], w.registry.Types[ALL], w.registry.Used.bits, w.registry.IsRelation.bits, w.registry.IDs, elems(uint8), all(archetypeData.layouts), all(archetypeAccess.basePointer)
+//@   ensures[kind] f.compiled.locked == old(f.compiled.locked) && (!f.compiled.locked ==> r != nil && !is(r, *CachedFilter))
+//@   ensures[ids] !old(f.compiled.compiled) ==> (forall k int :: {f.compiled.Ids[k]} 0 <= k && k < len(f.include) ==> f.compiled.Ids[k].id == w.registry.Components[f.include[k].val])
+//@   ensures[plain] len(target) == 0 ==> r == f.compiled.filter
+//@   ensures[target] len(target) > 0 ==> is(r, *RelationFilter) && as(r, *RelationFilter) == &f.compiled.relationFilter && f.compiled.relationFilter.Target == target[0] && is(f.compiled.relationFilter.Filter, *MaskFilter) && as(f.compiled.relationFilter.Filter, *MaskFilter) == &f.compiled.maskFilter
+
+//@ func NewFilter2() (f)
+//@   props C18
+//@   ensures[pos] f != nil && len(f.include) == 2 && f.optional.data == nil && f.exclude.data == nil && f.include[0] == rtypeOf(typeid(A)) && f.include[1] == rtypeOf(typeid(B))
+//@   ensures[inv] len(f.include) >= 2 && (f.optional.data != nil ==> f.optional.data != f.include.data) && (f.exclude.data != nil ==> f.exclude.data != f.include.data) && allocated(f.include.data) && allocated(f.optional.data) && allocated(f.exclude.data) && f.include[0] == rtypeOf(typeid(A)) && f.include[1] == rtypeOf(typeid(B))
+//@   ensures[fresh] !f.compiled.compiled && !f.compiled.locked && len(f.optional) == 0 && len(f.exclude) == 0 && !f.exclusive && f.targetType == nil && !f.hasTarget
+
+//@ func Filter2[A, B].Query(f, w, target) (r)
+//@   props C18
+//@   requires w != nil && regInv(&w.registry) && lockInv(&w.locks) && !f.compiled.locked && len(f.include) >= 2 && (f.optional.data != nil ==> f.optional.data != f.include.data) && (f.exclude.data != nil ==> f.exclude.data != f.include.data) && allocated(f.include.data) && allocated(f.optional.data) && allocated(f.exclude.data) && f.include[0] == rtypeOf(typeid(A)) && f.include[1] == rtypeOf(typeid(B)) && (f.compiled.compiled ==> f.compiled.cExclusive == f.exclusive && f.compiled.cNIncl == len(f.include) && f.compiled.cNOpt == len(f.optional) && f.compiled.cNExcl == len(f.exclude) && f.compiled.cTargetType == f.targetType.val && f.compiled.cHasTarget == f.hasTarget && (f.hasTarget ==> f.compiled.cTargetId == f.target.id && f.compiled.cTargetGen == f.target.gen) && len(f.compiled.Ids) == f.compiled.cNIncl && (!f.compiled.locked ==> f.compiled.filter != nil && !is(f.compiled.filter, *CachedFilter)))
+//@   requires forall id uint32 :: {mapHas(w.filterCache.indices, id)} mapHas(w.filterCache.indices, id) ==> 0 <= w.filterCache.indices[id] && w.filterCache.indices[id] < len(w.filterCache.filters)
+//@   flag may_panic
+//@   ensures[cfg] f.compiled.compiled && (f.compiled.compiled ==> f.compiled.cExclusive == f.exclusive && f.compiled.cNIncl == len(f.include) && f.compiled.cNOpt == len(f.optional) && f.compiled.cNExcl == len(f.exclude) && f.compiled.cTargetType == f.targetType.val && f.compiled.cHasTarget == f.hasTarget && (f.hasTarget ==> f.compiled.cTargetId == f.target.id && f.compiled.cTargetGen == f.target.gen) && len(f.compiled.Ids) == f.compiled.cNIncl && (!f.compiled.locked ==> f.compiled.filter != nil && !is(f.compiled.filter, *CachedFilter)))
+//@   ensures[pos] r.id0 == f.compiled.Ids[0] && r.id1 == f.compiled.Ids[1] && r.relation == f.compiled.Relation && r.hasRelation == f.compiled.HasRelation && r.Query.world == w
+//@   ensures[typed] !old(f.compiled.compiled) ==> r.id0.id == w.registry.Components[rtypeOf(typeid(A)).val] && r.id1.id == w.registry.Components[rtypeOf(typeid(B)).val]
+//@   modifies *(&f.compiled), w.registry.Components[ALL], w.registry.Types[ALL], w.registry.Used.bits, w.registry.IsRelation.bits, w.registry.IDs, elems(uint8), all(archetypeData.layouts), all(archetypeAccess.basePointer), w.locks.locks.bits, *(&w.locks.bitPool)
+
+//@ func Query2[A, B].Get(q) (r0, r1)
+//@   props C18
+//@   requires q.Query.access != nil
+//@   ensures[pos0] ref(r0) == asRef(compAt(q.Query.access, q.Query.entityIndex, q.id0.id))
+//@   ensures[pos1] ref(r1) == asRef(compAt(q.Query.access, q.Query.entityIndex, q.id1.id))
+
+//@ func NewMap2(w, relation) (m)
+//@   props C18
+//@   requires w != nil && regInv(&w.registry)
+//@   flag may_panic
+//@   ensures[pos] regInv(&w.registry) && m.world == w && len(m.ids) == 2 && m.ids[0].id == m.id0.id && m.id0.id == w.registry.Components[rtypeOf(typeid(A)).val] && m.ids[1].id == m.id1.id && m.id1.id == w.registry.Components[rtypeOf(typeid(B)).val]
+//@   ensures[mask] forall i uint8 :: {bitU(m.mask, i)} bitU(m.mask, i) == (validID(i) && (i == m.id0.id || i == m.id1.id))
+//@   ensures[rel] m.hasRelation == (len(relation) > 0) && (len(relation) > 0 ==> m.relation.id == w.registry.Components[relation[0].val])
+//@   modifies w.registry.Components[ALL], w.registry.Types[ALL], w.registry.Used.bits, w.registry.IsRelation.bits, w.registry.IDs, elems(uint8), all(archetypeData.layouts), all(archetypeAccess.basePointer)
+
+//@ func Map2[A, B].GetUnchecked(m, entity) (r0, r1)
+//@   props C18
+//@   flag may_panic nosafe
+//@   ensures[pos0] ref(r0) == asRef(wgetU(m.world, entity, m.id0.id))
+//@   ensures[pos1] ref(r1) == asRef(wgetU(m.world, entity, m.id1.id))
+
+//@ func Map2[A, B].Get(m, entity) (r0, r1)
+//@   props C18
+//@   flag may_panic nosafe
+//@   ensures[pos0] ref(r0) == asRef(wget(m.world, entity, m.id0.id))
+//@   ensures[pos1] ref(r1) == asRef(wgetU(m.world, entity, m.id1.id))
+
+//@ func Filter3[A, B, C].Filter(f, w, target) (r)
+//@   props C18
+//@   requires w != nil && regInv(&w.registry) && (f.compiled.compiled ==> f.compiled.cExclusive == f.exclusive && f.compiled.cNIncl == len(f.include) && f.compiled.cNOpt == len(f.optional) && f.compiled.cNExcl == len(f.exclude) && f.compiled.cTargetType == f.targetType.val && f.compiled.cHasTarget == f.hasTarget && (f.hasTarget ==> f.compiled.cTargetId == f.target.id && f.compiled.cTargetGen == f.target.gen) && len(f.compiled.Ids) == f.compiled.cNIncl && (!f.compiled.locked ==> f.compiled.filter != nil && !is(f.compiled.filter, *CachedFilter)))
+//@   flag may_panic
+//@   ensures[cfg] f.compiled.compiled && (f.compiled.compiled ==> f.compiled.cExclusive == f.exclusive && f.compiled.cNIncl == len(f.include) && f.compiled.cNOpt == len(f.optional) && f.compiled.cNExcl == len(f.exclude) && f.compiled.cTargetType == f.targetType.val && f.compiled.cHasTarget == f.hasTarget && (f.hasTarget ==> f.compiled.cTargetId == f.target.id && f.compiled.cTargetGen == f.target.gen) && len(f.compiled.Ids) == f.compiled.cNIncl && (!f.compiled.locked ==> f.compiled.filter != nil && !is(f.compiled.filter, *CachedFilter)))
+//@   modifies *(&f.compiled), w.registry.Components[ALL], w.registry.Types[ALL], w.registry.Used.bits, w.registry.IsRelation.bits, w.registry.IDs, elems(uint8), all(archetypeData.layouts), all(archetypeAccess.basePointer)
+//@   ensures[kind] f.compiled.locked == old(f.compiled.locked) && (!f.compiled.locked ==> r != nil && !is(r, *CachedFilter))
+//@   ensures[ids] !old(f.compiled.compiled) ==> (forall k int :: {f.compiled.Ids[k]} 0 <= k && k < len(f.include) ==> f.compiled.Ids[k].id == w.registry.Components[f.include[k].val])
+//@   ensures[plain] len(target) == 0 ==> r == f.compiled.filter
+//@   ensures[target] len(target) > 0 ==> is(r, *RelationFilter) && as(r, *RelationFilter) == &f.compiled.relationFilter && f.compiled.relationFilter.Target == target[0] && is(f.compiled.relationFilter.Filter, *MaskFilter) && as(f.compiled.relationFilter.Filter, *MaskFilter) == &f.compiled.maskFilter
+
+//@ func NewFilter3() (f)
+//@   props C18
+//@   ensures[pos] f != nil && len(f.include) == 3 && f.optional.data == nil && f.exclude.data == nil && f.include[0] == rtypeOf(typeid(A)) && f.include[1] == rtypeOf(typeid(B)) && f.include[2] == rtypeOf(typeid(C))
+//@   ensures[inv] len(f.include) >= 3 && (f.optional.data != nil ==> f.optional.data != f.include.data) && (f.exclude.data != nil ==> f.exclude.data != f.include.data) && allocated(f.include.data) && allocated(f.optional.data) && allocated(f.exclude.data) && f.include[0] == rtypeOf(typeid(A)) && f.include[1] == rtypeOf(typeid(B)) && f.include[2] == rtypeOf(typeid(C))
+//@   ensures[fresh] !f.compiled.compiled && !f.compiled.locked && len(f.optional) == 0 && len(f.exclude) == 0 && !f.exclusive && f.targetType == nil && !f.hasTarget
+
+//@ func Filter3[A, B, C].Query(f, w, target) (r)
+//@   props C18
+//@   requires w != nil && regInv(&w.registry) && lockInv(&w.locks) && !f.compiled.locked && len(f.include) >= 3 && (f.optional.data != nil ==> f.optional.data != f.include.data) && (f.exclude.data != nil ==> f.exclude.data != f.include.data) && allocated(f.include.data) && allocated(f.optional.data) && allocated(f.exclude.data) && f.include[0] == rtypeOf(typeid(A)) && f.include[1] == rtypeOf(typeid(B)) && f.include[2] == rtypeOf(typeid(C)) && (f.compiled.compiled ==> f.compiled.cExclusive == f.exclusive && f.compiled.cNIncl == len(f.include) && f.compiled.cNOpt == len(f.optional) && f.compiled.cNExcl == len(f.exclude) && f.compiled.cTargetType == f.targetType.val && f.compiled.cHasTarget == f.hasTarget && (f.hasTarget ==> f.compiled.cTargetId == f.target.id && f.compiled.cTargetGen == f.target.gen) && len(f.compiled.Ids) == f.compiled.cNIncl && (!f.compiled.locked ==> f.compiled.filter != nil && !is(f.compiled.filter, *CachedFilter)))
+//@   requires forall id uint32 :: {mapHas(w.filterCache.indices, id)} mapHas(w.filterCache.indices, id) ==> 0 <= w.filterCache.indices[id] && w.filterCache.indices[id] < len(w.filterCache.filters)
+//@   flag may_panic
+//@   ensures[cfg] f.compiled.compiled && (f.compiled.compiled ==> f.compiled.cExclusive == f.exclusive && f.compiled.cNIncl == len(f.include) && f.compiled.cNOpt == len(f.optional) && f.compiled.cNExcl == len(f.exclude) && f.compiled.cTargetType == f.targetType.val && f.compiled.cHasTarget == f.hasTarget && (f.hasTarget ==> f.compiled.cTargetId == f.target.id && f.compiled.cTargetGen == f.target.gen) && len(f.compiled.Ids) == f.compiled.cNIncl && (!f.compiled.locked ==> f.compiled.filter != nil && !is(f.compiled.filter, *CachedFilter)))
+//@   ensures[pos] r.id0 == f.compiled.Ids[0] && r.id1 == f.compiled.Ids[1] && r.id2 == f.compiled.Ids[2] && r.relation == f.compiled.Relation && r.hasRelation == f.compiled.HasRelation && r.Query.world == w
+//@   ensures[typed] !old(f.compiled.compiled) ==> r.id0.id == w.registry.Components[rtypeOf(typeid(A)).val] && r.id1.id == w.registry.Components[rtypeOf(typeid(B)).val] && r.id2.id == w.registry.Components[rtypeOf(typeid(C)).val]
+//@   modifies *(&f.compiled), w.registry.Components[ALL], w.registry.Types[ALL], w.registry.Used.bits, w.registry.IsRelation.bits, w.registry.IDs, elems(uint8), all(archetypeData.layouts), all(archetypeAccess.basePointer), w.locks.locks.bits, *(&w.locks.bitPool)
+
+//@ func Query3[A, B, C].Get(q) (r0, r1, r2)
+//@   props C18
+//@   requires q.Query.access != nil
+//@   ensures[pos0] ref(r0) == asRef(compAt(q.Query.access, q.Query.entityIndex, q.id0.id))
+//@   ensures[pos1] ref(r1) == asRef(compAt(q.Query.access, q.Query.entityIndex, q.id1.id))
+//@   ensures[pos2] ref(r2) == asRef(compAt(q.Query.access, q.Query.entityIndex, q.id2.id))
+
+//@ func NewMap3(w, relation) (m)
+//@   props C18
+//@   requires w != nil && regInv(&w.registry)
+//@   flag may_panic
+//@   ensures[pos] regInv(&w.registry) && m.world == w && len(m.ids) == 3 && m.ids[0].id == m.id0.id && m.id0.id == w.registry.Components[rtypeOf(typeid(A)).val] && m.ids[1].id == m.id1.id && m.id1.id == w.registry.Components[rtypeOf(typeid(B)).val] && m.ids[2].id == m.id2.id && m.id2.id == w.registry.Components[rtypeOf(typeid(C)).val]
+//@   ensures[mask] forall i uint8 :: {bitU(m.mask, i)} bitU(m.mask, i) == (validID(i) && (i == m.id0.id || i == m.id1.id || i == m.id2.id))
+//@   ensures[rel] m.hasRelation == (len(relation) > 0) && (len(relation) > 0 ==> m.relation.id == w.registry.Components[relation[0].val])
+//@   modifies w.registry.Components[ALL], w.registry.Types[ALL], w.registry.Used.bits, w.registry.IsRelation.bits, w.registry.IDs, elems(uint8), all(archetypeData.layouts), all(archetypeAccess.basePointer)
+
+//@ func Map3[A, B, C].GetUnchecked(m, entity) (r0, r1, r2)
+//@   props C18
+//@   flag may_panic nosafe
+//@   ensures[pos0] ref(r0) == asRef(wgetU(m.world, entity, m.id0.id))
+//@   ensures[pos1] ref(r1) == asRef(wgetU(m.world, entity, m.id1.id))
+//@   ensures[pos2] ref(r2) == asRef(wgetU(m.world, entity, m.id2.id))
+
+//@ func Map3[A, B, C].Get(m, entity) (r0, r1, r2)
+//@   props C18
+//@   flag may_panic nosafe
+//@   ensures[pos0] ref(r0) == asRef(wget(m.world, entity, m.id0.id))
+//@   ensures[pos1] ref(r1) == asRef(wgetU(m.world, entity, m.id1.id))
+//@   ensures[pos2] ref(r2) == asRef(wgetU(m.world, entity, m.id2.id))
+
+//@ func Filter4[A, B, C, D].Filter(f, w, target) (r)
+//@   props C18
+//@   requires w != nil && regInv(&w.registry) && (f.compiled.compiled ==> f.compiled.cExclusive == f.exclusive && f.compiled.cNIncl == len(f.include) && f.compiled.cNOpt == len(f.optional) && f.compiled.cNExcl == len(f.exclude) && f.compiled.cTargetType == f.targetType.val && f.compiled.cHasTarget == f.hasTarget && (f.hasTarget ==> f.compiled.cTargetId == f.target.id && f.compiled.cTargetGen == f.target.gen) && len(f.compiled.Ids) == f.compiled.cNIncl && (!f.compiled.locked ==> f.compiled.filter != nil && !is(f.compiled.filter, *CachedFilter)))
+//@   flag may_panic
+//@   ensures[cfg] f.compiled.compiled && (f.compiled.compiled ==> f.compiled.cExclusive == f.exclusive && f.compiled.cNIncl == len(f.include) && f.compiled.cNOpt == len(f.optional) && f.compiled.cNExcl == len(f.exclude) && f.compiled.cTargetType == f.targetType.val && f.compiled.cHasTarget == f.hasTarget && (f.hasTarget ==> f.compiled.cTargetId == f.target.id && f.compiled.cTargetGen == f.target.gen) && len(f.compiled.Ids) == f.compiled.cNIncl && (!f.compiled.locked ==> f.compiled.filter != nil && !is(f.compiled.filter, *CachedFilter)))
+//@   modifies *(&f.compiled), w.registry.Components[ALL], w.registry.Types[ALL], w.registry.Used.bits, w.registry.IsRelation.bits, w.registry.IDs, elems(uint8), all(archetypeData.layouts), all(archetypeAccess.basePointer)
+//@   ensures[kind] f.compiled.locked == old(f.compiled.locked) && (!f.compiled.locked ==> r != nil && !is(r, *CachedFilter))
+//@   ensures[ids] !old(f.compiled.compiled) ==> (forall k int :: {f.compiled.Ids[k]} 0 <= k && k < len(f.include) ==> f.compiled.Ids[k].id == w.registry.Components[f.include[k].val])
+//@   ensures[plain] len(target) == 0 ==> r == f.compiled.filter
+//@   ensures[target] len(target) > 0 ==> is(r, *RelationFilter) && as(r, *RelationFilter) == &f.compiled.relationFilter && f.compiled.relationFilter.Target == target[0] && is(f.compiled.relationFilter.Filter, *MaskFilter) && as(f.compiled.relationFilter.Filter, *MaskFilter) == &f.compiled.maskFilter
+
+//@ func NewFilter4() (f)
+//@   props C18
+//@   ensures[pos] f != nil && len(f.include) == 4 && f.optional.data == nil && f.exclude.data == nil && f.include[0] == rtypeOf(typeid(A)) && f.include[1] == rtypeOf(typeid(B)) && f.include[2] == rtypeOf(typeid(C)) && f.include[3] == rtypeOf(typeid(D))
+//@   ensures[inv] len(f.include) >= 4 && (f.optional.data != nil ==> f.optional.data != f.include.data) && (f.exclude.data != nil ==> f.exclude.data != f.include.data) && allocated(f.include.data) && allocated(f.optional.data) && allocated(f.exclude.data) && f.include[0] == rtypeOf(typeid(A)) && f.include[1] == rtypeOf(typeid(B)) && f.include[2] == rtypeOf(typeid(C)) && f.include[3] == rtypeOf(typeid(D))
+//@   ensures[fresh] !f.compiled.compiled && !f.compiled.locked && len(f.optional) == 0 && len(f.exclude) == 0 && !f.exclusive && f.targetType == nil && !f.hasTarget
+
+//@ func Filter4[A, B, C, D].Query(f, w, target) (r)
+//@   props C18
+//@   requires w != nil && regInv(&w.registry) && lockInv(&w.locks) && !f.compiled.locked && len(f.include) >= 4 && (f.optional.data != nil ==> f.optional.data != f.include.data) && (f.exclude.data != nil ==> f.exclude.data != f.include.data) && allocated(f.include.data) && allocated(f.optional.data) && allocated(f.exclude.data) && f.include[0] == rtypeOf(typeid(A)) && f.include[1] == rtypeOf(typeid(B)) && f.include[2] == rtypeOf(typeid(C)) && f.include[3] == rtypeOf(typeid(D)) && (f.compiled.compiled ==> f.compiled.cExclusive == f.exclusive && f.compiled.cNIncl == len(f.include) && f.compiled.cNOpt == len(f.optional) && f.compiled.cNExcl == len(f.exclude) && f.compiled.cTargetType == f.targetType.val && f.compiled.cHasTarget == f.hasTarget && (f.hasTarget ==> f.compiled.cTargetId == f.target.id && f.compiled.cTargetGen == f.target.gen) && len(f.compiled.Ids) == f.compiled.cNIncl && (!f.compiled.locked ==> f.compiled.filter != nil && !is(f.compiled.filter, *CachedFilter)))
+//@   requires forall id uint32 :: {mapHas(w.filterCache.indices, id)} mapHas(w.filterCache.indices, id) ==> 0 <= w.filterCache.indices[id] && w.filterCache.indices[id] < len(w.filterCache.filters)
+//@   flag may_panic
+//@   ensures[cfg] f.compiled.compiled && (f.compiled.compiled ==> f.compiled.cExclusive == f.exclusive && f.compiled.cNIncl == len(f.include) && f.compiled.cNOpt == len(f.optional) && f.compiled.cNExcl == len(f.exclude) && f.compiled.cTargetType == f.targetType.val && f.compiled.cHasTarget == f.hasTarget && (f.hasTarget ==> f.compiled.cTargetId == f.target.id && f.compiled.cTargetGen == f.target.gen) && len(f.compiled.Ids) == f.compiled.cNIncl && (!f.compiled.locked ==> f.compiled.filter != nil && !is(f.compiled.filter, *CachedFilter)))
+//@   ensures[pos] r.id0 == f.compiled.Ids[0] && r.id1 == f.compiled.Ids[1] && r.id2 == f.compiled.Ids[2] && r.id3 == f.compiled.Ids[3] && r.relation == f.compiled.Relation && r.hasRelation == f.compiled.HasRelation && r.Query.world == w
+//@   ensures[typed] !old(f.compiled.compiled) ==> r.id0.id == w.registry.Components[rtypeOf(typeid(A)).val] && r.id1.id == w.registry.Components[rtypeOf(typeid(B)).val] && r.id2.id == w.registry.Components[rtypeOf(typeid(C)).val] && r.id3.id == w.registry.Components[rtypeOf(typeid(D)).val]
+//@   modifies *(&f.compiled), w.registry.Components[ALL], w.registry.Types[ALL], w.registry.Used.bits, w.registry.IsRelation.bits, w.registry.IDs, elems(uint8), all(archetypeData.layouts), all(archetypeAccess.basePointer), w.locks.locks.bits, *(&w.locks.bitPool)
+
+//@ func Query4[A, B, C, D].Get(q) (r0, r1, r2, r3)
+//@   props C18
+//@   requires q.Query.access != nil
+//@   ensures[pos0] ref(r0) == asRef(compAt(q.Query.access, q.Query.entityIndex, q.id0.id))
+//@   ensures[pos1] ref(r1) == asRef(compAt(q.Query.access, q.Query.entityIndex, q.id1.id))
+//@   ensures[pos2] ref(r2) == asRef(compAt(q.Query.access, q.Query.entityIndex, q.id2.id))
+//@   ensures[pos3] ref(r3) == asRef(compAt(q.Query.access, q.Query.entityIndex, q.id3.id))
+
+//@ func NewMap4(w, relation) (m)
+//@   props C18
+//@   requires w != nil && regInv(&w.registry)
+//@   flag may_panic
+//@   ensures[pos] regInv(&w.registry) && m.world == w && len(m.ids) == 4 && m.ids[0].id == m.id0.id && m.id0.id == w.registry.Components[rtypeOf(typeid(A)).val] && m.ids[1].id == m.id1.id && m.id1.id == w.registry.Components[rtypeOf(typeid(B)).val] && m.ids[2].id == m.id2.id && m.id2.id == w.registry.Components[rtypeOf(typeid(C)).val] && m.ids[3].id == m.id3.id && m.id3.id == w.registry.Components[rtypeOf(typeid(D)).val]
+//@   ensures[mask] forall i uint8 :: {bitU(m.mask, i)} bitU(m.mask, i) == (validID(i) && (i == m.id0.id || i == m.id1.id || i == m.id2.id || i == m.id3.id))
+//@   ensures[rel] m.hasRelation == (len(relation) > 0) && (len(relation) > 0 ==> m.relation.id == w.registry.Components[relation[0].val])
+//@   modifies w.registry.Components[ALL], w.registry.Types[ALL], w.registry.Used.bits, w.registry.IsRelation.bits, w.registry.IDs, elems(uint8), all(archetypeData.layouts), all(archetypeAccess.basePointer)
+
+//@ func Map4[A, B, C, D].GetUnchecked(m, entity) (r0, r1, r2, r3)
+//@   props C18
+//@   flag may_panic nosafe
+//@   ensures[pos0] ref(r0) == asRef(wgetU(m.world, entity, m.id0.id))
+//@   ensures[pos1] ref(r1) == asRef(wgetU(m.world, entity, m.id1.id))
+//@   ensures[pos2] ref(r2) == asRef(wgetU(m.world, entity, m.id2.id))
+//@   ensures[pos3] ref(r3) == asRef(wgetU(m.world, entity, m.id3.id))
+
+//@ func Map4[A, B, C, D].Get(m, entity) (r0, r1, r2, r3)
+//@   props C18
+//@   flag may_panic nosafe
+//@   ensures[pos0] ref(r0) == asRef(wget(m.world, entity, m.id0.id))
+//@   ensures[pos1] ref(r1) == asRef(wgetU(m.world, entity, m.id1.id))
+//@   ensures[pos2] ref(r2) == asRef(wgetU(m.world, entity, m.id2.id))
+//@   ensures[pos3] ref(r3) == asRef(wgetU(m.world, entity, m.id3.id))
+
+//@ func Filter5[A, B, C, D, E].Filter(f, w, target) (r)
+//@   props C18
+//@   requires w != nil && regInv(&w.registry) && (f.compiled.compiled ==> f.compiled.cExclusive == f.exclusive && f.compiled.cNIncl == len(f.include) && f.compiled.cNOpt == len(f.optional) && f.compiled.cNExcl == len(f.exclude) && f.compiled.cTargetType == f.targetType.val && f.compiled.cHasTarget == f.hasTarget && (f.hasTarget ==> f.compiled.cTargetId == f.target.id && f.compiled.cTargetGen == f.target.gen) && len(f.compiled.Ids) == f.compiled.cNIncl && (!f.compiled.locked ==> f.compiled.filter != nil && !is(f.compiled.filter, *CachedFilter)))
+//@   flag may_panic
+//@   ensures[cfg] f.compiled.compiled && (f.compiled.compiled ==> f.compiled.cExclusive == f.exclusive && f.compiled.cNIncl == len(f.include) && f.compiled.cNOpt == len(f.optional) && f.compiled.cNExcl == len(f.exclude) && f.compiled.cTargetType == f.targetType.val && f.compiled.cHasTarget == f.hasTarget && (f.hasTarget ==> f.compiled.cTargetId == f.target.id && f.compiled.cTargetGen == f.target.gen) && len(f.compiled.Ids) == f.compiled.cNIncl && (!f.compiled.locked ==> f.compiled.filter != nil && !is(f.compiled.filter, *CachedFilter)))
+//@   modifies *(&f.compiled), w.registry.Components[ALL], w.registry.Types[ALL], w.registry.Used.bits, w.registry.IsRelation.bits, w.registry.IDs, elems(uint8), all(archetypeData.layouts), all(archetypeAccess.basePointer)
+//@   ensures[kind] f.compiled.locked == old(f.compiled.locked) && (!f.compiled.locked ==> r != nil && !is(r, *CachedFilter))
+//@   ensures[ids] !old(f.compiled.compiled) ==> (forall k int :: {f.compiled.Ids[k]} 0 <= k && k < len(f.include) ==> f.compiled.Ids[k].id == w.registry.Components[f.include[k].val])
+//@   ensures[plain] len(target) == 0 ==> r == f.compiled.filter
+//@   ensures[target] len(target) > 0 ==> is(r, *RelationFilter) && as(r, *RelationFilter) == &f.compiled.relationFilter && f.compiled.relationFilter.Target == target[0] && is(f.compiled.relationFilter.Filter, *MaskFilter) && as(f.compiled.relationFilter.Filter, *MaskFilter) == &f.compiled.maskFilter
+
+//@ func NewFilter5() (f)
+//@   props C18
+//@   ensures[pos] f != nil && len(f.include) == 5 && f.optional.data == nil && f.exclude.data == nil && f.include[0] == rtypeOf(typeid(A)) && f.include[1] == rtypeOf(typeid(B)) && f.include[2] == rtypeOf(typeid(C)) && f.include[3] == rtypeOf(typeid(D)) && f.include[4] == rtypeOf(typeid(E))
+//@   ensures[inv] len(f.include) >= 5 && (f.optional.data != nil ==> f.optional.data != f.include.data) && (f.exclude.data != nil ==> f.exclude.data != f.include.data) && allocated(f.include.data) && allocated(f.optional.data) && allocated(f.exclude.data) && f.include[0] == rtypeOf(typeid(A)) && f.include[1] == rtypeOf(typeid(B)) && f.include[2] == rtypeOf(typeid(C)) && f.include[3] == rtypeOf(typeid(D)) && f.include[4] == rtypeOf(typeid(E))
+//@   ensures[fresh] !f.compiled.compiled && !f.compiled.locked && len(f.optional) == 0 && len(f.exclude) == 0 && !f.exclusive && f.targetType == nil && !f.hasTarget
+
+//@ func Filter5[A, B, C, D, E].Query(f, w, target) (r)
+//@   props C18
+//@   requires w != nil && regInv(&w.registry) && lockInv(&w.locks) && !f.compiled.locked && len(f.include) >= 5 && (f.optional.data != nil ==> f.optional.data != f.include.data) && (f.exclude.data != nil ==> f.exclude.data != f.include.data) && allocated(f.include.data) && allocated(f.optional.data) && allocated(f.exclude.data) && f.include[0] == rtypeOf(typeid(A)) && f.include[1] == rtypeOf(typeid(B)) && f.include[2] == rtypeOf(typeid(C)) && f.include[3] == rtypeOf(typeid(D)) && f.include[4] == rtypeOf(typeid(E)) && (f.compiled.compiled ==> f.compiled.cExclusive == f.exclusive && f.compiled.cNIncl == len(f.include) && f.compiled.cNOpt == len(f.optional) && f.compiled.cNExcl == len(f.exclude) && f.compiled.cTargetType == f.targetType.val && f.compiled.cHasTarget == f.hasTarget && (f.hasTarget ==> f.compiled.cTargetId == f.target.id && f.compiled.cTargetGen == f.target.gen) && len(f.compiled.Ids) == f.compiled.cNIncl && (!f.compiled.locked ==> f.compiled.filter != nil && !is(f.compiled.filter, *CachedFilter)))
+//@   requires forall id uint32 :: {mapHas(w.filterCache.indices, id)} mapHas(w.filterCache.indices, id) ==> 0 <= w.filterCache.indices[id] && w.filterCache.indices[id] < len(w.filterCache.filters)
+//@   flag may_panic
+//@   ensures[cfg] f.compiled.compiled && (f.compiled.compiled ==> f.compiled.cExclusive == f.exclusive && f.compiled.cNIncl == len(f.include) && f.compiled.cNOpt == len(f.optional) && f.compiled.cNExcl == len(f.exclude) && f.compiled.cTargetType == f.targetType.val && f.compiled.cHasTarget == f.hasTarget && (f.hasTarget ==> f.compiled.cTargetId == f.target.id && f.compiled.cTargetGen == f.target.gen) && len(f.compiled.Ids) == f.compiled.cNIncl && (!f.compiled.locked ==> f.compiled.filter != nil && !is(f.compiled.filter, *CachedFilter)))
+//@   ensures[pos] r.id0 == f.compiled.Ids[0] && r.id1 == f.compiled.Ids[1] && r.id2 == f.compiled.Ids[2] && r.id3 == f.compiled.Ids[3] && r.id4 == f.compiled.Ids[4] && r.relation == f.compiled.Relation && r.hasRelation == f.compiled.HasRelation && r.Query.world == w
+//@   ensures[typed] !old(f.compiled.compiled) ==> r.id0.id == w.registry.Components[rtypeOf(typeid(A)).val] && r.id1.id == w.registry.Components[rtypeOf(typeid(B)).val] && r.id2.id == w.registry.Components[rtypeOf(typeid(C)).val] && r.id3.id == w.registry.Components[rtypeOf(typeid(D)).val] && r.id4.id == w.registry.Components[rtypeOf(typeid(E)).val]
+//@   modifies *(&f.compiled), w.registry.Components[ALL], w.registry.Types[ALL], w.registry.Used.bits, w.registry.IsRelation.bits, w.registry.IDs, elems(uint8), all(archetypeData.layouts), all(archetypeAccess.basePointer), w.locks.locks.bits, *(&w.locks.bitPool)
+
+//@ func Query5[A, B, C, D, E].Get(q) (r0, r1, r2, r3, r4)
+//@   props C18
+//@   requires q.Query.access != nil
+//@   ensures[pos0] ref(r0) == asRef(compAt(q.Query.access, q.Query.entityIndex, q.id0.id))
+//@   ensures[pos1] ref(r1) == asRef(compAt(q.Query.access, q.Query.entityIndex, q.id1.id))
+//@   ensures[pos2] ref(r2) == asRef(compAt(q.Query.access, q.Query.entityIndex, q.id2.id))
+//@   ensures[pos3] ref(r3) == asRef(compAt(q.Query.access, q.Query.entityIndex, q.id3.id))
+//@   ensures[pos4] ref(r4) == asRef(compAt(q.Query.access, q.Query.entityIndex, q.id4.id))
+
+//@ func NewMap5(w, relation) (m)
+//@   props C18
+//@   requires w != nil && regInv(&w.registry)
+//@   flag may_panic
+//@   ensures[pos] regInv(&w.registry) && m.world == w && len(m.ids) == 5 && m.ids[0].id == m.id0.id && m.id0.id == w.registry.Components[rtypeOf(typeid(A)).val] && m.ids[1].id == m.id1.id && m.id1.id == w.registry.Components[rtypeOf(typeid(B)).val] && m.ids[2].id == m.id2.id && m.id2.id == w.registry.Components[rtypeOf(typeid(C)).val] && m.ids[3].id == m.id3.id && m.id3.id == w.registry.Components[rtypeOf(typeid(D)).val] && m.ids[4].id == m.id4.id && m.id4.id == w.registry.Components[rtypeOf(typeid(E)).val]
+//@   ensures[mask] forall i uint8 :: {bitU(m.mask, i)} bitU(m.mask, i) == (validID(i) && (i == m.id0.id || i == m.id1.id || i == m.id2.id || i == m.id3.id || i == m.id4.id))
+//@   ensures[rel] m.hasRelation == (len(relation) > 0) && (len(relation) > 0 ==> m.relation.id == w.registry.Components[relation[0].val])
+//@   modifies w.registry.Components[ALL], w.registry.Types[ALL], w.registry.Used.bits, w.registry.IsRelation.bits, w.registry.IDs, elems(uint8), all(archetypeData.layouts), all(archetypeAccess.basePointer)
+
+//@ func Map5[A, B, C, D, E].GetUnchecked(m, entity) (r0, r1, r2, r3, r4)
+//@   props C18
+//@   flag may_panic nosafe
+//@   ensures[pos0] ref(r0) == asRef(wgetU(m.world, entity, m.id0.id))
+//@   ensures[pos1] ref(r1) == asRef(wgetU(m.world, entity, m.id1.id))
+//@   ensures[pos2] ref(r2) == asRef(wgetU(m.world, entity, m.id2.id))
+//@   ensures[pos3] ref(r3) == asRef(wgetU(m.world, entity, m.id3.id))
+//@   ensures[pos4] ref(r4) == asRef(wgetU(m.world, entity, m.id4.id))
+
+//@ func Map5[A, B, C, D, E].Get(m, entity) (r0, r1, r2, r3, r4)
+//@   props C18
+//@   flag may_panic nosafe
+//@   ensures[pos0] ref(r0) == asRef(wget(m.world, entity, m.id0.id))
+//@   ensures[pos1] ref(r1) == asRef(wgetU(m.world, entity, m.id1.id))
+//@   ensures[pos2] ref(r2) == asRef(wgetU(m.world, entity, m.id2.id))
+//@   ensures[pos3] ref(r3) == asRef(wgetU(m.world, entity, m.id3.id))
+//@   ensures[pos4] ref(r4) == asRef(wgetU(m.world, entity, m.id4.id))
+
+//@ func Filter6[A, B, C, D, E, F].Filter(f, w, target) (r)
+//@   props C18
+//@   requires w != nil && regInv(&w.registry) && (f.compiled.compiled ==> f.compiled.cExclusive == f.exclusive && f.compiled.cNIncl == len(f.include) && f.compiled.cNOpt == len(f.optional) && f.compiled.cNExcl == len(f.exclude) && f.compiled.cTargetType == f.targetType.val && f.compiled.cHasTarget == f.hasTarget && (f.hasTarget ==> f.compiled.cTargetId == f.target.id && f.compiled.cTargetGen == f.target.gen) && len(f.compiled.Ids) == f.compiled.cNIncl && (!f.compiled.locked ==> f.compiled.filter != nil && !is(f.compiled.filter, *CachedFilter)))
+//@   flag may_panic
+//@   ensures[cfg] f.compiled.compiled && (f.compiled.compiled ==> f.compiled.cExclusive == f.exclusive && f.compiled.cNIncl == len(f.include) && f.compiled.cNOpt == len(f.optional) && f.compiled.cNExcl == len(f.exclude) && f.compiled.cTargetType == f.targetType.val && f.compiled.cHasTarget == f.hasTarget && (f.hasTarget ==> f.compiled.cTargetId == f.target.id && f.compiled.cTargetGen == f.target.gen) && len(f.compiled.Ids) == f.compiled.cNIncl && (!f.compiled.locked ==> f.compiled.filter != nil && !is(f.compiled.filter, *CachedFilter)))
+//@   modifies *(&f.compiled), w.registry.Components[ALL], w.registry.Types[ALL], w.registry.Used.bits, w.registry.IsRelation.bits, w.registry.IDs, elems(uint8), all(archetypeData.layouts), all(archetypeAccess.basePointer)
+//@   ensures[kind] f.compiled.locked == old(f.compiled.locked) && (!f.compiled.locked ==> r != nil && !is(r, *CachedFilter))
+//@   ensures[ids] !old(f.compiled.compiled) ==> (forall k int :: {f.compiled.Ids[k]} 0 <= k && k < len(f.include) ==> f.compiled.Ids[k].id == w.registry.Components[f.include[k].val])
+//@   ensures[plain] len(target) == 0 ==> r == f.compiled.filter
+//@   ensures[target] len(target) > 0 ==> is(r, *RelationFilter) && as(r, *RelationFilter) == &f.compiled.relationFilter && f.compiled.relationFilter.Target == target[0] && is(f.compiled.relationFilter.Filter, *MaskFilter) && as(f.compiled.relationFilter.Filter, *MaskFilter) == &f.compiled.maskFilter
+
+//@ func NewFilter6() (f)
+//@   props C18
+//@   ensures[pos] f != nil && len(f.include) == 6 && f.optional.data == nil && f.exclude.data == nil && f.include[0] == rtypeOf(typeid(A)) && f.include[1] == rtypeOf(typeid(B)) && f.include[2] == rtypeOf(typeid(C)) && f.include[3] == rtypeOf(typeid(D)) && f.include[4] == rtypeOf(typeid(E)) && f.include[5] == rtypeOf(typeid(F))
+//@   ensures[inv] len(f.include) >= 6 && (f.optional.data != nil ==> f.optional.data != f.include.data) && (f.exclude.data != nil ==> f.exclude.data != f.include.data) && allocated(f.include.data) && allocated(f.optional.data) && allocated(f.exclude.data) && f.include[0] == rtypeOf(typeid(A)) && f.include[1] == rtypeOf(typeid(B)) && f.include[2] == rtypeOf(typeid(C)) && f.include[3] == rtypeOf(typeid(D)) && f.include[4] == rtypeOf(typeid(E)) && f.include[5] == rtypeOf(typeid(F))
+//@   ensures[fresh] !f.compiled.compiled && !f.compiled.locked && len(f.optional) == 0 && len(f.exclude) == 0 && !f.exclusive && f.targetType == nil && !f.hasTarget
+
+//@ func Filter6[A, B, C, D, E, F].Query(f, w, target) (r)
+//@   props C18
+//@   requires w != nil && regInv(&w.registry) && lockInv(&w.locks) && !f.compiled.locked && len(f.include) >= 6 && (f.optional.data != nil ==> f.optional.data != f.include.data) && (f.exclude.data != nil ==> f.exclude.data != f.include.data) && allocated(f.include.data) && allocated(f.optional.data) && allocated(f.exclude.data) && f.include[0] == rtypeOf(typeid(A)) && f.include[1] == rtypeOf(typeid(B)) && f.include[2] == rtypeOf(typeid(C)) && f.include[3] == rtypeOf(typeid(D)) && f.include[4] == rtypeOf(typeid(E)) && f.include[5] == rtypeOf(typeid(F)) && (f.compiled.compiled ==> f.compiled.cExclusive == f.exclusive && f.compiled.cNIncl == len(f.include) && f.compiled.cNOpt == len(f.optional) && f.compiled.cNExcl == len(f.exclude) && f.compiled.cTargetType == f.targetType.val && f.compiled.cHasTarget == f.hasTarget && (f.hasTarget ==> f.compiled.cTargetId == f.target.id && f.compiled.cTargetGen == f.target.gen) && len(f.compiled.Ids) == f.compiled.cNIncl && (!f.compiled.locked ==> f.compiled.filter != nil && !is(f.compiled.filter, *CachedFilter)))
+//@   requires forall id uint32 :: {mapHas(w.filterCache.indices, id)} mapHas(w.filterCache.indices, id) ==> 0 <= w.filterCache.indices[id] && w.filterCache.indices[id] < len(w.filterCache.filters)
+//@   flag may_panic
+//@   ensures[cfg] f.compiled.compiled && (f.compiled.compiled ==> f.compiled.cExclusive == f.exclusive && f.compiled.cNIncl == len(f.include) && f.compiled.cNOpt == len(f.optional) && f.compiled.cNExcl == len(f.exclude) && f.compiled.cTargetType == f.targetType.val && f.compiled.cHasTarget == f.hasTarget && (f.hasTarget ==> f.compiled.cTargetId == f.target.id && f.compiled.cTargetGen == f.target.gen) && len(f.compiled.Ids) == f.compiled.cNIncl && (!f.compiled.locked ==> f.compiled.filter != nil && !is(f.compiled.filter, *CachedFilter)))
+//@   ensures[pos] r.id0 == f.compiled.Ids[0] && r.id1 == f.compiled.Ids[1] && r.id2 == f.compiled.Ids[2] && r.id3 == f.compiled.Ids[3] && r.id4 == f.compiled.Ids[4] && r.id5 == f.compiled.Ids[5] && r.relation == f.compiled.Relation && r.hasRelation == f.compiled.HasRelation && r.Query.world == w
+//@   ensures[typed] !old(f.compiled.compiled) ==> r.id0.id == w.registry.Components[rtypeOf(typeid(A)).val] && r.id1.id == w.registry.Components[rtypeOf(typeid(B)).val] && r.id2.id == w.registry.Components[rtypeOf(typeid(C)).val] && r.id3.id == w.registry.Components[rtypeOf(typeid(D)).val] && r.id4.id == w.registry.Components[rtypeOf(typeid(E)).val] && r.id5.id == w.registry.Components[rtypeOf(typeid(F)).val]
+//@   modifies *(&f.compiled), w.registry.Components[ALL], w.registry.Types[ALL], w.registry.Used.bits, w.registry.IsRelation.bits, w.registry.IDs, elems(uint8), all(archetypeData.layouts), all(archetypeAccess.basePointer), w.locks.locks.bits, *(&w.locks.bitPool)
+
+//@ func Query6[A, B, C, D, E, F].Get(q) (r0, r1, r2, r3, r4, r5)
+//@   props C18
+//@   requires q.Query.access != nil
+//@   ensures[pos0] ref(r0) == asRef(compAt(q.Query.access, q.Query.entityIndex, q.id0.id))
+//@   ensures[pos1] ref(r1) == asRef(compAt(q.Query.access, q.Query.entityIndex, q.id1.id))
+//@   ensures[pos2] ref(r2) == asRef(compAt(q.Query.access, q.Query.entityIndex, q.id2.id))
+//@   ensures[pos3] ref(r3) == asRef(compAt(q.Query.access, q.Query.entityIndex, q.id3.id))
+//@   ensures[pos4] ref(r4) == asRef(compAt(q.Query.access, q.Query.entityIndex, q.id4.id))
+//@   ensures[pos5] ref(r5) == asRef(compAt(q.Query.access, q.Query.entityIndex, q.id5.id))
+
+//@ func NewMap6(w, relation) (m)
+//@   props C18
+//@   requires w != nil && regInv(&w.registry)
+//@   flag may_panic
+//@   ensures[pos] regInv(&w.registry) && m.world == w && len(m.ids) == 6 && m.ids[0].id == m.id0.id && m.id0.id == w.registry.Components[rtypeOf(typeid(A)).val] && m.ids[1].id == m.id1.id && m.id1.id == w.registry.Components[rtypeOf(typeid(B)).val] && m.ids[2].id == m.id2.id && m.id2.id == w.registry.Components[rtypeOf(typeid(C)).val] && m.ids[3].id == m.id3.id && m.id3.id == w.registry.Components[rtypeOf(typeid(D)).val] && m.ids[4].id == m.id4.id && m.id4.id == w.registry.Components[rtypeOf(typeid(E)).val] && m.ids[5].id == m.id5.id && m.id5.id == w.registry.Components[rtypeOf(typeid(F)).val]
+//@   ensures[mask] forall i uint8 :: {bitU(m.mask, i)} bitU(m.mask, i) == (validID(i) && (i == m.id0.id || i == m.id1.id || i == m.id2.id || i == m.id3.id || i == m.id4.id || i == m.id5.id))
+//@   ensures[rel] m.hasRelation == (len(relation) > 0) && (len(relation) > 0 ==> m.relation.id == w.registry.Components[relation[0].val])
+//@   modifies w.registry.Components[ALL], w.registry.Types[ALL], w.registry.Used.bits, w.registry.IsRelation.bits, w.registry.IDs, elems(uint8), all(archetypeData.layouts), all(archetypeAccess.basePointer)
+
+//@ func Map6[A, B, C, D, E, F].GetUnchecked(m, entity) (r0, r1, r2, r3, r4, r5)
+//@   props C18
+//@   flag may_panic nosafe
+//@   ensures[pos0] ref(r0) == asRef(wgetU(m.world, entity, m.id0.id))
+//@   ensures[pos1] ref(r1) == asRef(wgetU(m.world, entity, m.id1.id))
+//@   ensures[pos2] ref(r2) == asRef(wgetU(m.world, entity, m.id2.id))
+//@   ensures[pos3] ref(r3) == asRef(wgetU(m.world, entity, m.id3.id))
+//@   ensures[pos4] ref(r4) == asRef(wgetU(m.world, entity, m.id4.id))
+//@   ensures[pos5] ref(r5) == asRef(wgetU(m.world, entity, m.id5.id))
+
+//@ func Map6[A, B, C, D, E, F].Get(m, entity) (r0, r1, r2, r3, r4, r5)
+//@   props C18
+//@   flag may_panic nosafe
+//@   ensures[pos0] ref(r0) == asRef(wget(m.world, entity, m.id0.id))
+//@   ensures[pos1] ref(r1) == asRef(wgetU(m.world, entity, m.id1.id))
+//@   ensures[pos2] ref(r2) == asRef(wgetU(m.world, entity, m.id2.id))
+//@   ensures[pos3] ref(r3) == asRef(wgetU(m.world, entity, m.id3.id))
+//@   ensures[pos4] ref(r4) == asRef(wgetU(m.world, entity, m.id4.id))
+//@   ensures[pos5] ref(r5) == asRef(wgetU(m.world, entity, m.id5.id))
+
+//@ func Filter7[A, B, C, D, E, F, G].Filter(f, w, target) (r)
+//@   props C18
+//@   requires w != nil && regInv(&w.registry) && (f.compiled.compiled ==> f.compiled.cExclusive == f.exclusive && f.compiled.cNIncl == len(f.include) && f.compiled.cNOpt == len(f.optional) && f.compiled.cNExcl == len(f.exclude) && f.compiled.cTargetType == f.targetType.val && f.compiled.cHasTarget == f.hasTarget && (f.hasTarget ==> f.compiled.cTargetId == f.target.id && f.compiled.cTargetGen == f.target.gen) && len(f.compiled.Ids) == f.compiled.cNIncl && (!f.compiled.locked ==> f.compiled.filter != nil && !is(f.compiled.filter, *CachedFilter)))
+//@   flag may_panic
+//@   ensures[cfg] f.compiled.compiled && (f.compiled.compiled ==> f.compiled.cExclusive == f.exclusive && f.compiled.cNIncl == len(f.include) && f.compiled.cNOpt == len(f.optional) && f.compiled.cNExcl == len(f.exclude) && f.compiled.cTargetType == f.targetType.val && f.compiled.cHasTarget == f.hasTarget && (f.hasTarget ==> f.compiled.cTargetId == f.target.id && f.compiled.cTargetGen == f.target.gen) && len(f.compiled.Ids) == f.compiled.cNIncl && (!f.compiled.locked ==> f.compiled.filter != nil && !is(f.compiled.filter, *CachedFilter)))
+//@   modifies *(&f.compiled), w.registry.Components[ALL], w.registry.Types[ALL], w.registry.Used.bits, w.registry.IsRelation.bits, w.registry.IDs, elems(uint8), all(archetypeData.layouts), all(archetypeAccess.basePointer)
+//@   ensures[kind] f.compiled.locked == old(f.compiled.locked) && (!f.compiled.locked ==> r != nil && !is(r, *CachedFilter))
+//@   ensures[ids] !old(f.compiled.compiled) ==> (forall k int :: {f.compiled.Ids[k]} 0 <= k && k < len(f.include) ==> f.compiled.Ids[k].id == w.registry.Components[f.include[k].val])
+//@   ensures[plain] len(target) == 0 ==> r == f.compiled.filter
+//@   ensures[target] len(target) > 0 ==> is(r, *RelationFilter) && as(r, *RelationFilter) == &f.compiled.relationFilter && f.compiled.relationFilter.Target == target[0] && is(f.compiled.relationFilter.Filter, *MaskFilter) && as(f.compiled.relationFilter.Filter, *MaskFilter) == &f.compiled.maskFilter
+
+//@ func NewFilter7() (f)
+//@   props C18
+//@   ensures[pos] f != nil && len(f.include) == 7 && f.optional.data == nil && f.exclude.data == nil && f.include[0] == rtypeOf(typeid(A)) && f.include[1] == rtypeOf(typeid(B)) && f.include[2] == rtypeOf(typeid(C)) && f.include[3] == rtypeOf(typeid(D)) && f.include[4] == rtypeOf(typeid(E)) && f.include[5] == rtypeOf(typeid(F)) && f.include[6] == rtypeOf(typeid(G))
+//@   ensures[inv] len(f.include) >= 7 && (f.optional.data != nil ==> f.optional.data != f.include.data) && (f.exclude.data != nil ==> f.exclude.data != f.include.data) && allocated(f.include.data) && allocated(f.optional.data) && allocated(f.exclude.data) && f.include[0] == rtypeOf(typeid(A)) && f.include[1] == rtypeOf(typeid(B)) && f.include[2] == rtypeOf(typeid(C)) && f.include[3] == rtypeOf(typeid(D)) && f.include[4] == rtypeOf(typeid(E)) && f.include[5] == rtypeOf(typeid(F)) && f.include[6] == rtypeOf(typeid(G))
+//@   ensures[fresh] !f.compiled.compiled && !f.compiled.locked && len(f.optional) == 0 && len(f.exclude) == 0 && !f.exclusive && f.targetType == nil && !f.hasTarget
+
+//@ func Filter7[A, B, C, D, E, F, G].Query(f, w, target) (r)
+//@   props C18
+//@   requires w != nil && regInv(&w.registry) && lockInv(&w.locks) && !f.compiled.locked && len(f.include) >= 7 && (f.optional.data != nil ==> f.optional.data != f.include.data) && (f.exclude.data != nil ==> f.exclude.data != f.include.data) && allocated(f.include.data) && allocated(f.optional.data) && allocated(f.exclude.data) && f.include[0] == rtypeOf(typeid(A)) && f.include[1] == rtypeOf(typeid(B)) && f.include[2] == rtypeOf(typeid(C)) && f.include[3] == rtypeOf(typeid(D)) && f.include[4] == rtypeOf(typeid(E)) && f.include[5] == rtypeOf(typeid(F)) && f.include[6] == rtypeOf(typeid(G)) && (f.compiled.compiled ==> f.compiled.cExclusive == f.exclusive && f.compiled.cNIncl == len(f.include) && f.compiled.cNOpt == len(f.optional) && f.compiled.cNExcl == len(f.exclude) && f.compiled.cTargetType == f.targetType.val && f.compiled.cHasTarget == f.hasTarget && (f.hasTarget ==> f.compiled.cTargetId == f.target.id && f.compiled.cTargetGen == f.target.gen) && len(f.compiled.Ids) == f.compiled.cNIncl && (!f.compiled.locked ==> f.compiled.filter != nil && !is(f.compiled.filter, *CachedFilter)))
+//@   requires forall id uint32 :: {mapHas(w.filterCache.indices, id)} mapHas(w.filterCache.indices, id) ==> 0 <= w.filterCache.indices[id] && w.filterCache.indices[id] < len(w.filterCache.filters)
+//@   flag may_panic
+//@   ensures[cfg] f.compiled.compiled && (f.compiled.compiled ==> f.compiled.cExclusive == f.exclusive && f.compiled.cNIncl == len(f.include) && f.compiled.cNOpt == len(f.optional) && f.compiled.cNExcl == len(f.exclude) && f.compiled.cTargetType == f.targetType.val && f.compiled.cHasTarget == f.hasTarget && (f.hasTarget ==> f.compiled.cTargetId == f.target.id && f.compiled.cTargetGen == f.target.gen) && len(f.compiled.Ids) == f.compiled.cNIncl && (!f.compiled.locked ==> f.compiled.filter != nil && !is(f.compiled.filter, *CachedFilter)))
+//@   ensures[pos] r.id0 == f.compiled.Ids[0] && r.id1 == f.compiled.Ids[1] && r.id2 == f.compiled.Ids[2] && r.id3 == f.compiled.Ids[3] && r.id4 == f.compiled.Ids[4] && r.id5 == f.compiled.Ids[5] && r.id6 == f.compiled.Ids[6] && r.relation == f.compiled.Relation && r.hasRelation == f.compiled.HasRelation && r.Query.world == w
+//@   ensures[typed] !old(f.compiled.compiled) ==> r.id0.id == w.registry.Components[rtypeOf(typeid(A)).val] && r.id1.id == w.registry.Components[rtypeOf(typeid(B)).val] && r.id2.id == w.registry.Components[rtypeOf(typeid(C)).val] && r.id3.id == w.registry.Components[rtypeOf(typeid(D)).val] && r.id4.id == w.registry.Components[rtypeOf(typeid(E)).val] && r.id5.id == w.registry.Components[rtypeOf(typeid(F)).val] && r.id6.id == w.registry.Components[rtypeOf(typeid(G)).val]
+//@   modifies *(&f.compiled), w.registry.Components[ALL], w.registry.Types[ALL], w.registry.Used.bits, w.registry.IsRelation.bits, w.registry.IDs, elems(uint8), all(archetypeData.layouts), all(archetypeAccess.basePointer), w.locks.locks.bits, *(&w.locks.bitPool)
+
+//@ func Query7[A, B, C, D, E, F, G].Get(q) (r0, r1, r2, r3, r4, r5, r6)
+//@   props C18
+//@   requires q.Query.access != nil
+//@   ensures[pos0] ref(r0) == asRef(compAt(q.Query.access, q.Query.entityIndex, q.id0.id))
+//@   ensures[pos1] ref(r1) == asRef(compAt(q.Query.access, q.Query.entityIndex, q.id1.id))
+//@   ensures[pos2] ref(r2) == asRef(compAt(q.Query.access, q.Query.entityIndex, q.id2.id))
+//@   ensures[pos3] ref(r3) == asRef(compAt(q.Query.access, q.Query.entityIndex, q.id3.id))
+//@   ensures[pos4] ref(r4) == asRef(compAt(q.Query.access, q.Query.entityIndex, q.id4.id))
+//@   ensures[pos5] ref(r5) == asRef(compAt(q.Query.access, q.Query.entityIndex, q.id5.id))
+//@   ensures[pos6] ref(r6) == asRef(compAt(q.Query.access, q.Query.entityIndex, q.id6.id))
+
+//@ func NewMap7(w, relation) (m)
+//@   props C18
+//@   requires w != nil && regInv(&w.registry)
+//@   flag may_panic
+//@   ensures[pos] regInv(&w.registry) && m.world == w && len(m.ids) == 7 && m.ids[0].id == m.id0.id && m.id0.id == w.registry.Components[rtypeOf(typeid(A)).val] && m.ids[1].id == m.id1.id && m.id1.id == w.registry.Components[rtypeOf(typeid(B)).val] && m.ids[2].id == m.id2.id && m.id2.id == w.registry.Components[rtypeOf(typeid(C)).val] && m.ids[3].id == m.id3.id && m.id3.id == w.registry.Components[rtypeOf(typeid(D)).val] && m.ids[4].id == m.id4.id && m.id4.id == w.registry.Components[rtypeOf(typeid(E)).val] && m.ids[5].id == m.id5.id && m.id5.id == w.registry.Components[rtypeOf(typeid(F)).val] && m.ids[6].id == m.id6.id && m.id6.id == w.registry.Components[rtypeOf(typeid(G)).val]
+//@   ensures[mask] forall i uint8 :: {bitU(m.mask, i)} bitU(m.mask, i) == (validID(i) && (i == m.id0.id || i == m.id1.id || i == m.id2.id || i == m.id3.id || i == m.id4.id || i == m.id5.id || i == m.id6.id))
+//@   ensures[rel] m.hasRelation == (len(relation) > 0) && (len(relation) > 0 ==> m.relation.id == w.registry.Components[relation[0].val])
+//@   modifies w.registry.Components[ALL], w.registry.Types[ALL], w.registry.Used.bits, w.registry.IsRelation.bits, w.registry.IDs, elems(uint8), all(archetypeData.layouts), all(archetypeAccess.basePointer)
+
+//@ func Map7[A, B, C, D, E, F, G].GetUnchecked(m, entity) (r0, r1, r2, r3, r4, r5, r6)
+//@   props C18
+//@   flag may_panic nosafe
+//@   ensures[pos0] ref(r0) == asRef(wgetU(m.world, entity, m.id0.id))
+//@   ensures[pos1] ref(r1) == asRef(wgetU(m.world, entity, m.id1.id))
+//@   ensures[pos2] ref(r2) == asRef(wgetU(m.world, entity, m.id2.id))
+//@   ensures[pos3] ref(r3) == asRef(wgetU(m.world, entity, m.id3.id))
+//@   ensures[pos4] ref(r4) == asRef(wgetU(m.world, entity, m.id4.id))
+//@   ensures[pos5] ref(r5) == asRef(wgetU(m.world, entity, m.id5.id))
+//@   ensures[pos6] ref(r6) == asRef(wgetU(m.world, entity, m.id6.id))
+
+//@ func Map7[A, B, C, D, E, F, G].Get(m, entity) (r0, r1, r2, r3, r4, r5, r6)
+//@   props C18
+//@   flag may_panic nosafe
+//@   ensures[pos0] ref(r0) == asRef(wget(m.world, entity, m.id0.id))
+//@   ensures[pos1] ref(r1) == asRef(wgetU(m.world, entity, m.id1.id))
+//@   ensures[pos2] ref(r2) == asRef(wgetU(m.world, entity, m.id2.id))
+//@   ensures[pos3] ref(r3) == asRef(wgetU(m.world, entity, m.id3.id))
+//@   ensures[pos4] ref(r4) == asRef(wgetU(m.world, entity, m.id4.id))
+//@   ensures[pos5] ref(r5) == asRef(wgetU(m.world, entity, m.id5.id))
+//@   ensures[pos6] ref(r6) == asRef(wgetU(m.world, entity, m.id6.id))
+
+//@ func Filter8[A, B, C, D, E, F, G, H].Filter(f, w, target) (r)
+//@   props C18
+//@   requires w != nil && regInv(&w.registry) && (f.compiled.compiled ==> f.compiled.cExclusive == f.exclusive && f.compiled.cNIncl == len(f.include) && f.compiled.cNOpt == len(f.optional) && f.compiled.cNExcl == len(f.exclude) && f.compiled.cTargetType == f.targetType.val && f.compiled.cHasTarget == f.hasTarget && (f.hasTarget ==> f.compiled.cTargetId == f.target.id && f.compiled.cTargetGen == f.target.gen) && len(f.compiled.Ids) == f.compiled.cNIncl && (!f.compiled.locked ==> f.compiled.filter != nil && !is(f.compiled.filter, *CachedFilter)))
+//@   flag may_panic
+//@   ensures[cfg] f.compiled.compiled && (f.compiled.compiled ==> f.compiled.cExclusive == f.exclusive && f.compiled.cNIncl == len(f.include) && f.compiled.cNOpt == len(f.optional) && f.compiled.cNExcl == len(f.exclude) && f.compiled.cTargetType == f.targetType.val && f.compiled.cHasTarget == f.hasTarget && (f.hasTarget ==> f.compiled.cTargetId == f.target.id && f.compiled.cTargetGen == f.target.gen) && len(f.compiled.Ids) == f.compiled.cNIncl && (!f.compiled.locked ==> f.compiled.filter != nil && !is(f.compiled.filter, *CachedFilter)))
+//@   modifies *(&f.compiled), w.registry.Components[ALL], w.registry.Types[ALL], w.registry.Used.bits, w.registry.IsRelation.bits, w.registry.IDs, elems(uint8), all(archetypeData.layouts), all(archetypeAccess.basePointer)
+//@   ensures[kind] f.compiled.locked == old(f.compiled.locked) && (!f.compiled.locked ==> r != nil && !is(r, *CachedFilter))
+//@   ensures[ids] !old(f.compiled.compiled) ==> (forall k int :: {f.compiled.Ids[k]} 0 <= k && k < len(f.include) ==> f.compiled.Ids[k].id == w.registry.Components[f.include[k].val])
+//@   ensures[plain] len(target) == 0 ==> r == f.compiled.filter
+//@   ensures[target] len(target) > 0 ==> is(r, *RelationFilter) && as(r, *RelationFilter) == &f.compiled.relationFilter && f.compiled.relationFilter.Target == target[0] && is(f.compiled.relationFilter.Filter, *MaskFilter) && as(f.compiled.relationFilter.Filter, *MaskFilter) == &f.compiled.maskFilter
+
+//@ func NewFilter8() (f)
+//@   props C18
+//@   ensures[pos] f != nil && len(f.include) == 8 && f.optional.data == nil && f.exclude.data == nil && f.include[0] == rtypeOf(typeid(A)) && f.include[1] == rtypeOf(typeid(B)) && f.include[2] == rtypeOf(typeid(C)) && f.include[3] == rtypeOf(typeid(D)) && f.include[4] == rtypeOf(typeid(E)) && f.include[5] == rtypeOf(typeid(F)) && f.include[6] == rtypeOf(typeid(G)) && f.include[7] == rtypeOf(typeid(H))
+//@   ensures[inv] len(f.include) >= 8 && (f.optional.data != nil ==> f.optional.data != f.include.data) && (f.exclude.data != nil ==> f.exclude.data != f.include.data) && allocated(f.include.data) && allocated(f.optional.data) && allocated(f.exclude.data) && f.include[0] == rtypeOf(typeid(A)) && f.include[1] == rtypeOf(typeid(B)) && f.include[2] == rtypeOf(typeid(C)) && f.include[3] == rtypeOf(typeid(D)) && f.include[4] == rtypeOf(typeid(E)) && f.include[5] == rtypeOf(typeid(F)) && f.include[6] == rtypeOf(typeid(G)) && f.include[7] == rtypeOf(typeid(H))
+//@   ensures[fresh] !f.compiled.compiled && !f.compiled.locked && len(f.optional) == 0 && len(f.exclude) == 0 && !f.exclusive && f.targetType == nil && !f.hasTarget
+
+//@ func Filter8[A, B, C, D, E, F, G, H].Query(f, w, target) (r)
+//@   props C18
+//@   requires w != nil && regInv(&w.registry) && lockInv(&w.locks) && !f.compiled.locked && len(f.include) >= 8 && (f.optional.data != nil ==> f.optional.data != f.include.data) && (f.exclude.data != nil ==> f.exclude.data != f.include.data) && allocated(f.include.data) && allocated(f.optional.data) && allocated(f.exclude.data) && f.include[0] == rtypeOf(typeid(A)) && f.include[1] == rtypeOf(typeid(B)) && f.include[2] == rtypeOf(typeid(C)) && f.include[3] == rtypeOf(typeid(D)) && f.include[4] == rtypeOf(typeid(E)) && f.include[5] == rtypeOf(typeid(F)) && f.include[6] == rtypeOf(typeid(G)) && f.include[7] == rtypeOf(typeid(H)) && (f.compiled.compiled ==> f.compiled.cExclusive == f.exclusive && f.compiled.cNIncl == len(f.include) && f.compiled.cNOpt == len(f.optional) && f.compiled.cNExcl == len(f.exclude) && f.compiled.cTargetType == f.targetType.val && f.compiled.cHasTarget == f.hasTarget && (f.hasTarget ==> f.compiled.cTargetId == f.target.id && f.compiled.cTargetGen == f.target.gen) && len(f.compiled.Ids) == f.compiled.cNIncl && (!f.compiled.locked ==> f.compiled.filter != nil && !is(f.compiled.filter, *CachedFilter)))
+//@   requires forall id uint32 :: {mapHas(w.filterCache.indices, id)} mapHas(w.filterCache.indices, id) ==> 0 <= w.filterCache.indices[id] && w.filterCache.indices[id] < len(w.filterCache.filters)
+//@   flag may_panic
+//@   ensures[cfg] f.compiled.compiled && (f.compiled.compiled ==> f.compiled.cExclusive == f.exclusive && f.compiled.cNIncl == len(f.include) && f.compiled.cNOpt == len(f.optional) && f.compiled.cNExcl == len(f.exclude) && f.compiled.cTargetType == f.targetType.val && f.compiled.cHasTarget == f.hasTarget && (f.hasTarget ==> f.compiled.cTargetId == f.target.id && f.compiled.cTargetGen == f.target.gen) && len(f.compiled.Ids) == f.compiled.cNIncl && (!f.compiled.locked ==> f.compiled.filter != nil && !is(f.compiled.filter, *CachedFilter)))
+//@   ensures[pos] r.id0 == f.compiled.Ids[0] && r.id1 == f.compiled.Ids[1] && r.id2 == f.compiled.Ids[2] && r.id3 == f.compiled.Ids[3] && r.id4 == f.compiled.Ids[4] && r.id5 == f.compiled.Ids[5] && r.id6 == f.compiled.Ids[6] && r.id7 == f.compiled.Ids[7] && r.relation == f.compiled.Relation && r.hasRelation == f.compiled.HasRelation && r.Query.world == w
+//@   ensures[typed] !old(f.compiled.compiled) ==> r.id0.id == w.registry.Components[rtypeOf(typeid(A)).val] && r.id1.id == w.registry.Components[rtypeOf(typeid(B)).val] && r.id2.id == w.registry.Components[rtypeOf(typeid(C)).val] && r.id3.id == w.registry.Components[rtypeOf(typeid(D)).val] && r.id4.id == w.registry.Components[rtypeOf(typeid(E)).val] && r.id5.id == w.registry.Components[rtypeOf(typeid(F)).val] && r.id6.id == w.registry.Components[rtypeOf(typeid(G)).val] && r.id7.id == w.registry.Components[rtypeOf(typeid(H)).val]
+//@   modifies *(&f.compiled), w.registry.Components[ALL], w.registry.Types[ALL], w.registry.Used.bits, w.registry.IsRelation.bits, w.registry.IDs, elems(uint8), all(archetypeData.layouts), all(archetypeAccess.basePointer), w.locks.locks.bits, *(&w.locks.bitPool)
+
+//@ func Query8[A, B, C, D, E, F, G, H].Get(q) (r0, r1, r2, r3, r4, r5, r6, r7)
+//@   props C18
+//@   requires q.Query.access != nil
+//@   ensures[pos0] ref(r0) == asRef(compAt(q.Query.access, q.Query.entityIndex, q.id0.id))
+//@   ensures[pos1] ref(r1) == asRef(compAt(q.Query.access, q.Query.entityIndex, q.id1.id))
+//@   ensures[pos2] ref(r2) == asRef(compAt(q.Query.access, q.Query.entityIndex, q.id2.id))
+//@   ensures[pos3] ref(r3) == asRef(compAt(q.Query.access, q.Query.entityIndex, q.id3.id))
+//@   ensures[pos4] ref(r4) == asRef(compAt(q.Query.access, q.Query.entityIndex, q.id4.id))
+//@   ensures[pos5] ref(r5) == asRef(compAt(q.Query.access, q.Query.entityIndex, q.id5.id))
+//@   ensures[pos6] ref(r6) == asRef(compAt(q.Query.access, q.Query.entityIndex, q.id6.id))
+//@   ensures[pos7] ref(r7) == asRef(compAt(q.Query.access, q.Query.entityIndex, q.id7.id))
+
+//@ func NewMap8(w, relation) (m)
+//@   props C18
+//@   requires w != nil && regInv(&w.registry)
+//@   flag may_panic
+//@   ensures[pos] regInv(&w.registry) && m.world == w && len(m.ids) == 8 && m.ids[0].id == m.id0.id && m.id0.id == w.registry.Components[rtypeOf(typeid(A)).val] && m.ids[1].id == m.id1.id && m.id1.id == w.registry.Components[rtypeOf(typeid(B)).val] && m.ids[2].id == m.id2.id && m.id2.id == w.registry.Components[rtypeOf(typeid(C)).val] && m.ids[3].id == m.id3.id && m.id3.id == w.registry.Components[rtypeOf(typeid(D)).val] && m.ids[4].id == m.id4.id && m.id4.id == w.registry.Components[rtypeOf(typeid(E)).val] && m.ids[5].id == m.id5.id && m.id5.id == w.registry.Components[rtypeOf(typeid(F)).val] && m.ids[6].id == m.id6.id && m.id6.id == w.registry.Components[rtypeOf(typeid(G)).val] && m.ids[7].id == m.id7.id && m.id7.id == w.registry.Components[rtypeOf(typeid(H)).val]
+//@   ensures[mask] forall i uint8 :: {bitU(m.mask, i)} bitU(m.mask, i) == (validID(i) && (i == m.id0.id || i == m.id1.id || i == m.id2.id || i == m.id3.id || i == m.id4.id || i == m.id5.id || i == m.id6.id || i == m.id7.id))
+//@   ensures[rel] m.hasRelation == (len(relation) > 0) && (len(relation) > 0 ==> m.relation.id == w.registry.Components[relation[0].val])
+//@   modifies w.registry.Components[ALL], w.registry.Types[ALL], w.registry.Used.bits, w.registry.IsRelation.bits, w.registry.IDs, elems(uint8), all(archetypeData.layouts), all(archetypeAccess.basePointer)
+
+//@ func Map8[A, B, C, D, E, F, G, H].GetUnchecked(m, entity) (r0, r1, r2, r3, r4, r5, r6, r7)
+//@   props C18
+//@   flag may_panic nosafe
+//@   ensures[pos0] ref(r0) == asRef(wgetU(m.world, entity, m.id0.id))
+//@   ensures[pos1] ref(r1) == asRef(wgetU(m.world, entity, m.id1.id))
+//@   ensures[pos2] ref(r2) == asRef(wgetU(m.world, entity, m.id2.id))
+//@   ensures[pos3] ref(r3) == asRef(wgetU(m.world, entity, m.id3.id))
+//@   ensures[pos4] ref(r4) == asRef(wgetU(m.world, entity, m.id4.id))
+//@   ensures[pos5] ref(r5) == asRef(wgetU(m.world, entity, m.id5.id))
+//@   ensures[pos6] ref(r6) == asRef(wgetU(m.world, entity, m.id6.id))
+//@   ensures[pos7] ref(r7) == asRef(wgetU(m.world, entity, m.id7.id))
+
+//@ func Map8[A, B, C, D, E, F, G, H].Get(m, entity) (r0, r1, r2, r3, r4, r5, r6, r7)
+//@   props C18
+//@   flag may_panic nosafe
+//@   ensures[pos0] ref(r0) == asRef(wget(m.world, entity, m.id0.id))
+//@   ensures[pos1] ref(r1) == asRef(wgetU(m.world, entity, m.id1.id))
+//@   ensures[pos2] ref(r2) == asRef(wgetU(m.world, entity, m.id2.id))
+//@   ensures[pos3] ref(r3) == asRef(wgetU(m.world, entity, m.id3.id))
+//@   ensures[pos4] ref(r4) == asRef(wgetU(m.world, entity, m.id4.id))
+//@   ensures[pos5] ref(r5) == asRef(wgetU(m.world, entity, m.id5.id))
+//@   ensures[pos6] ref(r6) == asRef(wgetU(m.world, entity, m.id6.id))
+//@   ensures[pos7] ref(r7) == asRef(wgetU(m.world, entity, m.id7.id))
+
+//@ func Filter9[A, B, C, D, E, F, G, H, I].Filter(f, w, target) (r)
+//@   props C18
+//@   requires w != nil && regInv(&w.registry) && (f.compiled.compiled ==> f.compiled.cExclusive == f.exclusive && f.compiled.cNIncl == len(f.include) && f.compiled.cNOpt == len(f.optional) && f.compiled.cNExcl == len(f.exclude) && f.compiled.cTargetType == f.targetType.val && f.compiled.cHasTarget == f.hasTarget && (f.hasTarget ==> f.compiled.cTargetId == f.target.id && f.compiled.cTargetGen == f.target.gen) && len(f.compiled.Ids) == f.compiled.cNIncl && (!f.compiled.locked ==> f.compiled.filter != nil && !is(f.compiled.filter, *CachedFilter)))
+//@   flag may_panic
+//@   ensures[cfg] f.compiled.compiled && (f.compiled.compiled ==> f.compiled.cExclusive == f.exclusive && f.compiled.cNIncl == len(f.include) && f.compiled.cNOpt == len(f.optional) && f.compiled.cNExcl == len(f.exclude) && f.compiled.cTargetType == f.targetType.val && f.compiled.cHasTarget == f.hasTarget && (f.hasTarget ==> f.compiled.cTargetId == f.target.id && f.compiled.cTargetGen == f.target.gen) && len(f.compiled.Ids) == f.compiled.cNIncl && (!f.compiled.locked ==> f.compiled.filter != nil && !is(f.compiled.filter, *CachedFilter)))
+//@   modifies *(&f.compiled), w.registry.Components[ALL], w.registry.Types[ALL], w.registry.Used.bits, w.registry.IsRelation.bits, w.registry.IDs, elems(uint8), all(archetypeData.layouts), all(archetypeAccess.basePointer)
+//@   ensures[kind] f.compiled.locked == old(f.compiled.locked) && (!f.compiled.locked ==> r != nil && !is(r, *CachedFilter))
+//@   ensures[ids] !old(f.compiled.compiled) ==> (forall k int :: {f.compiled.Ids[k]} 0 <= k && k < len(f.include) ==> f.compiled.Ids[k].id == w.registry.Components[f.include[k].val])
+//@   ensures[plain] len(target) == 0 ==> r == f.compiled.filter
+//@   ensures[target] len(target) > 0 ==> is(r, *RelationFilter) && as(r, *RelationFilter) == &f.compiled.relationFilter && f.compiled.relationFilter.Target == target[0] && is(f.compiled.relationFilter.Filter, *MaskFilter) && as(f.compiled.relationFilter.Filter, *MaskFilter) == &f.compiled.maskFilter
+
+//@ func NewFilter9() (f)
+//@   props C18
+//@   ensures[pos] f != nil && len(f.include) == 9 && f.optional.data == nil && f.exclude.data == nil && f.include[0] == rtypeOf(typeid(A)) && f.include[1] == rtypeOf(typeid(B)) && f.include[2] == rtypeOf(typeid(C)) && f.include[3] == rtypeOf(typeid(D)) && f.include[4] == rtypeOf(typeid(E)) && f.include[5] == rtypeOf(typeid(F)) && f.include[6] == rtypeOf(typeid(G)) && f.include[7] == rtypeOf(typeid(H)) && f.include[8] == rtypeOf(typeid(I))
+//@   ensures[inv] len(f.include) >= 9 && (f.optional.data != nil ==> f.optional.data != f.include.data) && (f.exclude.data != nil ==> f.exclude.data != f.include.data) && allocated(f.include.data) && allocated(f.optional.data) && allocated(f.exclude.data) && f.include[0] == rtypeOf(typeid(A)) && f.include[1] == rtypeOf(typeid(B)) && f.include[2] == rtypeOf(typeid(C)) && f.include[3] == rtypeOf(typeid(D)) && f.include[4] == rtypeOf(typeid(E)) && f.include[5] == rtypeOf(typeid(F)) && f.include[6] == rtypeOf(typeid(G)) && f.include[7] == rtypeOf(typeid(H)) && f.include[8] == rtypeOf(typeid(I))
+//@   ensures[fresh] !f.compiled.compiled && !f.compiled.locked && len(f.optional) == 0 && len(f.exclude) == 0 && !f.exclusive && f.targetType == nil && !f.hasTarget
+
+//@ func Filter9[A, B, C, D, E, F, G, H, I].Query(f, w, target) (r)
+//@   props C18
+//@   requires w != nil && regInv(&w.registry) && lockInv(&w.locks) && !f.compiled.locked && len(f.include) >= 9 && (f.optional.data != nil ==> f.optional.data != f.include.data) && (f.exclude.data != nil ==> f.exclude.data != f.include.data) && allocated(f.include.data) && allocated(f.optional.data) && allocated(f.exclude.data) && f.include[0] == rtypeOf(typeid(A)) && f.include[1] == rtypeOf(typeid(B)) && f.include[2] == rtypeOf(typeid(C)) && f.include[3] == rtypeOf(typeid(D)) && f.include[4] == rtypeOf(typeid(E)) && f.include[5] == rtypeOf(typeid(F)) && f.include[6] == rtypeOf(typeid(G)) && f.include[7] == rtypeOf(typeid(H)) && f.include[8] == rtypeOf(typeid(I)) && (f.compiled.compiled ==> f.compiled.cExclusive == f.exclusive && f.compiled.cNIncl == len(f.include) && f.compiled.cNOpt == len(f.optional) && f.compiled.cNExcl == len(f.exclude) && f.compiled.cTargetType == f.targetType.val && f.compiled.cHasTarget == f.hasTarget && (f.hasTarget ==> f.compiled.cTargetId == f.target.id && f.compiled.cTargetGen == f.target.gen) && len(f.compiled.Ids) == f.compiled.cNIncl && (!f.compiled.locked ==> f.compiled.filter != nil && !is(f.compiled.filter, *CachedFilter)))
+//@   requires forall id uint32 :: {mapHas(w.filterCache.indices, id)} mapHas(w.filterCache.indices, id) ==> 0 <= w.filterCache.indices[id] && w.filterCache.indices[id] < len(w.filterCache.filters)
+//@   flag may_panic
+//@   ensures[cfg] f.compiled.compiled && (f.compiled.compiled ==> f.compiled.cExclusive == f.exclusive && f.compiled.cNIncl == len(f.include) && f.compiled.cNOpt == len(f.optional) && f.compiled.cNExcl == len(f.exclude) && f.compiled.cTargetType == f.targetType.val && f.compiled.cHasTarget == f.hasTarget && (f.hasTarget ==> f.compiled.cTargetId == f.target.id && f.compiled.cTargetGen == f.target.gen) && len(f.compiled.Ids) == f.compiled.cNIncl && (!f.compiled.locked ==> f.compiled.filter != nil && !is(f.compiled.filter, *CachedFilter)))
+//@   ensures[pos] r.id0 == f.compiled.Ids[0] && r.id1 == f.compiled.Ids[1] && r.id2 == f.compiled.Ids[2] && r.id3 == f.compiled.Ids[3] && r.id4 == f.compiled.Ids[4] && r.id5 == f.compiled.Ids[5] && r.id6 == f.compiled.Ids[6] && r.id7 == f.compiled.Ids[7] && r.id8 == f.compiled.Ids[8] && r.relation == f.compiled.Relation && r.hasRelation == f.compiled.HasRelation && r.Query.world == w
+//@   ensures[typed] !old(f.compiled.compiled) ==> r.id0.id == w.registry.Components[rtypeOf(typeid(A)).val] && r.id1.id == w.registry.Components[rtypeOf(typeid(B)).val] && r.id2.id == w.registry.Components[rtypeOf(typeid(C)).val] && r.id3.id == w.registry.Components[rtypeOf(typeid(D)).val] && r.id4.id == w.registry.Components[rtypeOf(typeid(E)).val] && r.id5.id == w.registry.Components[rtypeOf(typeid(F)).val] && r.id6.id == w.registry.Components[rtypeOf(typeid(G)).val] && r.id7.id == w.registry.Components[rtypeOf(typeid(H)).val] && r.id8.id == w.registry.Components[rtypeOf(typeid(I)).val]
+//@   modifies *(&f.compiled), w.registry.Components[ALL], w.registry.Types[ALL], w.registry.Used.bits, w.registry.IsRelation.bits, w.registry.IDs, elems(uint8), all(archetypeData.layouts), all(archetypeAccess.basePointer), w.locks.locks.bits, *(&w.locks.bitPool)
+
+//@ func Query9[A, B, C, D, E, F, G, H, I].Get(q) (r0, r1, r2, r3, r4, r5, r6, r7, r8)
+//@   props C18
+//@   requires q.Query.access != nil
+//@   ensures[pos0] ref(r0) == asRef(compAt(q.Query.access, q.Query.entityIndex, q.id0.id))
+//@   ensures[pos1] ref(r1) == asRef(compAt(q.Query.access, q.Query.entityIndex, q.id1.id))
+//@   ensures[pos2] ref(r2) == asRef(compAt(q.Query.access, q.Query.entityIndex, q.id2.id))
+//@   ensures[pos3] ref(r3) == asRef(compAt(q.Query.access, q.Query.entityIndex, q.id3.id))
+//@   ensures[pos4] ref(r4) == asRef(compAt(q.Query.access, q.Query.entityIndex, q.id4.id))
+//@   ensures[pos5] ref(r5) == asRef(compAt(q.Query.access, q.Query.entityIndex, q.id5.id))
+//@   ensures[pos6] ref(r6) == asRef(compAt(q.Query.access, q.Query.entityIndex, q.id6.id))
+//@   ensures[pos7] ref(r7) == asRef(compAt(q.Query.access, q.Query.entityIndex, q.id7.id))
+//@   ensures[pos8] ref(r8) == asRef(compAt(q.Query.access, q.Query.entityIndex, q.id8.id))
+
+//@ func Map9[A, B, C, D, E, F, G, H, I].GetUnchecked(m, entity) (r0, r1, r2, r3, r4, r5, r6, r7, r8)
+//@   props C18
+//@   flag may_panic nosafe
+//@   ensures[pos0] ref(r0) == asRef(wgetU(m.world, entity, m.id0.id))
+//@   ensures[pos1] ref(r1) == asRef(wgetU(m.world, entity, m.id1.id))
+//@   ensures[pos2] ref(r2) == asRef(wgetU(m.world, entity, m.id2.id))
+//@   ensures[pos3] ref(r3) == asRef(wgetU(m.world, entity, m.id3.id))
+//@   ensures[pos4] ref(r4) == asRef(wgetU(m.world, entity, m.id4.id))
+//@   ensures[pos5] ref(r5) == asRef(wgetU(m.world, entity, m.id5.id))
+//@   ensures[pos6] ref(r6) == asRef(wgetU(m.world, entity, m.id6.id))
+//@   ensures[pos7] ref(r7) == asRef(wgetU(m.world, entity, m.id7.id))
+//@   ensures[pos8] ref(r8) == asRef(wgetU(m.world, entity, m.id8.id))
+
+//@ func Map9[A, B, C, D, E, F, G, H, I].Get(m, entity) (r0, r1, r2, r3, r4, r5, r6, r7, r8)
+//@   props C18
+//@   flag may_panic nosafe
+//@   ensures[pos0] ref(r0) == asRef(wget(m.world, entity, m.id0.id))
+//@   ensures[pos1] ref(r1) == asRef(wgetU(m.world, entity, m.id1.id))
+//@   ensures[pos2] ref(r2) == asRef(wgetU(m.world, entity, m.id2.id))
+//@   ensures[pos3] ref(r3) == asRef(wgetU(m.world, entity, m.id3.id))
+//@   ensures[pos4] ref(r4) == asRef(wgetU(m.world, entity, m.id4.id))
+//@   ensures[pos5] ref(r5) == asRef(wgetU(m.world, entity, m.id5.id))
+//@   ensures[pos6] ref(r6) == asRef(wgetU(m.world, entity, m.id6.id))
+//@   ensures[pos7] ref(r7) == asRef(wgetU(m.world, entity, m.id7.id))
+//@   ensures[pos8] ref(r8) == asRef(wgetU(m.world, entity, m.id8.id))
+
+//@ func Filter10[A, B, C, D, E, F, G, H, I, J].Filter(f, w, target) (r)
+//@   props C18
+//@   requires w != nil && regInv(&w.registry) && (f.compiled.compiled ==> f.compiled.cExclusive == f.exclusive && f.compiled.cNIncl == len(f.include) && f.compiled.cNOpt == len(f.optional) && f.compiled.cNExcl == len(f.exclude) && f.compiled.cTargetType == f.targetType.val && f.compiled.cHasTarget == f.hasTarget && (f.hasTarget ==> f.compiled.cTargetId == f.target.id && f.compiled.cTargetGen == f.target.gen) && len(f.compiled.Ids) == f.compiled.cNIncl && (!f.compiled.locked ==> f.compiled.filter != nil && !is(f.compiled.filter, *CachedFilter)))
+//@   flag may_panic
+//@   ensures[cfg] f.compiled.compiled && (f.compiled.compiled ==> f.compiled.cExclusive == f.exclusive && f.compiled.cNIncl == len(f.include) && f.compiled.cNOpt == len(f.optional) && f.compiled.cNExcl == len(f.exclude) && f.compiled.cTargetType == f.targetType.val && f.compiled.cHasTarget == f.hasTarget && (f.hasTarget ==> f.compiled.cTargetId == f.target.id && f.compiled.cTargetGen == f.target.gen) && len(f.compiled.Ids) == f.compiled.cNIncl && (!f.compiled.locked ==> f.compiled.filter != nil && !is(f.compiled.filter, *CachedFilter)))
+//@   modifies *(&f.compiled), w.registry.Components[ALL], w.registry.Types[ALL], w.registry.Used.bits, w.registry.IsRelation.bits, w.registry.IDs, elems(uint8), all(archetypeData.layouts), all(archetypeAccess.basePointer)
+//@   ensures[kind] f.compiled.locked == old(f.compiled.locked) && (!f.compiled.locked ==> r != nil && !is(r, *CachedFilter))
+//@   ensures[ids] !old(f.compiled.compiled) ==> (forall k int :: {f.compiled.Ids[k]} 0 <= k && k < len(f.include) ==> f.compiled.Ids[k].id == w.registry.Components[f.include[k].val])
+//@   ensures[plain] len(target) == 0 ==> r == f.compiled.filter
+//@   ensures[target] len(target) > 0 ==> is(r, *RelationFilter) && as(r, *RelationFilter) == &f.compiled.relationFilter && f.compiled.relationFilter.Target == target[0] && is(f.compiled.relationFilter.Filter, *MaskFilter) && as(f.compiled.relationFilter.Filter, *MaskFilter) == &f.compiled.maskFilter
+
+//@ func NewFilter10() (f)
+//@   props C18
+//@   ensures[pos] f != nil && len(f.include) == 10 && f.optional.data == nil && f.exclude.data == nil && f.include[0] == rtypeOf(typeid(A)) && f.include[1] == rtypeOf(typeid(B)) && f.include[2] == rtypeOf(typeid(C)) && f.include[3] == rtypeOf(typeid(D)) && f.include[4] == rtypeOf(typeid(E)) && f.include[5] == rtypeOf(typeid(F)) && f.include[6] == rtypeOf(typeid(G)) && f.include[7] == rtypeOf(typeid(H)) && f.include[8] == rtypeOf(typeid(I)) && f.include[9] == rtypeOf(typeid(J))
+//@   ensures[inv] len(f.include) >= 10 && (f.optional.data != nil ==> f.optional.data != f.include.data) && (f.exclude.data != nil ==> f.exclude.data != f.include.data) && allocated(f.include.data) && allocated(f.optional.data) && allocated(f.exclude.data) && f.include[0] == rtypeOf(typeid(A)) && f.include[1] == rtypeOf(typeid(B)) && f.include[2] == rtypeOf(typeid(C)) && f.include[3] == rtypeOf(typeid(D)) && f.include[4] == rtypeOf(typeid(E)) && f.include[5] == rtypeOf(typeid(F)) && f.include[6] == rtypeOf(typeid(G)) && f.include[7] == rtypeOf(typeid(H)) && f.include[8] == rtypeOf(typeid(I)) && f.include[9] == rtypeOf(typeid(J))
+//@   ensures[fresh] !f.compiled.compiled && !f.compiled.locked && len(f.optional) == 0 && len(f.exclude) == 0 && !f.exclusive && f.targetType == nil && !f.hasTarget
+
+//@ func Filter10[A, B, C, D, E, F, G, H, I, J].Query(f, w, target) (r)
+//@   props C18
+//@   requires w != nil && regInv(&w.registry) && lockInv(&w.locks) && !f.compiled.locked && len(f.include) >= 10 && (f.optional.data != nil ==> f.optional.data != f.include.data) && (f.exclude.data != nil ==> f.exclude.data != f.include.data) && allocated(f.include.data) && allocated(f.optional.data) && allocated(f.exclude.data) && f.include[0] == rtypeOf(typeid(A)) && f.include[1] == rtypeOf(typeid(B)) && f.include[2] == rtypeOf(typeid(C)) && f.include[3] == rtypeOf(typeid(D)) && f.include[4] == rtypeOf(typeid(E)) && f.include[5] == rtypeOf(typeid(F)) && f.include[6] == rtypeOf(typeid(G)) && f.include[7] == rtypeOf(typeid(H)) && f.include[8] == rtypeOf(typeid(I)) && f.include[9] == rtypeOf(typeid(J)) && (f.compiled.compiled ==> f.compiled.cExclusive == f.exclusive && f.compiled.cNIncl == len(f.include) && f.compiled.cNOpt == len(f.optional) && f.compiled.cNExcl == len(f.exclude) && f.compiled.cTargetType == f.targetType.val && f.compiled.cHasTarget == f.hasTarget && (f.hasTarget ==> f.compiled.cTargetId == f.target.id && f.compiled.cTargetGen == f.target.gen) && len(f.compiled.Ids) == f.compiled.cNIncl && (!f.compiled.locked ==> f.compiled.filter != nil && !is(f.compiled.filter, *CachedFilter)))
+//@   requires forall id uint32 :: {mapHas(w.filterCache.indices, id)} mapHas(w.filterCache.indices, id) ==> 0 <= w.filterCache.indices[id] && w.filterCache.indices[id] < len(w.filterCache.filters)
+//@   flag may_panic
+//@   ensures[cfg] f.compiled.compiled && (f.compiled.compiled ==> f.compiled.cExclusive == f.exclusive && f.compiled.cNIncl == len(f.include) && f.compiled.cNOpt == len(f.optional) && f.compiled.cNExcl == len(f.exclude) && f.compiled.cTargetType == f.targetType.val && f.compiled.cHasTarget == f.hasTarget && (f.hasTarget ==> f.compiled.cTargetId == f.target.id && f.compiled.cTargetGen == f.target.gen) && len(f.compiled.Ids) == f.compiled.cNIncl && (!f.compiled.locked ==> f.compiled.filter != nil && !is(f.compiled.filter, *CachedFilter)))
+//@   ensures[pos] r.id0 == f.compiled.Ids[0] && r.id1 == f.compiled.Ids[1] && r.id2 == f.compiled.Ids[2] && r.id3 == f.compiled.Ids[3] && r.id4 == f.compiled.Ids[4] && r.id5 == f.compiled.Ids[5] && r.id6 == f.compiled.Ids[6] && r.id7 == f.compiled.Ids[7] && r.id8 == f.compiled.Ids[8] && r.id9 == f.compiled.Ids[9] && r.relation == f.compiled.Relation && r.hasRelation == f.compiled.HasRelation && r.Query.world == w
+//@   ensures[typed] !old(f.compiled.compiled) ==> r.id0.id == w.registry.Components[rtypeOf(typeid(A)).val] && r.id1.id == w.registry.Components[rtypeOf(typeid(B)).val] && r.id2.id == w.registry.Components[rtypeOf(typeid(C)).val] && r.id3.id == w.registry.Components[rtypeOf(typeid(D)).val] && r.id4.id == w.registry.Components[rtypeOf(typeid(E)).val] && r.id5.id == w.registry.Components[rtypeOf(typeid(F)).val] && r.id6.id == w.registry.Components[rtypeOf(typeid(G)).val] && r.id7.id == w.registry.Components[rtypeOf(typeid(H)).val] && r.id8.id == w.registry.Components[rtypeOf(typeid(I)).val] && r.id9.id == w.registry.Components[rtypeOf(typeid(J)).val]
+//@   modifies *(&f.compiled), w.registry.Components[ALL], w.registry.Types[ALL], w.registry.Used.bits, w.registry.IsRelation.bits, w.registry.IDs, elems(uint8), all(archetypeData.layouts), all(archetypeAccess.basePointer), w.locks.locks.bits, *(&w.locks.bitPool)
+
+//@ func Query10[A, B, C, D, E, F, G, H, I, J].Get(q) (r0, r1, r2, r3, r4, r5, r6, r7, r8, r9)
+//@   props C18
+//@   requires q.Query.access != nil
+//@   ensures[pos0] ref(r0) == asRef(compAt(q.Query.access, q.Query.entityIndex, q.id0.id))
+//@   ensures[pos1] ref(r1) == asRef(compAt(q.Query.access, q.Query.entityIndex, q.id1.id))
+//@   ensures[pos2] ref(r2) == asRef(compAt(q.Query.access, q.Query.entityIndex, q.id2.id))
+//@   ensures[pos3] ref(r3) == asRef(compAt(q.Query.access, q.Query.entityIndex, q.id3.id))
+//@   ensures[pos4] ref(r4) == asRef(compAt(q.Query.access, q.Query.entityIndex, q.id4.id))
+//@   ensures[pos5] ref(r5) == asRef(compAt(q.Query.access, q.Query.entityIndex, q.id5.id))
+//@   ensures[pos6] ref(r6) == asRef(compAt(q.Query.access, q.Query.entityIndex, q.id6.id))
+//@   ensures[pos7] ref(r7) == asRef(compAt(q.Query.access, q.Query.entityIndex, q.id7.id))
+//@   ensures[pos8] ref(r8) == asRef(compAt(q.Query.access, q.Query.entityIndex, q.id8.id))
+//@   ensures[pos9] ref(r9) == asRef(compAt(q.Query.access, q.Query.entityIndex, q.id9.id))
+
+//@ func Map10[A, B, C, D, E, F, G, H, I, J].GetUnchecked(m, entity) (r0, r1, r2, r3, r4, r5, r6, r7, r8, r9)
+//@   props C18
+//@   flag may_panic nosafe
+//@   ensures[pos0] ref(r0) == asRef(wgetU(m.world, entity, m.id0.id))
+//@   ensures[pos1] ref(r1) == asRef(wgetU(m.world, entity, m.id1.id))
+//@   ensures[pos2] ref(r2) == asRef(wgetU(m.world, entity, m.id2.id))
+//@   ensures[pos3] ref(r3) == asRef(wgetU(m.world, entity, m.id3.id))
+//@   ensures[pos4] ref(r4) == asRef(wgetU(m.world, entity, m.id4.id))
+//@   ensures[pos5] ref(r5) == asRef(wgetU(m.world, entity, m.id5.id))
+//@   ensures[pos6] ref(r6) == asRef(wgetU(m.world, entity, m.id6.id))
+//@   ensures[pos7] ref(r7) == asRef(wgetU(m.world, entity, m.id7.id))
+//@   ensures[pos8] ref(r8) == asRef(wgetU(m.world, entity, m.id8.id))
+//@   ensures[pos9] ref(r9) == asRef(wgetU(m.world, entity, m.id9.id))
+
+//@ func Map10[A, B, C, D, E, F, G, H, I, J].Get(m, entity) (r0, r1, r2, r3, r4, r5, r6, r7, r8, r9)
+//@   props C18
+//@   flag may_panic nosafe
+//@   ensures[pos0] ref(r0) == asRef(wget(m.world, entity, m.id0.id))
+//@   ensures[pos1] ref(r1) == asRef(wgetU(m.world, entity, m.id1.id))
+//@   ensures[pos2] ref(r2) == asRef(wgetU(m.world, entity, m.id2.id))
+//@   ensures[pos3] ref(r3) == asRef(wgetU(m.world, entity, m.id3.id))
+//@   ensures[pos4] ref(r4) == asRef(wgetU(m.world, entity, m.id4.id))
+//@   ensures[pos5] ref(r5) == asRef(wgetU(m.world, entity, m.id5.id))
+//@   ensures[pos6] ref(r6) == asRef(wgetU(m.world, entity, m.id6.id))
+//@   ensures[pos7] ref(r7) == asRef(wgetU(m.world, entity, m.id7.id))
+//@   ensures[pos8] ref(r8) == asRef(wgetU(m.world, entity, m.id8.id))
+//@   ensures[pos9] ref(r9) == asRef(wgetU(m.world, entity, m.id9.id))
+
+//@ func Filter11[A, B, C, D, E, F, G, H, I, J, K].Filter(f, w, target) (r)
+//@   props C18
+//@   requires w != nil && regInv(&w.registry) && (f.compiled.compiled ==> f.compiled.cExclusive == f.exclusive && f.compiled.cNIncl == len(f.include) && f.compiled.cNOpt == len(f.optional) && f.compiled.cNExcl == len(f.exclude) && f.compiled.cTargetType == f.targetType.val && f.compiled.cHasTarget == f.hasTarget && (f.hasTarget ==> f.compiled.cTargetId == f.target.id && f.compiled.cTargetGen == f.target.gen) && len(f.compiled.Ids) == f.compiled.cNIncl && (!f.compiled.locked ==> f.compiled.filter != nil && !is(f.compiled.filter, *CachedFilter)))
+//@   flag may_panic
+//@   ensures[cfg] f.compiled.compiled && (f.compiled.compiled ==> f.compiled.cExclusive == f.exclusive && f.compiled.cNIncl == len(f.include) && f.compiled.cNOpt == len(f.optional) && f.compiled.cNExcl == len(f.exclude) && f.compiled.cTargetType == f.targetType.val && f.compiled.cHasTarget == f.hasTarget && (f.hasTarget ==> f.compiled.cTargetId == f.target.id && f.compiled.cTargetGen == f.target.gen) && len(f.compiled.Ids) == f.compiled.cNIncl && (!f.compiled.locked ==> f.compiled.filter != nil && !is(f.compiled.filter, *CachedFilter)))
+//@   modifies *(&f.compiled), w.registry.Components[ALL], w.registry.Types[ALL], w.registry.Used.bits, w.registry.IsRelation.bits, w.registry.IDs, elems(uint8), all(archetypeData.layouts), all(archetypeAccess.basePointer)
+//@   ensures[kind] f.compiled.locked == old(f.compiled.locked) && (!f.compiled.locked ==> r != nil && !is(r, *CachedFilter))
+//@   ensures[ids] !old(f.compiled.compiled) ==> (forall k int :: {f.compiled.Ids[k]} 0 <= k && k < len(f.include) ==> f.compiled.Ids[k].id == w.registry.Components[f.include[k].val])
+//@   ensures[plain] len(target) == 0 ==> r == f.compiled.filter
+//@   ensures[target] len(target) > 0 ==> is(r, *RelationFilter) && as(r, *RelationFilter) == &f.compiled.relationFilter && f.compiled.relationFilter.Target == target[0] && is(f.compiled.relationFilter.Filter, *MaskFilter) && as(f.compiled.relationFilter.Filter, *MaskFilter) == &f.compiled.maskFilter
+
+//@ func NewFilter11() (f)
+//@   props C18
+//@   ensures[pos] f != nil && len(f.include) == 11 && f.optional.data == nil && f.exclude.data == nil && f.include[0] == rtypeOf(typeid(A)) && f.include[1] == rtypeOf(typeid(B)) && f.include[2] == rtypeOf(typeid(C)) && f.include[3] == rtypeOf(typeid(D)) && f.include[4] == rtypeOf(typeid(E)) && f.include[5] == rtypeOf(typeid(F)) && f.include[6] == rtypeOf(typeid(G)) && f.include[7] == rtypeOf(typeid(H)) && f.include[8] == rtypeOf(typeid(I)) && f.include[9] == rtypeOf(typeid(J)) && f.include[10] == rtypeOf(typeid(K))
+//@   ensures[inv] len(f.include) >= 11 && (f.optional.data != nil ==> f.optional.data != f.include.data) && (f.exclude.data != nil ==> f.exclude.data != f.include.data) && allocated(f.include.data) && allocated(f.optional.data) && allocated(f.exclude.data) && f.include[0] == rtypeOf(typeid(A)) && f.include[1] == rtypeOf(typeid(B)) && f.include[2] == rtypeOf(typeid(C)) && f.include[3] == rtypeOf(typeid(D)) && f.include[4] == rtypeOf(typeid(E)) && f.include[5] == rtypeOf(typeid(F)) && f.include[6] == rtypeOf(typeid(G)) && f.include[7] == rtypeOf(typeid(H)) && f.include[8] == rtypeOf(typeid(I)) && f.include[9] == rtypeOf(typeid(J)) && f.include[10] == rtypeOf(typeid(K))
+//@   ensures[fresh] !f.compiled.compiled && !f.compiled.locked && len(f.optional) == 0 && len(f.exclude) == 0 && !f.exclusive && f.targetType == nil && !f.hasTarget
+
+//@ func Filter11[A, B, C, D, E, F, G, H, I, J, K].Query(f, w, target) (r)
+//@   props C18
+//@   requires w != nil && regInv(&w.registry) && lockInv(&w.locks) && !f.compiled.locked && len(f.include) >= 11 && (f.optional.data != nil ==> f.optional.data != f.include.data) && (f.exclude.data != nil ==> f.exclude.data != f.include.data) && allocated(f.include.data) && allocated(f.optional.data) && allocated(f.exclude.data) && f.include[0] == rtypeOf(typeid(A)) && f.include[1] == rtypeOf(typeid(B)) && f.include[2] == rtypeOf(typeid(C)) && f.include[3] == rtypeOf(typeid(D)) && f.include[4] == rtypeOf(typeid(E)) && f.include[5] == rtypeOf(typeid(F)) && f.include[6] == rtypeOf(typeid(G)) && f.include[7] == rtypeOf(typeid(H)) && f.include[8] == rtypeOf(typeid(I)) && f.include[9] == rtypeOf(typeid(J)) && f.include[10] == rtypeOf(typeid(K)) && (f.compiled.compiled ==> f.compiled.cExclusive == f.exclusive && f.compiled.cNIncl == len(f.include) && f.compiled.cNOpt == len(f.optional) && f.compiled.cNExcl == len(f.exclude) && f.compiled.cTargetType == f.targetType.val && f.compiled.cHasTarget == f.hasTarget && (f.hasTarget ==> f.compiled.cTargetId == f.target.id && f.compiled.cTargetGen == f.target.gen) && len(f.compiled.Ids) == f.compiled.cNIncl && (!f.compiled.locked ==> f.compiled.filter != nil && !is(f.compiled.filter, *CachedFilter)))
+//@   requires forall id uint32 :: {mapHas(w.filterCache.indices, id)} mapHas(w.filterCache.indices, id) ==> 0 <= w.filterCache.indices[id] && w.filterCache.indices[id] < len(w.filterCache.filters)
+//@   flag may_panic
+//@   ensures[cfg] f.compiled.compiled && (f.compiled.compiled ==> f.compiled.cExclusive == f.exclusive && f.compiled.cNIncl == len(f.include) && f.compiled.cNOpt == len(f.optional) && f.compiled.cNExcl == len(f.exclude) && f.compiled.cTargetType == f.targetType.val && f.compiled.cHasTarget == f.hasTarget && (f.hasTarget ==> f.compiled.cTargetId == f.target.id && f.compiled.cTargetGen == f.target.gen) && len(f.compiled.Ids) == f.compiled.cNIncl && (!f.compiled.locked ==> f.compiled.filter != nil && !is(f.compiled.filter, *CachedFilter)))
+//@   ensures[pos] r.id0 == f.compiled.Ids[0] && r.id1 == f.compiled.Ids[1] && r.id2 == f.compiled.Ids[2] && r.id3 == f.compiled.Ids[3] && r.id4 == f.compiled.Ids[4] && r.id5 == f.compiled.Ids[5] && r.id6 == f.compiled.Ids[6] && r.id7 == f.compiled.Ids[7] && r.id8 == f.compiled.Ids[8] && r.id9 == f.compiled.Ids[9] && r.id10 == f.compiled.Ids[10] && r.relation == f.compiled.Relation && r.hasRelation == f.compiled.HasRelation && r.Query.world == w
+//@   ensures[typed] !old(f.compiled.compiled) ==> r.id0.id == w.registry.Components[rtypeOf(typeid(A)).val] && r.id1.id == w.registry.Components[rtypeOf(typeid(B)).val] && r.id2.id == w.registry.Components[rtypeOf(typeid(C)).val] && r.id3.id == w.registry.Components[rtypeOf(typeid(D)).val] && r.id4.id == w.registry.Components[rtypeOf(typeid(E)).val] && r.id5.id == w.registry.Components[rtypeOf(typeid(F)).val] && r.id6.id == w.registry.Components[rtypeOf(typeid(G)).val] && r.id7.id == w.registry.Components[rtypeOf(typeid(H)).val] && r.id8.id == w.registry.Components[rtypeOf(typeid(I)).val] && r.id9.id == w.registry.Components[rtypeOf(typeid(J)).val] && r.id10.id == w.registry.Components[rtypeOf(typeid(K)).val]
+//@   modifies *(&f.compiled), w.registry.Components[ALL], w.registry.Types[ALL], w.registry.Used.bits, w.registry.IsRelation.bits, w.registry.IDs, elems(uint8), all(archetypeData.layouts), all(archetypeAccess.basePointer), w.locks.locks.bits, *(&w.locks.bitPool)
+
+//@ func Query11[A, B, C, D, E, F, G, H, I, J, K].Get(q) (r0, r1, r2, r3, r4, r5, r6, r7, r8, r9, r10)
+//@   props C18
+//@   requires q.Query.access != nil
+//@   ensures[pos0] ref(r0) == asRef(compAt(q.Query.access, q.Query.entityIndex, q.id0.id))
+//@   ensures[pos1] ref(r1) == asRef(compAt(q.Query.access, q.Query.entityIndex, q.id1.id))
+//@   ensures[pos2] ref(r2) == asRef(compAt(q.Query.access, q.Query.entityIndex, q.id2.id))
+//@   ensures[pos3] ref(r3) == asRef(compAt(q.Query.access, q.Query.entityIndex, q.id3.id))
+//@   ensures[pos4] ref(r4) == asRef(compAt(q.Query.access, q.Query.entityIndex, q.id4.id))
+//@   ensures[pos5] ref(r5) == asRef(compAt(q.Query.access, q.Query.entityIndex, q.id5.id))
+//@   ensures[pos6] ref(r6) == asRef(compAt(q.Query.access, q.Query.entityIndex, q.id6.id))
+//@   ensures[pos7] ref(r7) == asRef(compAt(q.Query.access, q.Query.entityIndex, q.id7.id))
+//@   ensures[pos8] ref(r8) == asRef(compAt(q.Query.access, q.Query.entityIndex, q.id8.id))
+//@   ensures[pos9] ref(r9) == asRef(compAt(q.Query.access, q.Query.entityIndex, q.id9.id))
+//@   ensures[pos10] ref(r10) == asRef(compAt(q.Query.access, q.Query.entityIndex, q.id10.id))
+
+//@ func Map11[A, B, C, D, E, F, G, H, I, J, K].GetUnchecked(m, entity) (r0, r1, r2, r3, r4, r5, r6, r7, r8, r9, r10)
+//@   props C18
+//@   flag may_panic nosafe
+//@   ensures[pos0] ref(r0) == asRef(wgetU(m.world, entity, m.id0.id))
+//@   ensures[pos1] ref(r1) == asRef(wgetU(m.world, entity, m.id1.id))
+//@   ensures[pos2] ref(r2) == asRef(wgetU(m.world, entity, m.id2.id))
+//@   ensures[pos3] ref(r3) == asRef(wgetU(m.world, entity, m.id3.id))
+//@   ensures[pos4] ref(r4) == asRef(wgetU(m.world, entity, m.id4.id))
+//@   ensures[pos5] ref(r5) == asRef(wgetU(m.world, entity, m.id5.id))
+//@   ensures[pos6] ref(r6) == asRef(wgetU(m.world, entity, m.id6.id))
+//@   ensures[pos7] ref(r7) == asRef(wgetU(m.world, entity, m.id7.id))
+//@   ensures[pos8] ref(r8) == asRef(wgetU(m.world, entity, m.id8.id))
+//@   ensures[pos9] ref(r9) == asRef(wgetU(m.world, entity, m.id9.id))
+//@   ensures[pos10] ref(r10) == asRef(wgetU(m.world, entity, m.id10.id))
+
+//@ func Map11[A, B, C, D, E, F, G, H, I, J, K].Get(m, entity) (r0, r1, r2, r3, r4, r5, r6, r7, r8, r9, r10)
+//@   props C18
+//@   flag may_panic nosafe
+//@   ensures[pos0] ref(r0) == asRef(wget(m.world, entity, m.id0.id))
+//@   ensures[pos1] ref(r1) == asRef(wgetU(m.world, entity, m.id1.id))
+//@   ensures[pos2] ref(r2) == asRef(wgetU(m.world, entity, m.id2.id))
+//@   ensures[pos3] ref(r3) == asRef(wgetU(m.world, entity, m.id3.id))
+//@   ensures[pos4] ref(r4) == asRef(wgetU(m.world, entity, m.id4.id))
+//@   ensures[pos5] ref(r5) == asRef(wgetU(m.world, entity, m.id5.id))
+//@   ensures[pos6] ref(r6) == asRef(wgetU(m.world, entity, m.id6.id))
+//@   ensures[pos7] ref(r7) == asRef(wgetU(m.world, entity, m.id7.id))
+//@   ensures[pos8] ref(r8) == asRef(wgetU(m.world, entity, m.id8.id))
+//@   ensures[pos9] ref(r9) == asRef(wgetU(m.world, entity, m.id9.id))
+//@   ensures[pos10] ref(r10) == asRef(wgetU(m.world, entity, m.id10.id))
+
+//@ func Filter12[A, B, C, D, E, F, G, H, I, J, K, L].Filter(f, w, target) (r)
+//@   props C18
+//@   requires w != nil && regInv(&w.registry) && (f.compiled.compiled ==> f.compiled.cExclusive == f.exclusive && f.compiled.cNIncl == len(f.include) && f.compiled.cNOpt == len(f.optional) && f.compiled.cNExcl == len(f.exclude) && f.compiled.cTargetType == f.targetType.val && f.compiled.cHasTarget == f.hasTarget && (f.hasTarget ==> f.compiled.cTargetId == f.target.id && f.compiled.cTargetGen == f.target.gen) && len(f.compiled.Ids) == f.compiled.cNIncl && (!f.compiled.locked ==> f.compiled.filter != nil && !is(f.compiled.filter, *CachedFilter)))
+//@   flag may_panic
+//@   ensures[cfg] f.compiled.compiled && (f.compiled.compiled ==> f.compiled.cExclusive == f.exclusive && f.compiled.cNIncl == len(f.include) && f.compiled.cNOpt == len(f.optional) && f.compiled.cNExcl == len(f.exclude) && f.compiled.cTargetType == f.targetType.val && f.compiled.cHasTarget == f.hasTarget && (f.hasTarget ==> f.compiled.cTargetId == f.target.id && f.compiled.cTargetGen == f.target.gen) && len(f.compiled.Ids) == f.compiled.cNIncl && (!f.compiled.locked ==> f.compiled.filter != nil && !is(f.compiled.filter, *CachedFilter)))
+//@   modifies *(&f.compiled), w.registry.Components[ALL], w.registry.Types[ALL], w.registry.Used.bits, w.registry.IsRelation.bits, w.registry.IDs, elems(uint8), all(archetypeData.layouts), all(archetypeAccess.basePointer)
+//@   ensures[kind] f.compiled.locked == old(f.compiled.locked) && (!f.compiled.locked ==> r != nil && !is(r, *CachedFilter))
+//@   ensures[ids] !old(f.compiled.compiled) ==> (forall k int :: {f.compiled.Ids[k]} 0 <= k && k < len(f.include) ==> f.compiled.Ids[k].id == w.registry.Components[f.include[k].val])
+//@   ensures[plain] len(target) == 0 ==> r == f.compiled.filter
+//@   ensures[target] len(target) > 0 ==> is(r, *RelationFilter) && as(r, *RelationFilter) == &f.compiled.relationFilter && f.compiled.relationFilter.Target == target[0] && is(f.compiled.relationFilter.Filter, *MaskFilter) && as(f.compiled.relationFilter.Filter, *MaskFilter) == &f.compiled.maskFilter
+
+//@ func NewFilter12() (f)
+//@   props C18
+//@   ensures[pos] f != nil && len(f.include) == 12 && f.optional.data == nil && f.exclude.data == nil && f.include[0] == rtypeOf(typeid(A)) && f.include[1] == rtypeOf(typeid(B)) && f.include[2] == rtypeOf(typeid(C)) && f.include[3] == rtypeOf(typeid(D)) && f.include[4] == rtypeOf(typeid(E)) && f.include[5] == rtypeOf(typeid(F)) && f.include[6] == rtypeOf(typeid(G)) && f.include[7] == rtypeOf(typeid(H)) && f.include[8] == rtypeOf(typeid(I)) && f.include[9] == rtypeOf(typeid(J)) && f.include[10] == rtypeOf(typeid(K)) && f.include[11] == rtypeOf(typeid(L))
+//@   ensures[inv] len(f.include) >= 12 && (f.optional.data != nil ==> f.optional.data != f.include.data) && (f.exclude.data != nil ==> f.exclude.data != f.include.data) && allocated(f.include.data) && allocated(f.optional.data) && allocated(f.exclude.data) && f.include[0] == rtypeOf(typeid(A)) && f.include[1] == rtypeOf(typeid(B)) && f.include[2] == rtypeOf(typeid(C)) && f.include[3] == rtypeOf(typeid(D)) && f.include[4] == rtypeOf(typeid(E)) && f.include[5] == rtypeOf(typeid(F)) && f.include[6] == rtypeOf(typeid(G)) && f.include[7] == rtypeOf(typeid(H)) && f.include[8] == rtypeOf(typeid(I)) && f.include[9] == rtypeOf(typeid(J)) && f.include[10] == rtypeOf(typeid(K)) && f.include[11] == rtypeOf(typeid(L))
+//@   ensures[fresh] !f.compiled.compiled && !f.compiled.locked && len(f.optional) == 0 && len(f.exclude) == 0 && !f.exclusive && f.targetType == nil && !f.hasTarget
+
+//@ func Filter12[A, B, C, D, E, F, G, H, I, J, K, L].Query(f, w, target) (r)
+//@   props C18
+//@   requires w != nil && regInv(&w.registry) && lockInv(&w.locks) && !f.compiled.locked && len(f.include) >= 12 && (f.optional.data != nil ==> f.optional.data != f.include.data) && (f.exclude.data != nil ==> f.exclude.data != f.include.data) && allocated(f.include.data) && allocated(f.optional.data) && allocated(f.exclude.data) && f.include[0] == rtypeOf(typeid(A)) && f.include[1] == rtypeOf(typeid(B)) && f.include[2] == rtypeOf(typeid(C)) && f.include[3] == rtypeOf(typeid(D)) && f.include[4] == rtypeOf(typeid(E)) && f.include[5] == rtypeOf(typeid(F)) && f.include[6] == rtypeOf(typeid(G)) && f.include[7] == rtypeOf(typeid(H)) && f.include[8] == rtypeOf(typeid(I)) && f.include[9] == rtypeOf(typeid(J)) && f.include[10] == rtypeOf(typeid(K)) && f.include[11] == rtypeOf(typeid(L)) && (f.compiled.compiled ==> f.compiled.cExclusive == f.exclusive && f.compiled.cNIncl == len(f.include) && f.compiled.cNOpt == len(f.optional) && f.compiled.cNExcl == len(f.exclude) && f.compiled.cTargetType == f.targetType.val && f.compiled.cHasTarget == f.hasTarget && (f.hasTarget ==> f.compiled.cTargetId == f.target.id && f.compiled.cTargetGen == f.target.gen) && len(f.compiled.Ids) == f.compiled.cNIncl && (!f.compiled.locked ==> f.compiled.filter != nil && !is(f.compiled.filter, *CachedFilter)))
+//@   requires forall id uint32 :: {mapHas(w.filterCache.indices, id)} mapHas(w.filterCache.indices, id) ==> 0 <= w.filterCache.indices[id] && w.filterCache.indices[id] < len(w.filterCache.filters)
+//@   flag may_panic
+//@   ensures[cfg] f.compiled.compiled && (f.compiled.compiled ==> f.compiled.cExclusive == f.exclusive && f.compiled.cNIncl == len(f.include) && f.compiled.cNOpt == len(f.optional) && f.compiled.cNExcl == len(f.exclude) && f.compiled.cTargetType == f.targetType.val && f.compiled.cHasTarget == f.hasTarget && (f.hasTarget ==> f.compiled.cTargetId == f.target.id && f.compiled.cTargetGen == f.target.gen) && len(f.compiled.Ids) == f.compiled.cNIncl && (!f.compiled.locked ==> f.compiled.filter != nil && !is(f.compiled.filter, *CachedFilter)))
+//@   ensures[pos] r.id0 == f.compiled.Ids[0] && r.id1 == f.compiled.Ids[1] && r.id2 == f.compiled.Ids[2] && r.id3 == f.compiled.Ids[3] && r.id4 == f.compiled.Ids[4] && r.id5 == f.compiled.Ids[5] && r.id6 == f.compiled.Ids[6] && r.id7 == f.compiled.Ids[7] && r.id8 == f.compiled.Ids[8] && r.id9 == f.compiled.Ids[9] && r.id10 == f.compiled.Ids[10] && r.id11 == f.compiled.Ids[11] && r.relation == f.compiled.Relation && r.hasRelation == f.compiled.HasRelation && r.Query.world == w
+//@   ensures[typed] !old(f.compiled.compiled) ==> r.id0.id == w.registry.Components[rtypeOf(typeid(A)).val] && r.id1.id == w.registry.Components[rtypeOf(typeid(B)).val] && r.id2.id == w.registry.Components[rtypeOf(typeid(C)).val] && r.id3.id == w.registry.Components[rtypeOf(typeid(D)).val] && r.id4.id == w.registry.Components[rtypeOf(typeid(E)).val] && r.id5.id == w.registry.Components[rtypeOf(typeid(F)).val] && r.id6.id == w.registry.Components[rtypeOf(typeid(G)).val] && r.id7.id == w.registry.Components[rtypeOf(typeid(H)).val] && r.id8.id == w.registry.Components[rtypeOf(typeid(I)).val] && r.id9.id == w.registry.Components[rtypeOf(typeid(J)).val] && r.id10.id == w.registry.Components[rtypeOf(typeid(K)).val] && r.id11.id == w.registry.Components[rtypeOf(typeid(L)).val]
+//@   modifies *(&f.compiled), w.registry.Components[ALL], w.registry.Types[ALL], w.registry.Used.bits, w.registry.IsRelation.bits, w.registry.IDs, elems(uint8), all(archetypeData.layouts), all(archetypeAccess.basePointer), w.locks.locks.bits, *(&w.locks.bitPool)
+
+//@ func Query12[A, B, C, D, E, F, G, H, I, J, K, L].Get(q) (r0, r1, r2, r3, r4, r5, r6, r7, r8, r9, r10, r11)
+//@   props C18
+//@   requires q.Query.access != nil
+//@   ensures[pos0] ref(r0) == asRef(compAt(q.Query.access, q.Query.entityIndex, q.id0.id))
+//@   ensures[pos1] ref(r1) == asRef(compAt(q.Query.access, q.Query.entityIndex, q.id1.id))
+//@   ensures[pos2] ref(r2) == asRef(compAt(q.Query.access, q.Query.entityIndex, q.id2.id))
+//@   ensures[pos3] ref(r3) == asRef(compAt(q.Query.access, q.Query.entityIndex, q.id3.id))
+//@   ensures[pos4] ref(r4) == asRef(compAt(q.Query.access, q.Query.entityIndex, q.id4.id))
+//@   ensures[pos5] ref(r5) == asRef(compAt(q.Query.access, q.Query.entityIndex, q.id5.id))
+//@   ensures[pos6] ref(r6) == asRef(compAt(q.Query.access, q.Query.entityIndex, q.id6.id))
+//@   ensures[pos7] ref(r7) == asRef(compAt(q.Query.access, q.Query.entityIndex, q.id7.id))
+//@   ensures[pos8] ref(r8) == asRef(compAt(q.Query.access, q.Query.entityIndex, q.id8.id))
+//@   ensures[pos9] ref(r9) == asRef(compAt(q.Query.access, q.Query.entityIndex, q.id9.id))
+//@   ensures[pos10] ref(r10) == asRef(compAt(q.Query.access, q.Query.entityIndex, q.id10.id))
+//@   ensures[pos11] ref(r11) == asRef(compAt(q.Query.access, q.Query.entityIndex, q.id11.id))
+
+//@ func Map12[A, B, C, D, E, F, G, H, I, J, K, L].GetUnchecked(m, entity) (r0, r1, r2, r3, r4, r5, r6, r7, r8, r9, r10, r11)
+//@   props C18
+//@   flag may_panic nosafe
+//@   ensures[pos0] ref(r0) == asRef(wgetU(m.world, entity, m.id0.id))
+//@   ensures[pos1] ref(r1) == asRef(wgetU(m.world, entity, m.id1.id))
+//@   ensures[pos2] ref(r2) == asRef(wgetU(m.world, entity, m.id2.id))
+//@   ensures[pos3] ref(r3) == asRef(wgetU(m.world, entity, m.id3.id))
+//@   ensures[pos4] ref(r4) == asRef(wgetU(m.world, entity, m.id4.id))
+//@   ensures[pos5] ref(r5) == asRef(wgetU(m.world, entity, m.id5.id))
+//@   ensures[pos6] ref(r6) == asRef(wgetU(m.world, entity, m.id6.id))
+//@   ensures[pos7] ref(r7) == asRef(wgetU(m.world, entity, m.id7.id))
+//@   ensures[pos8] ref(r8) == asRef(wgetU(m.world, entity, m.id8.id))
+//@   ensures[pos9] ref(r9) == asRef(wgetU(m.world, entity, m.id9.id))
+//@   ensures[pos10] ref(r10) == asRef(wgetU(m.world, entity, m.id10.id))
+//@   ensures[pos11] ref(r11) == asRef(wgetU(m.world, entity, m.id11.id))
+
+//@ func Map12[A, B, C, D, E, F, G, H, I, J, K, L].Get(m, entity) (r0, r1, r2, r3, r4, r5, r6, r7, r8, r9, r10, r11)
+//@   props C18
+//@   flag may_panic nosafe
+//@   ensures[pos0] ref(r0) == asRef(wget(m.world, entity, m.id0.id))
+//@   ensures[pos1] ref(r1) == asRef(wgetU(m.world, entity, m.id1.id))
+//@   ensures[pos2] ref(r2) == asRef(wgetU(m.world, entity, m.id2.id))
+//@   ensures[pos3] ref(r3) == asRef(wgetU(m.world, entity, m.id3.id))
+//@   ensures[pos4] ref(r4) == asRef(wgetU(m.world, entity, m.id4.id))
+//@   ensures[pos5] ref(r5) == asRef(wgetU(m.world, entity, m.id5.id))
+//@   ensures[pos6] ref(r6) == asRef(wgetU(m.world, entity, m.id6.id))
+//@   ensures[pos7] ref(r7) == asRef(wgetU(m.world, entity, m.id7.id))
+//@   ensures[pos8] ref(r8) == asRef(wgetU(m.world, entity, m.id8.id))
+//@   ensures[pos9] ref(r9) == asRef(wgetU(m.world, entity, m.id9.id))
+//@   ensures[pos10] ref(r10) == asRef(wgetU(m.world, entity, m.id10.id))
+//@   ensures[pos11] ref(r11) == asRef(wgetU(m.world, entity, m.id11.id))
+
+// END GENERATED C18
